@@ -10,8 +10,7 @@ from sa.cfg import cfg_of, negate
 from sa.classes import is_logging_stmt
 from sa.minieval import CannotEval, Record, ev
 from sa.source import AnchorMissing, arg_of, bind_args, dotted, is_self_attr, last_attr, local_defs, params_of, short, u, walk_body
-from sa.sym import UnknownAtom
-from sa.tables import Outcome, Unsupported, decide
+from sa.tables import Unsupported
 
 _L = "esrally/track/loader.py"
 _T = "esrally/track/track.py"
@@ -165,11 +164,14 @@ def hyphenate(name: str) -> str:
     return "".join(["-" + c.lower() if c.isupper() else c for c in name]).lstrip("-")
 
 
+_READER = ["_r"]  # role, set by run(): the method of the specification reader through which keys are read (self.<reader>(<spec>, "<key>", ...))
+
+
 def r_key(e, defs=None):
     """key string of a `self._r(spec, "key", ...)` expression (through one local)."""
     if isinstance(e, ast.Name) and defs and e.id in defs:
         e = defs[e.id]
-    if isinstance(e, ast.Call) and u(e.func) == "self._r" and isinstance(arg_of(e, 1, "path"), ast.Constant):
+    if isinstance(e, ast.Call) and isinstance(e.func, ast.Attribute) and is_self_attr(e.func, _READER[0]) and isinstance(arg_of(e, 1, "path"), ast.Constant):
         return arg_of(e, 1, "path").value, e
     return None, e
 
@@ -190,12 +192,6 @@ def method(mod, cls, name):
 def stmts_of(body):
     """statements of a body that matter: docstrings and logging statements dropped."""
     return [s for s in body if not is_logging_stmt(s) and not (isinstance(s, ast.Expr) and isinstance(s.value, ast.Constant) and isinstance(s.value.value, str))]
-
-
-def exact_facts(node, patterns, binds=None, stop=None):
-    """the atomic guard facts of node are exactly the patterns: each pattern holds (any orientation / polarity / arm order) and no further condition narrows the site."""
-    fs = pat.fact_nodes(node, stop)
-    return bool(fs) and all(any(pat.match(f, p, binds) is not None for f in fs) for p in patterns) and all(any(pat.match(f, p, binds) is not None for p in patterns) for f in fs)
 
 
 def rejecting_condition(g, ifnode):
@@ -219,23 +215,862 @@ def assigned_from(func, pred):
     return [n.targets[0].id for n in walk_body(func) if isinstance(n, ast.Assign) and len(n.targets) == 1 and isinstance(n.targets[0], ast.Name) and isinstance(n.value, ast.Call) and pred(n.value)]
 
 
+# ---- a small interpreter over EXTRACTED statements ---------------------------------------------------------------------------------------------------------
+# Values are Python containers / numbers / strings, Record and Opaque (an uninterpreted value: the result of a call the rule does not interpret, an attribute of such a value,
+# a free name). Two Opaque values are equal iff they were built the same way from equal arguments, so "the name of the task parsed from spec A" equals itself and differs from the
+# one parsed from spec B — which is all a dedupe idiom or an order-preserving loop can observe. Nothing of the repository is ever called; whatever the interpreter does not
+# understand raises CannotEval and the rule reports "not recognised".
+
+class Opaque:
+    __slots__ = ("sig",)
+
+    def __init__(self, *sig):
+        self.sig = sig
+
+    def __eq__(self, o):
+        return isinstance(o, Opaque) and self.sig == o.sig
+
+    def __ne__(self, o):
+        return not self.__eq__(o)
+
+    def __hash__(self):
+        return hash(self.sig)
+
+    def __lt__(self, o):
+        return repr(self) < repr(o)
+
+    def __bool__(self):
+        raise CannotEval(f"truth value of the uninterpreted {self!r}")
+
+    def __repr__(self):
+        return "<" + " ".join(str(x) for x in self.sig) + ">"
+
+
+def _has_opaque(v):
+    if isinstance(v, Opaque):
+        return True
+    if isinstance(v, dict):
+        return any(_has_opaque(k) or _has_opaque(x) for k, x in v.items())
+    if isinstance(v, (list, tuple, set, frozenset)):
+        return any(_has_opaque(x) for x in v)
+    if isinstance(v, Record):
+        return any(_has_opaque(x) for x in v.fields.values())
+    return False
+
+
+def _freeze(v):
+    if isinstance(v, (list, tuple)):
+        return tuple(_freeze(x) for x in v)
+    if isinstance(v, (set, frozenset)):
+        return frozenset(_freeze(x) for x in v)
+    if isinstance(v, dict):
+        return ("dict",) + tuple((_freeze(k), _freeze(x)) for k, x in v.items())
+    if isinstance(v, Record):
+        return ("record",) + tuple(sorted((k, _freeze(x)) for k, x in v.fields.items()))
+    try:
+        hash(v)
+        return v
+    except TypeError:
+        return repr(v)
+
+
+class SelfObj(Record):
+    """the object whose method is interpreted: the fields the rule fixes (and those the interpreted code stores); any other attribute is an uninterpreted value."""
+
+
+class Rejected(CannotEval):
+    """the interpreted statements reject the representative input (raise / a definite Python error) before the point of interest is reached."""
+
+    def __init__(self, msg, kind, node):
+        super().__init__(msg)
+        self.kind, self.node = kind, node
+
+
+class _Sig(Exception):
+    """control leaves the interpreted statements: return / raise / break / continue."""
+
+    def __init__(self, kind, value=None, node=None, exc_type=None):
+        super().__init__(kind)
+        self.kind, self.value, self.node = kind, value, node
+        self.exc_type = exc_type  # raise / error: last name component of the exception class, None if unknown
+
+
+_MUTATORS = {"add", "update", "append", "extend", "insert", "setdefault", "pop", "remove", "discard", "clear", "sort", "reverse", "subtract", "difference_update", "intersection_update",
+             "symmetric_difference_update", "popitem", "appendleft", "extendleft"}
+_PURE_METHODS = {"get", "keys", "values", "items", "copy", "count", "index", "union", "intersection", "difference", "symmetric_difference", "issubset", "issuperset", "isdisjoint",
+                 "most_common", "elements", "join", "format", "lower", "upper", "isupper", "islower", "isdigit", "isalpha", "strip", "lstrip", "rstrip", "split", "startswith", "endswith", "replace", "title", "casefold"}
+_SIM_TYPES = {"dict": dict, "list": list, "str": str, "bytes": bytes, "int": int, "float": float, "tuple": tuple, "set": set, "bool": bool}
+
+
+def _sim_builtins(sim):
+    import collections as _c
+
+    def _sorted(x, key=None, reverse=False):
+        return sorted(x, key=key, reverse=reverse)
+
+    return {"len": len, "set": set, "list": list, "tuple": tuple, "dict": dict, "frozenset": frozenset, "sorted": _sorted, "reversed": lambda x: list(reversed(x)),
+            "enumerate": lambda x, start=0: [tuple(p) for p in enumerate(sim.items(x), start)], "zip": lambda *a: [tuple(p) for p in zip(*[sim.items(x) for x in a])],
+            "range": lambda *a: list(range(*a)), "any": lambda x: any(sim.truth(v) for v in sim.items(x)), "all": lambda x: all(sim.truth(v) for v in sim.items(x)),
+            "sum": sum, "min": min, "max": max, "bool": sim.truth, "str": str, "repr": repr, "int": int, "float": float, "abs": abs, "filter": lambda f, x: [v for v in sim.items(x) if sim.truth(f(v) if f else v)],
+            "map": lambda f, *a: [f(*p) for p in zip(*[sim.items(x) for x in a])], "iter": lambda x: iter(sim.items(x)), "next": next, "getattr": sim._getattr,
+            "collections.Counter": _c.Counter, "Counter": _c.Counter, "collections.OrderedDict": _c.OrderedDict, "OrderedDict": _c.OrderedDict,
+            "collections.defaultdict": _c.defaultdict, "defaultdict": _c.defaultdict, "collections.deque": _c.deque, "deque": _c.deque}
+
+
+class Sim:
+    """interprets extracted statements / expressions on the values above. hook(call, env, sim) may interpret a call itself (return NotImplemented to decline)."""
+
+    def __init__(self, hook=None, max_steps=40000, consts=None):
+        self.hook = hook
+        self.consts = consts or {}  # dotted name -> value, for attribute chains rooted in a free name (constants of another module)
+        self.steps = 0
+        self.max_steps = max_steps
+        self.depth = 0
+        self.handling = []  # the exceptions whose handlers are being interpreted (for a bare `raise`)
+        self.builtins = _sim_builtins(self)
+
+    # -- values ------------------------------------------------------------------------------------------------------------------------------------------
+    def truth(self, v):
+        if isinstance(v, Opaque):
+            raise CannotEval(f"truth value of the uninterpreted {v!r}")
+        return True if isinstance(v, Record) else bool(v)
+
+    def items(self, v):
+        """the elements a loop over v visits (sets in a fixed order)."""
+        if isinstance(v, (set, frozenset)):
+            return sorted(v, key=repr)
+        if isinstance(v, (list, tuple, dict, str)) or type(v).__name__ in ("Counter", "OrderedDict", "defaultdict", "deque", "dict_keys", "dict_values", "dict_items", "list_iterator"):
+            return list(v)
+        raise CannotEval(f"iteration over {type(v).__name__} {v!r}"[:80])
+
+    def _getattr(self, obj, name, *default):
+        if isinstance(obj, Opaque) and isinstance(name, str):
+            return Opaque("attr", obj, name)
+        if isinstance(obj, Record) and isinstance(name, str):
+            if name in obj.fields:
+                return obj.fields[name]
+            if default:
+                return default[0]
+        raise CannotEval(f"getattr({obj!r}, {name!r})"[:80])
+
+    def _tick(self):
+        self.steps += 1
+        if self.steps > self.max_steps:
+            raise CannotEval("step limit of the interpreter")
+
+    def ev(self, e, env):
+        try:
+            return self._ev(e, env)
+        except (CannotEval, _Sig):
+            raise
+        except (TypeError, ValueError, KeyError, IndexError, AttributeError, RecursionError, ZeroDivisionError, OverflowError) as x:
+            raise CannotEval(f"{u(e)[:50]}: {type(x).__name__}: {x}"[:120])  # an operation of the interpreter itself failed on these values: not recognised, never a verdict
+
+    def _ev(self, e, env):
+        self._tick()
+        if isinstance(e, ast.Constant):
+            return e.value
+        if isinstance(e, ast.Name):
+            return env[e.id] if e.id in env else (self.builtins[e.id] if e.id in self.builtins else Opaque("free", e.id))
+        if isinstance(e, ast.Attribute):
+            if self.consts:
+                d = dotted(e)
+                if d in self.consts and d.split(".")[0] not in env:
+                    return self.consts[d]
+            v = self.ev(e.value, env)
+            if isinstance(v, Record) and e.attr in v.fields:
+                return v.fields[e.attr]
+            if isinstance(v, SelfObj):
+                return Opaque("attr", Opaque("free", "self"), e.attr)
+            if isinstance(v, Opaque):
+                return Opaque("attr", v, e.attr)
+            raise CannotEval(f"attribute {u(e)[:50]} of a {type(v).__name__}")
+        if isinstance(e, ast.Subscript):
+            v = self.ev(e.value, env)
+            if isinstance(e.slice, ast.Slice):
+                k = slice(*[None if x is None else self.ev(x, env) for x in (e.slice.lower, e.slice.upper, e.slice.step)])
+            else:
+                k = self.ev(e.slice, env)
+            if isinstance(v, Opaque):
+                return Opaque("item", v, _freeze(k) if not isinstance(k, slice) else repr(k))
+            try:
+                return v[k]
+            except (KeyError, IndexError) as x:
+                if type(v) in (dict, list, tuple) and not isinstance(k, Opaque):
+                    raise _Sig("error", f"{type(x).__name__} in {u(e)[:50]}", e, type(x).__name__)  # a definite Python error on the supplied value, not a rejection
+                raise CannotEval(f"{u(e)[:50]}: {type(x).__name__}")
+            except TypeError as x:
+                raise CannotEval(f"{u(e)[:50]}: {type(x).__name__}")
+        if isinstance(e, ast.Compare):
+            left = self.ev(e.left, env)
+            for op, c in zip(e.ops, e.comparators):
+                right = self.ev(c, env)
+                if not self._cmp(op, left, right, e):
+                    return False
+                left = right
+            return True
+        if isinstance(e, ast.BoolOp):
+            r = None
+            for v in e.values:
+                r = self.ev(v, env)
+                if self.truth(r) != isinstance(e.op, ast.And):
+                    return r
+            return r
+        if isinstance(e, ast.UnaryOp):
+            v = self.ev(e.operand, env)
+            if isinstance(e.op, ast.Not):
+                return not self.truth(v)
+            if isinstance(e.op, ast.USub) and isinstance(v, (int, float)):
+                return -v
+            raise CannotEval(u(e)[:50])
+        if isinstance(e, ast.IfExp):
+            return self.ev(e.body if self.truth(self.ev(e.test, env)) else e.orelse, env)
+        if isinstance(e, (ast.List, ast.Tuple, ast.Set)):
+            vals = []
+            for x in e.elts:
+                if isinstance(x, ast.Starred):
+                    vals += self.items(self.ev(x.value, env))
+                else:
+                    vals.append(self.ev(x, env))
+            return vals if isinstance(e, ast.List) else (tuple(vals) if isinstance(e, ast.Tuple) else set(vals))
+        if isinstance(e, ast.Dict):
+            out = {}
+            for k, v in zip(e.keys, e.values):
+                if k is None:
+                    d = self.ev(v, env)
+                    if not isinstance(d, dict):
+                        raise CannotEval("** of a non-dict")
+                    out.update(d)
+                else:
+                    out[self.ev(k, env)] = self.ev(v, env)
+            return out
+        if isinstance(e, (ast.ListComp, ast.SetComp, ast.GeneratorExp, ast.DictComp)):
+            out = []
+
+            def rec(i, env_):
+                if i == len(e.generators):
+                    out.append((self.ev(e.key, env_), self.ev(e.value, env_)) if isinstance(e, ast.DictComp) else self.ev(e.elt, env_))
+                    return
+                g = e.generators[i]
+                if g.is_async:
+                    raise CannotEval("async comprehension")
+                for v in self.items(self.ev(g.iter, env_)):
+                    env2 = dict(env_)
+                    self.assign(g.target, v, env2)
+                    if all(self.truth(self.ev(c, env2)) for c in g.ifs):
+                        rec(i + 1, env2)
+
+            rec(0, dict(env))
+            return dict(out) if isinstance(e, ast.DictComp) else (set(out) if isinstance(e, ast.SetComp) else out)
+        if isinstance(e, ast.BinOp):
+            a, b = self.ev(e.left, env), self.ev(e.right, env)
+            if isinstance(e.op, ast.Mod) and isinstance(a, str):
+                return "<formatted text>"
+            if isinstance(a, Opaque) or isinstance(b, Opaque):
+                raise CannotEval(f"{u(e)[:50]}: uninterpreted operand")
+            try:
+                import operator as _o
+                return {ast.Add: _o.add, ast.Sub: _o.sub, ast.Mult: _o.mul, ast.Div: _o.truediv, ast.FloorDiv: _o.floordiv, ast.Mod: _o.mod, ast.BitAnd: _o.and_, ast.BitOr: _o.or_,
+                        ast.BitXor: _o.xor, ast.Pow: _o.pow}[type(e.op)](a, b)
+            except (KeyError, TypeError, ZeroDivisionError, ValueError, OverflowError) as x:
+                raise CannotEval(f"{u(e)[:50]}: {type(x).__name__}")
+        if isinstance(e, ast.JoinedStr):
+            return "".join(str(v.value) if isinstance(v, ast.Constant) else repr(self.ev(v.value, env)) for v in e.values)
+        if isinstance(e, ast.NamedExpr):
+            v = self.ev(e.value, env)
+            env[e.target.id] = v
+            return v
+        if isinstance(e, ast.Lambda):
+            names = params_of(e)
+            if e.args.vararg or e.args.kwarg or e.args.kwonlyargs or e.args.defaults:
+                raise CannotEval("lambda signature")
+            return lambda *a: self.ev(e.body, {**env, **dict(zip(names, a))})
+        if isinstance(e, ast.Call):
+            return self.call(e, env)
+        raise CannotEval(f"{type(e).__name__}: {u(e)[:50]}")
+
+    def _cmp(self, op, a, b, e):
+        oa, ob = isinstance(a, Opaque), isinstance(b, Opaque)
+        if isinstance(op, (ast.Is, ast.IsNot, ast.Eq, ast.NotEq)):
+            if oa != ob:
+                other = b if oa else a
+                opq = a if oa else b
+                free = opq.sig[0] == "free"
+                if opq.sig[0] == "attr" and opq.sig[1] == Opaque("free", "self") and other is not None:
+                    # an attribute of the object itself that the rule did not fix (a configuration value) compared with a value of the specification: the representative
+                    # configuration is "matches nothing" (e.g. no challenge selected)
+                    return isinstance(op, (ast.IsNot, ast.NotEq))
+                if other is not None or free:
+                    raise CannotEval(f"{u(e)[:50]}: comparison of an uninterpreted value with {other!r}")
+            r = (a == b) if (oa or ob or isinstance(op, (ast.Eq, ast.NotEq))) else (a is b)
+            return r if isinstance(op, (ast.Is, ast.Eq)) else not r
+        if isinstance(op, (ast.In, ast.NotIn)):
+            if ob or isinstance(b, (int, float, type(None))):
+                raise CannotEval(f"{u(e)[:50]}: membership in {b!r}"[:90])
+            try:
+                r = a in b
+            except TypeError as x:
+                raise CannotEval(f"{u(e)[:50]}: {x}")
+            return r if isinstance(op, ast.In) else not r
+        if oa or ob:
+            raise CannotEval(f"{u(e)[:50]}: ordering of an uninterpreted value")
+        try:
+            import operator as _o
+            return {ast.Lt: _o.lt, ast.LtE: _o.le, ast.Gt: _o.gt, ast.GtE: _o.ge}[type(op)](a, b)
+        except TypeError as x:
+            raise CannotEval(f"{u(e)[:50]}: {x}")
+
+    def call(self, e, env):
+        if self.hook is not None:
+            r = self.hook(e, env, self)
+            if r is not NotImplemented:
+                return r
+        if any(isinstance(a, ast.Starred) for a in e.args) or any(k.arg is None for k in e.keywords):
+            raise CannotEval(f"{u(e)[:50]}: * / ** arguments")
+        d = dotted(e.func)
+        args = [self.ev(a, env) for a in e.args]
+        kwargs = {k.arg: self.ev(k.value, env) for k in e.keywords}
+        if d in self.builtins and d.split(".")[0] not in env:
+            try:
+                return self.builtins[d](*args, **kwargs)
+            except (CannotEval, _Sig):
+                raise
+            except Exception as x:
+                if any(isinstance(a, Opaque) for a in args):
+                    return Opaque("call", d, _freeze(args), _freeze(kwargs))  # a builtin applied to an uninterpreted value is uninterpreted
+                if d in ("int", "float", "len", "abs", "min", "max", "sum") and isinstance(x, (TypeError, ValueError)) and not any(_has_opaque(a) for a in args):
+                    raise _Sig("error", f"{type(x).__name__} in {u(e)[:50]}", e, type(x).__name__)  # e.g. int(None): a definite Python error
+                raise CannotEval(f"{u(e)[:50]}: {type(x).__name__}")
+        if d == "isinstance" and len(args) == 2 and dotted(e.args[1]) in _SIM_TYPES:
+            if isinstance(args[0], Opaque):
+                raise CannotEval(f"{u(e)[:50]}: type of an uninterpreted value")
+            return isinstance(args[0], _SIM_TYPES[dotted(e.args[1])])
+        if isinstance(e.func, ast.Attribute):
+            recv = self.ev(e.func.value, env)
+            if isinstance(recv, SelfObj) and e.func.attr not in recv.fields:
+                recv = Opaque("free", "self")
+            if isinstance(recv, Opaque):
+                return Opaque("call", Opaque("attr", recv, e.func.attr), _freeze(args), _freeze(kwargs))
+            if type(recv) in (list, dict, tuple, set, str, int, float, type(None), bool) and not hasattr(recv, e.func.attr):
+                raise _Sig("error", f"AttributeError in {u(e)[:50]} (a {type(recv).__name__})", e, "AttributeError")
+            if isinstance(recv, (Record, int, float, type(None))) or e.func.attr not in (_MUTATORS | _PURE_METHODS) or not hasattr(recv, e.func.attr):
+                raise CannotEval(f"{u(e)[:50]}: method of a {type(recv).__name__}")
+            try:
+                return getattr(recv, e.func.attr)(*args, **kwargs)
+            except (CannotEval, _Sig):
+                raise
+            except Exception as x:
+                if isinstance(recv, str) and e.func.attr in ("join", "format"):
+                    return "<formatted text>"  # a message built from uninterpreted values: its wording decides nothing
+                raise CannotEval(f"{u(e)[:50]}: {type(x).__name__}")
+        f = self.ev(e.func, env)
+        if callable(f) and not isinstance(f, Opaque):
+            return f(*args, **kwargs)
+        return Opaque("call", f, _freeze(args), _freeze(kwargs))
+
+    def invoke(self, func, call, env, extra=None):
+        """interpret the whole body of `func` for the arguments of `call` (evaluated in env); the value it returns (None on fall-through)."""
+        if self.depth >= 4:
+            raise CannotEval("call depth")
+        a = func.args
+        if a.vararg or a.kwarg or any(isinstance(x, ast.Starred) for x in call.args) or any(k.arg is None for k in call.keywords):
+            raise CannotEval(f"{u(call)[:50]}: * / ** arguments")
+        names = params_of(func)
+        pos = names[1:] if names and names[0] in ("self", "cls") else names
+        new = dict(extra or {})
+        defaults = dict(zip(names[len(names) - len(a.defaults):], a.defaults))
+        defaults.update({k.arg: d_ for k, d_ in zip(a.kwonlyargs, a.kw_defaults) if d_ is not None})
+        for n_, d_ in defaults.items():
+            new[n_] = self.ev(d_, {})
+        if len(call.args) > len(pos):
+            raise CannotEval(f"{u(call)[:50]}: too many arguments")
+        for n_, x in zip(pos, call.args):
+            new[n_] = self.ev(x, env)
+        for k in call.keywords:
+            if k.arg not in pos and k.arg not in [x.arg for x in a.kwonlyargs]:
+                raise CannotEval(f"{u(call)[:50]}: unknown keyword {k.arg}")
+            new[k.arg] = self.ev(k.value, env)
+        missing = [n_ for n_ in pos if n_ not in new]
+        if missing:
+            raise CannotEval(f"{u(call)[:50]}: no argument for {missing}")
+        self.depth += 1
+        try:
+            self.run(func.body, new, None)
+        except _Sig as s:
+            if s.kind == "return":
+                return s.value
+            raise
+        finally:
+            self.depth -= 1
+        return None
+
+    # -- statements --------------------------------------------------------------------------------------------------------------------------------------
+    def assign(self, t, v, env):
+        if isinstance(t, ast.Name):
+            env[t.id] = v
+        elif isinstance(t, (ast.Tuple, ast.List)):
+            if isinstance(v, Opaque) or any(isinstance(x, ast.Starred) for x in t.elts):
+                raise CannotEval(f"unpacking of {v!r}"[:80])
+            vs = self.items(v)
+            if len(vs) != len(t.elts):
+                raise CannotEval(f"unpacking {len(vs)} value(s) into {len(t.elts)} target(s)")
+            for x, y in zip(t.elts, vs):
+                self.assign(x, y, env)
+        elif isinstance(t, ast.Subscript):
+            c = self.ev(t.value, env)
+            if isinstance(c, Opaque):
+                self.ev(t.slice, env)
+                return  # a store into an uninterpreted object: nothing the interpreted statements can observe
+            if isinstance(c, (Record, str, tuple)) or isinstance(t.slice, ast.Slice):
+                raise CannotEval(f"store into {u(t)[:50]}")
+            try:
+                c[self.ev(t.slice, env)] = v
+            except (TypeError, IndexError, KeyError) as x:
+                raise CannotEval(f"store into {u(t)[:50]}: {type(x).__name__}")
+        elif isinstance(t, ast.Attribute):
+            c = self.ev(t.value, env)
+            if not isinstance(c, Record):
+                raise CannotEval(f"store into {u(t)[:50]}")
+            c.fields[t.attr] = v
+        else:
+            raise CannotEval(f"assignment target {type(t).__name__}")
+
+    def run(self, stmts, env, keep=None):
+        for s in stmts:
+            if keep is not None and id(s) not in keep:
+                continue
+            self.exec(s, env, keep)
+
+    def exec(self, s, env, keep=None):
+        try:
+            return self._exec(s, env, keep)
+        except (CannotEval, _Sig):
+            raise
+        except (TypeError, ValueError, KeyError, IndexError, AttributeError, RecursionError, ZeroDivisionError, OverflowError) as x:
+            raise CannotEval(f"line {getattr(s, 'lineno', '?')}: {type(x).__name__}: {x}"[:120])
+
+    def _exec(self, s, env, keep=None):
+        self._tick()
+        if isinstance(s, ast.Assign):
+            v = self.ev(s.value, env)
+            for t in s.targets:
+                self.assign(t, v, env)
+        elif isinstance(s, ast.AnnAssign):
+            if s.value is not None:
+                self.assign(s.target, self.ev(s.value, env), env)
+        elif isinstance(s, ast.AugAssign):
+            load = ast.parse(u(s.target), mode="eval").body
+            cur, v = self.ev(load, env), self.ev(s.value, env)
+            if isinstance(cur, (list, set, dict)) and isinstance(s.op, (ast.Add, ast.BitOr, ast.BitAnd, ast.Sub)):  # in-place on the same object, as Python does
+                try:
+                    if isinstance(cur, list) and isinstance(s.op, ast.Add):
+                        cur.extend(self.items(v))
+                    elif isinstance(cur, (set, dict)) and isinstance(s.op, ast.BitOr):
+                        cur.update(v)
+                    elif isinstance(cur, set) and isinstance(s.op, ast.BitAnd):
+                        cur.intersection_update(v)
+                    elif isinstance(cur, set) and isinstance(s.op, ast.Sub):
+                        cur.difference_update(v)
+                    else:
+                        raise CannotEval(u(s)[:50])
+                except TypeError as x:
+                    raise CannotEval(f"{u(s)[:50]}: {x}")
+            else:
+                self.assign(s.target, self._binop(s, cur, v), env)
+        elif isinstance(s, ast.Expr):
+            self.ev(s.value, env)
+        elif isinstance(s, ast.If):
+            self.run(s.body if self.truth(self.ev(s.test, env)) else s.orelse, env, keep)
+        elif isinstance(s, ast.For):
+            broke = False
+            for v in self.items(self.ev(s.iter, env)):
+                self.assign(s.target, v, env)
+                try:
+                    self.run(s.body, env, keep)
+                except _Sig as sig:
+                    if sig.kind == "break":
+                        broke = True
+                        break
+                    if sig.kind != "continue":
+                        raise
+            if not broke:
+                self.run(s.orelse, env, keep)
+        elif isinstance(s, ast.While):
+            n = 0
+            while self.truth(self.ev(s.test, env)):
+                n += 1
+                if n > 200:
+                    raise CannotEval("while loop does not end on the representative input")
+                try:
+                    self.run(s.body, env, keep)
+                except _Sig as sig:
+                    if sig.kind == "break":
+                        break
+                    if sig.kind != "continue":
+                        raise
+        elif isinstance(s, ast.Return):
+            raise _Sig("return", self.ev(s.value, env) if s.value is not None else None, s)
+        elif isinstance(s, ast.Raise):
+            if s.exc is None and self.handling:
+                raise self.handling[-1]
+            x = s.exc.func if isinstance(s.exc, ast.Call) else s.exc
+            raise _Sig("raise", None, s, last_attr(x) if x is not None else None)
+        elif isinstance(s, ast.Break):
+            raise _Sig("break", None, s)
+        elif isinstance(s, ast.Continue):
+            raise _Sig("continue", None, s)
+        elif isinstance(s, (ast.Pass, ast.Import, ast.ImportFrom, ast.Assert, ast.Global, ast.Nonlocal)):
+            pass
+        elif isinstance(s, ast.Try):
+            try:
+                self.run(s.body, env, keep)
+            except _Sig as sig:
+                handler = self._handler_for(s, sig) if sig.kind in ("raise", "error") else None
+                if handler is None:
+                    self.run(s.finalbody, env, keep)
+                    raise
+                if handler.name:
+                    env[handler.name] = Opaque("exception", sig.exc_type)
+                self.handling.append(sig)
+                try:
+                    self.run(handler.body, env, keep)
+                finally:
+                    self.handling.pop()
+                    self.run(s.finalbody, env, keep)
+                return
+            self.run(s.orelse, env, keep)
+            self.run(s.finalbody, env, keep)
+        elif isinstance(s, ast.With):
+            for it in s.items:  # the context manager's value is bound, its enter / exit are not modelled
+                v = self.ev(it.context_expr, env)
+                if it.optional_vars is not None:
+                    self.assign(it.optional_vars, v, env)
+            self.run(s.body, env, keep)
+        else:
+            raise CannotEval(f"statement kind {type(s).__name__} at line {getattr(s, 'lineno', '?')}")
+
+    def _handler_for(self, tr, sig):
+        """the except clause of `tr` that catches the exception of sig (by class name: builtin classes by their real hierarchy, other classes by equal last name component;
+        Exception / BaseException / a bare except catch everything). CannotEval when that cannot be told."""
+        import builtins as _b
+        for h in tr.handlers:
+            if h.type is None:
+                return h
+            names = [last_attr(x) for x in (h.type.elts if isinstance(h.type, ast.Tuple) else [h.type])]
+            if any(n in ("Exception", "BaseException") for n in names):
+                return h
+            if sig.exc_type is None:
+                raise CannotEval(f"an exception of unknown class raised inside try/except at line {tr.lineno}")
+            for n in names:
+                if n == sig.exc_type:
+                    return h
+                a, b = getattr(_b, sig.exc_type, None), getattr(_b, n or "", None)
+                if isinstance(a, type) and isinstance(b, type) and issubclass(a, BaseException) and issubclass(b, BaseException):
+                    if issubclass(a, b):
+                        return h
+                elif not (isinstance(a, type) and isinstance(b, type)) and not isinstance(a, type) and not isinstance(b, type):
+                    raise CannotEval(f"cannot tell whether `except {n}` catches {sig.exc_type} (line {tr.lineno})")
+        return None
+
+    def _binop(self, s, a, b):
+        if isinstance(a, Opaque) or isinstance(b, Opaque):
+            raise CannotEval(f"{u(s)[:50]}: uninterpreted operand")
+        try:
+            import operator as _o
+            return {ast.Add: _o.add, ast.Sub: _o.sub, ast.Mult: _o.mul, ast.Div: _o.truediv, ast.FloorDiv: _o.floordiv, ast.Mod: _o.mod, ast.BitAnd: _o.and_, ast.BitOr: _o.or_,
+                    ast.BitXor: _o.xor}[type(s.op)](a, b)
+        except (KeyError, TypeError, ZeroDivisionError) as x:
+            raise CannotEval(f"{u(s)[:50]}: {type(x).__name__}")
+
+
+def simulate(stmts, env, keep=None, hook=None, then=None, consts=None):
+    """interpret the (kept) statements on env. -> (kind, value, node): kind is fallthrough (value = `then` evaluated afterwards, if given) | return | raise | break | continue.
+    CannotEval propagates (the caller reports 'not recognised')."""
+    sim = Sim(hook, consts=consts)
+    try:
+        sim.run(stmts, env, keep)
+    except _Sig as s:
+        return s.kind, (s.exc_type if s.kind == "raise" and s.value is None else s.value), s.node
+    return "fallthrough", (sim.ev(then, env) if then is not None else None), None
+
+
+def module_env_of(mod, names):
+    """values of the module-level names (bound to something the interpreter can evaluate) among `names`."""
+    out = {}
+    for nm_ in names:
+        v_ = mod.module_constant(nm_)
+        if v_ is not None:
+            try:
+                out[nm_] = Sim().ev(v_, {})
+            except (CannotEval, _Sig):
+                pass
+    return out
+
+
+# ---- slicing: which statements (as written) decide a given set of names ------------------------------------------------------------------------------------------
+
+def _sub_stmts(s):
+    """statements nested in s (s excluded), nested function / class definitions not entered."""
+    for f_ in ("body", "orelse", "finalbody", "handlers"):
+        for c in getattr(s, f_, None) or []:
+            if isinstance(c, ast.ExceptHandler):
+                yield from _sub_stmts(c)
+            elif isinstance(c, ast.stmt):
+                yield c
+                if not isinstance(c, (ast.FunctionDef, ast.AsyncFunctionDef, ast.ClassDef)):
+                    yield from _sub_stmts(c)
+
+
+def _is_compound(s):
+    return isinstance(s, (ast.If, ast.For, ast.AsyncFor, ast.While, ast.With, ast.AsyncWith, ast.Try, ast.FunctionDef, ast.AsyncFunctionDef, ast.ClassDef, ast.Match))
+
+
+def _loads(n):
+    return {x.id for x in ast.walk(n) if isinstance(x, ast.Name) and isinstance(x.ctx, ast.Load) and x.id != "self"}
+
+
+def _base_name(t):
+    while isinstance(t, (ast.Subscript, ast.Attribute)):
+        t = t.value
+    return t.id if isinstance(t, ast.Name) else None
+
+
+def _defs(s):
+    """(names this simple statement binds or mutates, is it a plain re-binding of one name)."""
+    out, strong = set(), False
+    if isinstance(s, ast.Assign):
+        for t in s.targets:
+            for x in ([t] if not isinstance(t, (ast.Tuple, ast.List)) else ast.walk(t)):
+                if isinstance(x, ast.Name) and isinstance(x.ctx, ast.Store):
+                    out.add(x.id)
+                elif isinstance(x, (ast.Subscript, ast.Attribute)) and isinstance(x.ctx, ast.Store) and _base_name(x) not in (None, "self"):
+                    out.add(_base_name(x))
+        strong = len(s.targets) == 1 and isinstance(s.targets[0], ast.Name)
+    elif isinstance(s, (ast.AugAssign, ast.AnnAssign)):
+        if _base_name(s.target) not in (None, "self"):
+            out.add(_base_name(s.target))
+    elif isinstance(s, ast.Expr) and isinstance(s.value, ast.Call) and isinstance(s.value.func, ast.Attribute) and s.value.func.attr in _MUTATORS:
+        if _base_name(s.value.func.value) not in (None, "self"):
+            out.add(_base_name(s.value.func.value))
+    elif isinstance(s, ast.Delete):
+        out |= {_base_name(t) for t in s.targets} - {None, "self"}
+    out |= {x.target.id for x in ast.walk(s) if isinstance(x, ast.NamedExpr)}
+    return out, strong
+
+
+def _header_loads(p):
+    if isinstance(p, (ast.If, ast.While)):
+        return _loads(p.test)
+    if isinstance(p, (ast.For, ast.AsyncFor)):
+        return _loads(p.iter)
+    return set()
+
+
+def slice_inside(root, names, keep, must=(), jumps=True):
+    """marks (ids in keep) the statements inside the compound statement `root` that bind or mutate one of `names` (transitively: and what those read), the statements in `must`,
+    every return / break / continue (jumps=True), and the compound statements around them. -> the names the kept statements read."""
+    names = set(names)
+    inner = list(_sub_stmts(root))
+    must_ids = {id(x) for x in must}
+    changed = True
+    while changed:
+        changed = False
+        for s in inner:
+            if id(s) in keep or _is_compound(s):
+                continue
+            if id(s) in must_ids or (jumps and isinstance(s, (ast.Return, ast.Break, ast.Continue))) or (_defs(s)[0] & names):
+                keep.add(id(s))
+                names |= _loads(s)
+                p = source.parent(s)
+                while p is not None:
+                    if isinstance(p, ast.stmt) and id(p) not in keep:
+                        keep.add(id(p))
+                        names |= _header_loads(p)
+                    if p is root:
+                        break
+                    p = source.parent(p)
+                changed = True
+    keep.add(id(root))
+    names |= _header_loads(root)
+    return names
+
+
+def statements_before(stmt, func):
+    """the statements that run before `stmt` in its own block and in the blocks around it, up to the innermost enclosing loop (or the function): as written, first to last."""
+    out = []
+    child, p = stmt, source.parent(stmt)
+    while p is not None:
+        blk = next((getattr(p, f_) for f_ in ("body", "orelse", "finalbody") if isinstance(getattr(p, f_, None), list) and any(x is child for x in getattr(p, f_))), None)
+        if blk is not None:
+            i = [j for j, x in enumerate(blk) if x is child][0]
+            out = list(blk[:i]) + out
+        if p is func or isinstance(p, (ast.For, ast.AsyncFor, ast.While, ast.FunctionDef, ast.AsyncFunctionDef)):
+            break
+        child, p = p, source.parent(p)
+    return out
+
+
+def slice_before(pre, live, keep, inputs=()):
+    """backward over the statements `pre`: keeps those that decide the names in `live` (a plain re-binding ends the search for that name). Names in `inputs` are supplied by the
+    rule: whatever binds them is left out."""
+    live = set(live) - set(inputs)
+    for s in reversed(pre):
+        if _is_compound(s):
+            if isinstance(s, (ast.FunctionDef, ast.AsyncFunctionDef, ast.ClassDef)):
+                continue
+            inner_defs = set().union(*[_defs(x)[0] for x in _sub_stmts(s) if not _is_compound(x)] or [set()])
+            inner_defs |= {x.id for f_ in _sub_stmts(s) if isinstance(f_, (ast.For, ast.AsyncFor)) for x in ast.walk(f_.target) if isinstance(x, ast.Name)}
+            if isinstance(s, (ast.For, ast.AsyncFor)):
+                inner_defs |= {x.id for x in ast.walk(s.target) if isinstance(x, ast.Name)}
+            if inner_defs & live:
+                # only the part of s that decides the live names; its jumps are not followed (the path to the statement of interest is taken as given)
+                live |= slice_inside(s, live, keep, jumps=False) - set(inputs)
+            continue
+        d, strong = _defs(s)
+        if d & live:
+            keep.add(id(s))
+            if strong:
+                live -= d
+            live |= _loads(s) - set(inputs)
+    return live
+
+
 def run(chk):
     repo = chk.repo
     ldr, trk, rn, pr = repo.module(_L), repo.module(_T), repo.module(_R), repo.module(_P)
     chk.use(ldr, trk, rn, pr, _S, "docs/track.rst")
     chk.explanation = (
-        "Decides the loader by tables and flows: the operation-type registry is a bijection between hyphenated literals and enum members that agrees with to_hyphenated_string and with the "
-        "runner / param-source registrations; each documented task and document-set key flows into the constructor parameter and attribute of that meaning, with parallel defaults read from "
-        "the same key and passed positionally to the matching parameter; _error raises on every path; schema and version validation dominate construction; the validation block of "
-        "parse_task abstractly interpreted over {warm-up iterations, iterations, warm-up period, period, ramp-up (none / <= warm-up / > warm-up)} rejects exactly the documented mixes; "
-        "dedupe idioms for task / challenge / operation / corpus names; default-challenge rules; completed-by rules; indices vs data streams; reserved and unused track parameters checked "
-        "between building and returning the track; every rendered template registers its variables first; nested includes resolve relative to the including file. Value tables: the "
-        "statements assigning the corpus-level target defaults interpreted for 0 / 1 / 2 indices and data streams; documented operation-parameter values validated against the item schema of "
-        "the operations block (an extracted constant); the include pattern of TemplateSource matched against the spellings of the collect helper call and of {% include %}."
+        "Decides the loader on VALUES: a small interpreter in this module (Python containers, records and uninterpreted values; nothing of the repository is called) runs the EXTRACTED "
+        "statements of the loader — whole methods with the helpers of the class they call entered, or the slice that decides a value — on representative specifications. "
+        "The operation-type registry is interpreted for every documented name (bijection with the enum members, agreement with to_hyphenated_string and with the observed runner / "
+        "param-source registrations); parse_task / parse_parallel / _create_corpora are interpreted on specifications whose keys carry marker values, which must reach the Task / "
+        "Documents parameter and attribute of that meaning (parallel defaults end to end, completed-by flags, schedule and sub-task order, dispatch on 'parallel', corpus-level defaults "
+        "for 0 / 1 / 2 indices and data streams); _error raises on every path; TrackFileReader.read is interpreted on twelve specifications (version window, not-yet-validated version "
+        "values, schema failure, validate-before-build of the same object, reserved / unused parameters between building and returning); parse_task over 40 field combinations rejects "
+        "exactly the documented mixes; duplicate task / challenge / operation / corpus names by interpreting the loop around the rejecting site on collections with and without a repeated "
+        "name; default-challenge, ramp-up-on-parallel, completed-by and indices-vs-data-streams rules as value tables; the accounting object and the reserved names interpreted; every "
+        "rendered template registers its variables first (CFG, helpers followed); nested includes resolve relative to the including file. Extracted constants: documented "
+        "operation-parameter values validated against the item schema of the operations block; the include pattern of TemplateSource matched against the spellings of the collect helper "
+        "call and of {% include %}; the helpers' Jinja source evaluated and parsed."
     )
     chk.not_decided = "Jinja rendering semantics (incl. the text of the built-in macros), JSON-schema semantics, free-form operation parameters."
     SR = ldr.cls("TrackSpecificationReader")
     FR = ldr.cls("TrackFileReader")
+    sr_methods = ldr.methods(SR)
+    # role: an error helper is a short method of the reader that has no normal exit (O10.3 demands it of _error); a call to one ends the interpretation with `raise`
+    raising = set()
+    for n_, f_ in sr_methods.items():
+        if len(stmts_of(f_.body)) <= 3 and any(isinstance(x, ast.Raise) for x in walk_body(f_)):
+            g_ = cfg_of(f_)
+            if g_.exit.id not in g_.reachable([g_.entry]):
+                raising.add(n_)
+    # role: the key reader is the method of the class that is called most often as self.<m>(<spec>, "<literal key>", ...)
+    n_reads = {}
+    for f_ in sr_methods.values():
+        for c in source.calls_in(f_):
+            if isinstance(c.func, ast.Attribute) and isinstance(c.func.value, ast.Name) and c.func.value.id == "self" and c.func.attr in sr_methods and len(c.args) >= 2 \
+                    and isinstance(c.args[1], ast.Constant) and isinstance(c.args[1].value, str):
+                n_reads[c.func.attr] = n_reads.get(c.func.attr, 0) + 1
+    if not n_reads or max(n_reads.values()) < 20:
+        raise AnchorMissing(f"the method of {SR.name} through which keys of the specification are read (self.<m>(<spec>, \"<key>\", ...); candidates {n_reads})")
+    _READER[0] = max(n_reads, key=n_reads.get)
+    reader = sr_methods[_READER[0]]
+    rd_params = params_of(reader)[1:]
+    if len(rd_params) < 2:
+        raise AnchorMissing(f"{_READER[0]}(self, <root>, <path>, ...)")
+    # roles of its further parameters, from its own body: the default is the parameter it returns, the mandatory flag the parameter it tests
+    rd_default = next((n.value.id for n in walk_body(reader) if isinstance(n, ast.Return) and isinstance(n.value, ast.Name) and n.value.id in rd_params[2:]), None)
+    rd_mandatory = next((x.id for n in walk_body(reader) if isinstance(n, ast.If) for x in ast.walk(n.test) if isinstance(x, ast.Name) and x.id in rd_params[2:] and x.id != rd_default), None)
+
+    def loader_hook(reads=None, observe=(), override=None, expand=None, oracle=None):
+        """how the interpreter treats calls on the reader: an error helper raises; self._r(<dict>, key, ...) is the documented lookup (value / default / error when mandatory);
+        self._r(<anything else>, key) for a key in `reads` yields the supplied value (role: "what the file says under that key"); calls of the methods in `observe` stay
+        uninterpreted (their results are what the rule looks at); any other method of the class is interpreted (an extracted helper), uninterpreted if that fails."""
+        def hook(e, env, sim):
+            if override and id(e) in override:
+                return override[id(e)]
+            f = e.func
+            if oracle and last_attr(f) in oracle and not (isinstance(f, ast.Attribute) and isinstance(f.value, ast.Name) and f.value.id == "self"):
+                return oracle[last_attr(f)]  # a function of another module whose answer the rule fixes for this run (e.g. io.is_archive)
+            if not (isinstance(f, ast.Attribute) and isinstance(f.value, ast.Name) and f.value.id == "self" and ("self" not in env or isinstance(env["self"], SelfObj))):
+                return NotImplemented
+            if f.attr in raising:
+                raise _Sig("raise", None, e)
+            if f.attr == reader.name:
+                b = bind_args(e, reader)
+                if rd_params[0] not in b or rd_params[1] not in b:
+                    return NotImplemented
+                root, path = sim.ev(b[rd_params[0]], env), sim.ev(b[rd_params[1]], env)
+                if isinstance(root, dict) and isinstance(path, str) and rd_default is not None and rd_mandatory is not None:
+                    if path in root:
+                        return root[path]
+                    if rd_mandatory not in b or sim.truth(sim.ev(b[rd_mandatory], env)):
+                        raise _Sig("raise", None, e)
+                    return sim.ev(b[rd_default], env) if rd_default in b else None
+                if reads and isinstance(path, str) and path in reads and not isinstance(root, (dict, list)):
+                    return reads[path]
+                if isinstance(root, (dict, list)):  # the reader's own body is interpreted (lists of keys, other parameter roles)
+                    return sim.invoke(reader, e, env, extra={"self": env["self"]} if "self" in env else None)
+                return NotImplemented
+            if f.attr in sr_methods and f.attr not in observe and f.attr != reader.name and (expand is None or f.attr in expand):
+                saved = sim.steps
+                try:
+                    return sim.invoke(sr_methods[f.attr], e, env, extra={"self": env["self"]} if "self" in env else None)
+                except CannotEval:
+                    sim.steps = saved
+                    return NotImplemented
+            return NotImplemented
+        return hook
+
+    def handed_value(func, site, expr, reads, rule, what, observe):
+        """the value `expr` has at `site` (a call in func) for a specification whose keys in `reads` hold the given values: the statements that decide the names in expr are
+        sliced out of what runs before the site and interpreted (None + 'not recognised' if that is not possible)."""
+        st = source.enclosing_stmt(site)
+        pre = statements_before(st, func)
+        keep = set()
+        slice_before(pre, _loads(expr), keep)
+        try:
+            kind, val, _ = simulate(pre, {}, keep, hook=loader_hook(reads, observe), then=expr)
+        except CannotEval as e:
+            chk.unknown(rule, f"{what} cannot be interpreted on a representative specification: {e}", site)
+            return None
+        if kind == "error":
+            return _Sig("error", val)
+        if kind != "fallthrough":
+            chk.unknown(rule, f"{what}: the statements that compute it end in `{kind}` on a representative specification", site)
+            return None
+        return val
+
+    def mentions(val, tokens):
+        """does any of the (frozen) tokens occur anywhere inside the value?"""
+        if any(val == t_ for t_ in tokens):
+            return True
+        if isinstance(val, Opaque):
+            return any(mentions(x, tokens) for x in val.sig)
+        if isinstance(val, dict):
+            return any(mentions(k_, tokens) or mentions(v_, tokens) for k_, v_ in val.items()) or _freeze(val) in tokens
+        if isinstance(val, (list, tuple, set, frozenset)):
+            return any(mentions(x, tokens) for x in val)
+        if isinstance(val, Record):
+            return any(mentions(x, tokens) for x in val.fields.values())
+        return False
+
+    def parsed_elements(val, *roles):
+        """[(method name, frozen first argument)] if val is a list of uninterpreted results of self.<role method>(<spec>, ...), else None."""
+        if not isinstance(val, (list, tuple)):
+            return None
+        by_name = {r.name: r for r in roles}
+        out = []
+        for v in val:
+            if not (isinstance(v, Opaque) and v.sig[0] == "call" and isinstance(v.sig[1], Opaque) and v.sig[1].sig[0] == "attr" and v.sig[1].sig[1] == Opaque("free", "self")
+                    and v.sig[1].sig[2] in by_name):
+                return None
+            args, kwargs = v.sig[2], dict(v.sig[3][1:])
+            first = params_of(by_name[v.sig[1].sig[2]])[1]
+            if not args and first not in kwargs:
+                return None
+            out.append((v.sig[1].sig[2], args[0] if args else kwargs[first]))
+        return out
 
     # ---- O10.1 operation-type registry --------------------------------------------------------------------------------------------------------------
     chk.rule("O10.1", "operation-type registry: the string->member chain is a bijection (every member once, literals distinct); each literal equals the hyphenation of the member name "
@@ -252,71 +1087,147 @@ def run(chk):
     # registry keys: every string literal the parameter is compared with (any orientation, `in` tuples included); one entry per occurrence
     lits = [c.value for n in walk_body(fh) if isinstance(n, ast.Compare) and any(name_of(x) == vpar for x in ast.walk(n)) for c in ast.walk(n) if isinstance(c, ast.Constant) and isinstance(c.value, str)]
 
-    def resolve(lit):
-        """outcome of the function for this literal, by evaluating its tests (independent of chain shape, arm order and comparison orientation)."""
-        def atom(n, e_):
-            if isinstance(n, ast.BoolOp) or (isinstance(n, ast.UnaryOp) and isinstance(n.op, ast.Not)):
-                return None
+    fh_env = {}
+    for nm_ in {x.id for x in ast.walk(fh) if isinstance(x, ast.Name)}:
+        v_ = trk.module_constant(nm_)
+        if v_ is not None:
             try:
-                return bool(ev(n, {vpar: lit}))
-            except CannotEval:
-                return None
+                fh_env[nm_] = Sim().ev(v_, {})
+            except (CannotEval, _Sig):
+                pass
 
-        return decide(stmts_of(fh.body), atom, {})
+    def resolve(lit):
+        """outcome of the function for this literal: its body is interpreted (if-chain, separate ifs, `in` tuples, a table looked up by the literal — all the same)."""
+        return simulate(stmts_of(fh.body), {**fh_env, vpar: lit, params_of(fh)[0]: Opaque("free", "OperationType")})
+
+    def member_of(v):
+        """X if the value is <track.>OperationType.X."""
+        if isinstance(v, Opaque) and v.sig[0] == "attr" and isinstance(v.sig[1], Opaque) and (v.sig[1] == Opaque("free", "OperationType") or (v.sig[1].sig[0] == "attr" and v.sig[1].sig[2] == "OperationType")):
+            return v.sig[2]
+        return None
 
     pairs = []
     try:
-        for lit in dict.fromkeys(lits):
-            out = resolve(lit)
-            if out.kind == "return" and out.value is not None and (dotted(out.value) or "").startswith("OperationType."):
-                pairs.append((lit, out.value.attr, out.node))
-            elif out.kind != "raise":
-                chk.unknown("O10.1", f"registry outcome for '{lit}' is not `return OperationType.<Member>`: {out.text()[:60]}", out.node if out.node is not None else fh)
-        out = resolve("\x00no-such-operation-type")
-        chk.ob("O10.1", "unknown literal raises KeyError", out.kind == "raise" and "KeyError" in u(out.value), out.node if out.node is not None else fh, out.text()[:80])
-    except (Unsupported, UnknownAtom) as e:
-        chk.unknown("O10.1", f"from_hyphenated_string is not a decision over comparisons of `{vpar}` with literals: {e}", fh)
-    mems = [p[1] for p in pairs]
+        for lit in dict.fromkeys(lits + [hyphenate(m) for m in members]):
+            kind, val, node = resolve(lit)
+            if kind == "return" and member_of(val) is not None:
+                pairs.append((lit, member_of(val), node))
+            elif kind not in ("raise", "error"):
+                chk.unknown("O10.1", f"registry outcome for '{lit}' is not `return OperationType.<Member>`: {kind} {str(val)[:60]}", node if node is not None else fh)
+        kind, val, node = resolve("\x00no-such-operation-type")
+        ok = (kind == "raise" and isinstance(node, ast.Raise) and "KeyError" in u(node.exc)) or (kind == "error" and str(val).startswith("KeyError"))
+        chk.ob("O10.1", "unknown literal raises KeyError", ok, node if node is not None else fh, f"{kind} {short(node, 60) if kind == 'raise' and node is not None else val}")
+    except CannotEval as e:
+        chk.unknown("O10.1", f"from_hyphenated_string cannot be interpreted on a literal: {e}", fh)
+        pairs = None
+    mems = [p[1] for p in pairs or []]
     chk.ob("O10.1", "literals are distinct", len(lits) == len(set(lits)), fh, f"duplicates: {sorted({x for x in lits if lits.count(x) > 1})}")
     chk.ob("O10.1", "each member is returned by exactly one literal", len(mems) == len(set(mems)), fh, f"duplicates: {sorted({x for x in mems if mems.count(x) > 1})}")
-    for m in members:
+    for m in members if pairs is not None else []:
         chk.ob("O10.1", f"member {m} reachable from its documented name '{hyphenate(m)}'", (hyphenate(m), m) in [(l, mm) for l, mm, _ in pairs], OT,
                "" if m in mems else "no literal returns this member", key=f"{_T}:OperationType.from_hyphenated_string:{m}")
-    for lit, mem, nd in pairs:
+    for lit, mem, nd in pairs or []:
         if mem not in members:
             chk.ob("O10.1", f"literal '{lit}' returns a declared member", False, nd, f"OperationType.{mem} is not declared")
     th = trk.methods(OT).get("to_hyphenated_string")
-    th_rets = [n for n in walk_body(th) if isinstance(n, ast.Return)] if th is not None else []
-    ok = len(th_rets) == 1 and pat.is_(th_rets[0].value, "''.join(['-' + V_c.lower() if V_c.isupper() else V_c for V_c in self.name]).lstrip('-')")
-    chk.ob("O10.1", "to_hyphenated_string is the documented hyphenation", ok, th if th is not None else OT, "")
+    if th is None:
+        raise AnchorMissing("OperationType.to_hyphenated_string")
+    # decided on values: the body is interpreted for every member name; it must yield the documented hyphenation (the key the registry above is checked against)
+    wrong = []
+    try:
+        for m in members:
+            kind, val, _ = simulate(stmts_of(th.body), {"self": Record(name=m)})
+            if kind != "return" or val != hyphenate(m):
+                wrong.append(f"{m} -> {repr(val) if kind == 'return' else kind}")
+        chk.ob("O10.1", "to_hyphenated_string is the documented hyphenation", not wrong, th, "" if not wrong else f"{len(wrong)} member(s) hyphenated differently: {wrong[:4]}")
+    except CannotEval as e:
+        chk.unknown("O10.1", f"to_hyphenated_string cannot be interpreted on the member names: {e}", th)
     reg = rn.func("register_default_runners")
+
+    def observed_calls(stmts, keep, callee, env=None, funcs=None):
+        """interprets the statements and records every call whose callee's last name component is `callee`: [(call node, argument values, keyword values)] — whether the calls are
+        written one by one, in a loop over a table or in a helper (a function of `funcs`, entered) does not matter."""
+        seen = []
+
+        def hook(e, env_, sim):
+            if last_attr(e.func) == callee:
+                seen.append((e, [sim.ev(a, env_) for a in e.args if not isinstance(a, ast.Starred)], {k.arg: sim.ev(k.value, env_) for k in e.keywords if k.arg}))
+                return None
+            if funcs and isinstance(e.func, ast.Name) and e.func.id in funcs and e.func.id not in env_:
+                return sim.invoke(funcs[e.func.id], e, env_)
+            return NotImplemented
+
+        kind, _, node = simulate(stmts, dict(env or {}), keep, hook=hook)
+        if kind not in ("fallthrough", "return"):
+            raise CannotEval(f"interpretation ends in `{kind}` at line {getattr(node, 'lineno', '?')}")
+        return seen
+
     regd = set()
-    for c in source.calls_in(reg, attr="register_runner"):
-        if not c.args:
-            continue
-        a0 = c.args[0]
-        if isinstance(a0, ast.Attribute) and dotted(a0) and dotted(a0).startswith("track.OperationType."):
-            regd.add(a0.attr)
-            if a0.attr not in members:
-                chk.ob("O10.1", f"runner registered for declared member {a0.attr}", False, c, "not a member of OperationType")
-    chk.ob("O10.1", "default runners registered by enum member", len(regd) >= 50, reg, f"{len(regd)} members have a default runner; without: {sorted(set(members) - regd)}")
+    regd_known = False
+    try:
+        rn_funcs = {f_.name: f_ for f_ in rn.tree.body if isinstance(f_, ast.FunctionDef) and f_.name not in ("register_runner", reg.name)}
+        regs = observed_calls(reg.body, None, "register_runner", funcs=rn_funcs)
+        n_unres = 0
+        for c, args, kwargs in regs:
+            first = args[0] if args else kwargs.get(params_of(rn.func("register_runner"))[0])
+            mem = member_of(first)
+            if mem is None:
+                n_unres += 1
+                continue
+            regd.add(mem)
+            if mem not in members:
+                chk.ob("O10.1", f"runner registered for declared member {mem}", False, c, "not a member of OperationType")
+        if n_unres:
+            chk.unknown("O10.1", f"{n_unres} register_runner(...) call(s) in register_default_runners whose operation type is not an OperationType member expression", reg)
+        elif not regs:
+            chk.unknown("O10.1", "no register_runner(...) call observed when register_default_runners is interpreted", reg)
+        else:
+            regd_known = True
+            chk.ob("O10.1", "default runners registered by enum member", len(regd) >= 50, reg, f"{len(regd)} members have a default runner; without: {sorted(set(members) - regd)}")
+    except CannotEval as e:
+        chk.unknown("O10.1", f"register_default_runners cannot be interpreted: {e}", reg)
     rr = rn.func("register_runner")
-    ok = any("to_hyphenated_string" in u(n) for n in walk_body(rr))
-    chk.ob("O10.1", "runner registry keyed by the hyphenated string", ok, rr, "")
     rf = rn.func("runner_for")
-    chk.ob("O10.1", "runner lookup by the same (hyphenated string) key", any(isinstance(n, ast.Subscript) and "__RUNNERS" in u(n.value) for n in walk_body(rf)), rf, "")
-    for c in source.calls_in(pr.tree, attr="register_param_source_for_operation", local=False):
-        if not c.args:
-            continue
-        a0 = c.args[0]
-        if isinstance(a0, ast.Attribute) and (dotted(a0) or "").startswith("track.OperationType."):
-            chk.ob("O10.1", f"param source registered for declared member {a0.attr}", a0.attr in members, c, "", key=f"{_P}:param-source:{a0.attr}")
+    # role: the registry is the module-level name that register_runner stores into (registry[key] = ...)
+    stores = [n.targets[0] for n in walk_body(rr) if isinstance(n, ast.Assign) and len(n.targets) == 1 and isinstance(n.targets[0], ast.Subscript) and isinstance(n.targets[0].value, ast.Name)
+              and rn.module_constant(n.targets[0].value.id) is not None]
+    if len({t_.value.id for t_ in stores}) != 1:
+        chk.unknown("O10.1", f"the module-level registry that register_runner stores into was not located ({len(stores)} candidate store(s))", rr)
+    else:
+        registry = stores[0].value.id
+        ok = any(isinstance(c, ast.Call) and last_attr(c.func) == th.name for c in walk_body(rr))
+        chk.ob("O10.1", "runner registry keyed by the hyphenated string", ok, rr, f"registry `{registry}`; {th.name}() {'applied' if ok else 'not applied'} to an OperationType key")
+        ok = any((isinstance(n, ast.Subscript) and name_of(n.value) == registry) or (isinstance(n, ast.Call) and isinstance(n.func, ast.Attribute) and n.func.attr == "get" and name_of(n.func.value) == registry)
+                 for n in walk_body(rf))
+        chk.ob("O10.1", "runner lookup by the same (hyphenated string) key", ok, rf, f"registry `{registry}`")
+    # module-level registrations of the parameter sources: the statements that contain them (and what they read) are interpreted, so a loop over a table counts like the
+    # statements written one by one
+    ps_stmts = [s_ for s_ in pr.tree.body if not isinstance(s_, (ast.FunctionDef, ast.AsyncFunctionDef, ast.ClassDef))
+                and any(isinstance(x, ast.Call) and last_attr(x.func) == "register_param_source_for_operation" for x in ast.walk(s_))]
+    keep_ps = {id(x) for s_ in ps_stmts for x in [s_] + list(_sub_stmts(s_))}
+    for s_ in ps_stmts:
+        slice_before(pr.tree.body[:[i for i, x in enumerate(pr.tree.body) if x is s_][0]], _loads(s_), keep_ps)
+    try:
+        for c, args, kwargs in observed_calls(pr.tree.body, keep_ps, "register_param_source_for_operation"):
+            mem = member_of(args[0]) if args else None
+            if mem is None:
+                chk.unknown("O10.1", f"a parameter source is registered for something that is not an OperationType member expression: {short(c, 70)}", c)
+            else:
+                chk.ob("O10.1", f"param source registered for declared member {mem}", mem in members, c, "", key=f"{_P}:param-source:{mem}")
+    except CannotEval as e:
+        chk.unknown("O10.1", f"the module-level parameter-source registrations cannot be interpreted: {e}", pr.tree.body[0])
     CO = rn.cls("Composite")
-    sup = [n for n in ast.walk(CO) if isinstance(n, ast.Assign) and is_self_attr(n.targets[0], "supported_op_types") and isinstance(n.value, ast.List)]
-    if sup:
-        names = [e.value for e in sup[0].value.elts if isinstance(e, ast.Constant)]
-        bad = [x for x in names if x not in {hyphenate(m) for m in regd}]
-        chk.ob("O10.1", "composite's supported operation types all have a registered runner", not bad, sup[0], f"unregistered: {bad}")
+    sup = [n for n in ast.walk(CO) if isinstance(n, ast.Assign) and len(n.targets) == 1 and is_self_attr(n.targets[0], "supported_op_types")]
+    if sup and regd_known:
+        try:
+            names = Sim().ev(sup[0].value, module_env_of(rn, _loads(sup[0].value)))  # a literal list / tuple / set, in place or behind a module-level name
+        except (CannotEval, _Sig):
+            names = None
+        if not isinstance(names, (list, tuple, set, frozenset)) or not all(isinstance(x, str) for x in names):
+            chk.unknown("O10.1", f"the operation types the composite runner supports are not a collection of literals: {short(sup[0].value, 60)}", sup[0])
+        else:
+            bad = [x for x in names if x not in {hyphenate(m) for m in regd}]
+            chk.ob("O10.1", "composite's supported operation types all have a registered runner", not bad, sup[0], f"unregistered: {bad}")
 
     # ---- O10.2 field flow ----------------------------------------------------------------------------------------------------------------------------
     chk.rule("O10.2", "each documented task key reaches the Task parameter and attribute of that meaning; the five inheritable keys default to the parameter that parse_parallel fills from the "
@@ -328,146 +1239,318 @@ def run(chk):
     pp = method(ldr, SR, "parse_parallel")
     if len(params_of(pt)) < 2 or len(params_of(pp)) < 2:
         raise AnchorMissing("parse_task(self, <task spec>, ...) / parse_parallel(self, <parallel spec>, ...)")
+    roles = {pt.name, pp.name}  # calls of these stay uninterpreted when statements of the reader are interpreted: their results are what the rules look at
+    # methods of the reader that construct model objects (track.<Class>(...)) are "parsers": when statements are interpreted their calls stay uninterpreted values
+    builders = {n_ for n_, f_ in sr_methods.items() if any(isinstance(c, ast.Call) and (dotted(c.func) or "").startswith("track.") and (last_attr(c.func) or "x")[0].isupper() for c in walk_body(f_))}
     tctor = [c for c in source.calls_in(pt) if dotted(c.func) == "track.Task"]
     if not tctor:
         raise AnchorMissing("track.Task(...) in parse_task")
-    tdefs = local_defs(pt)
     TK = trk.cls("Task")
     tinit = method(trk, TK, "__init__")
-    tb = bind_args(tctor[0], tinit)
-    stored = {n.value.id: n.targets[0].attr for n in walk_body(tinit) if isinstance(n, ast.Assign) and is_self_attr(n.targets[0]) and isinstance(n.value, ast.Name)}
+    t_params = params_of(tinit)[1:]
+    for param in TASK_KEYS.values():
+        if param not in t_params:
+            raise AnchorMissing(f"Task.__init__ has no parameter `{param}`")
+
+    def call_env(func, values):
+        """environment of a call of func: declared defaults, then the given values (by parameter name)."""
+        a = func.args
+        names = params_of(func)
+        env = {}
+        for n_, d_ in list(zip(names[len(names) - len(a.defaults):], a.defaults)) + [(k.arg, d_) for k, d_ in zip(a.kwonlyargs, a.kw_defaults) if d_ is not None]:
+            try:
+                env[n_] = Sim().ev(d_, {})
+            except (CannotEval, _Sig):
+                pass
+        env.update(values)
+        return env
+
+    def capture(func, env, is_target, callee_params, observe, oracle=None, consts=None):
+        """interprets the whole body of func on env until a call satisfying is_target is reached (directly, in a comprehension or in a helper of the class): -> {parameter: value}
+        of that call. CannotEval if it is not reached."""
+        base = loader_hook(observe=observe, oracle=oracle)
+
+        def hook(e, env_, sim):
+            if is_target(e):
+                if any(isinstance(a, ast.Starred) for a in e.args) or any(k.arg is None for k in e.keywords):
+                    raise CannotEval(f"{short(e, 40)}: * / ** arguments")
+                vals = dict(zip(callee_params, [sim.ev(a, env_) for a in e.args]))
+                vals.update({k.arg: sim.ev(k.value, env_) for k in e.keywords})
+                raise _Sig("stop", vals, e)
+            return base(e, env_, sim)
+
+        kind, val, node = simulate(func.body, env, None, hook, consts=consts)
+        if kind != "stop":
+            msg = f"interpreting {func.name} ends in `{kind}`" + (f" ({val})" if kind == "error" else "") + f" at line {getattr(node, 'lineno', '?')} before the call is reached"
+            raise (Rejected(msg, kind, node) if kind in ("raise", "error") else CannotEval(msg))
+        return val
+
+    def full_hook(observe, oracle=None, model=()):
+        """like loader_hook, and the constructors of the model classes in `model` [(class, __init__)] are interpreted too: the object is a Record with the attributes __init__ stores."""
+        base = loader_hook(observe=observe, oracle=oracle)
+
+        def hook(e, env_, sim):
+            for cls_node, init in model:
+                if last_attr(e.func) == cls_node.name and (dotted(e.func) or "").split(".")[0] in ("track", cls_node.name):
+                    obj = Record()
+                    sim.invoke(init, e, env_, extra={params_of(init)[0]: obj})
+                    return obj
+            return base(e, env_, sim)
+
+        return hook
+
+    def is_task_ctor(e):
+        return last_attr(e.func) == TK.name and (dotted(e.func) or "").split(".")[0] in ("track", TK.name)
+
+    def is_parse_task(e):
+        return isinstance(e.func, ast.Attribute) and isinstance(e.func.value, ast.Name) and e.func.value.id == "self" and e.func.attr == pt.name
+
+    def same(a, b):
+        return type(a) is type(b) and a == b
+
+    # Decided on VALUES: parse_task is interpreted on a task specification that writes every documented key with a distinct marker value; the value that reaches each parameter of
+    # Task(...) must be the marker of the key of that meaning — whatever locals, helpers or keyword order lie in between
+    markers = {"name": "task-name-marker", "tags": ["tag-marker"], "meta": {"meta-key": "meta-marker"}, "warmup-iterations": 11, "iterations": 22, "warmup-time-period": 66,
+               "time-period": 44, "ramp-up-time-period": 55, "clients": 7, "schedule": "schedule-marker"}
+    iteration_keys, period_keys = ("warmup-iterations", "iterations"), ("warmup-time-period", "time-period", "ramp-up-time-period")
+    p_spec, p_ops = params_of(pt)[1], (params_of(pt)[2] if len(params_of(pt)) > 2 else None)
+    op_entry = Record(name="op-1")
+    observe_all = roles | builders
+    try:
+        # two valid tasks (an iteration-based and a time-based one: both kinds of keys on one task is what the loader must reject), so that validation may run before Task(...)
+        by_kind = {}
+        for kind_, drop in (("iterations", period_keys), ("periods", iteration_keys)):
+            by_kind[kind_] = capture(pt, call_env(pt, {p_spec: {"operation": "op-1", **{k_: v_ for k_, v_ in markers.items() if k_ not in drop}}, **({p_ops: {"op-1": op_entry}} if p_ops else {})}),
+                                     is_task_ctor, t_params, observe_all)
+        tb = {p_: (by_kind["periods"] if k_ in period_keys else by_kind["iterations"]).get(p_, call_env(tinit, {}).get(p_)) for k_, p_ in TASK_KEYS.items()}
+        bare = {"operation": "op-1"}
+        tb0 = capture(pt, call_env(pt, {p_spec: bare, **({p_ops: {"op-1": op_entry}} if p_ops else {})}), is_task_ctor, t_params, observe_all)
+        tb_inline = capture(pt, call_env(pt, {p_spec: dict(bare), **({p_ops: {}} if p_ops else {})}), is_task_ctor, t_params, observe_all)
+    except CannotEval as e:
+        raise AnchorMissing(f"parse_task cannot be interpreted on a representative task specification up to Task(...): {e}")
+    t_defaults = call_env(tinit, {})
     for key, param in TASK_KEYS.items():
-        e = tb.get(param)
-        k, call = r_key(e, tdefs)
-        ok = k == key and r_root(call) == params_of(pt)[1]
-        chk.ob("O10.2", f"task key '{key}' -> Task({param}=...)", ok, e if e is not None else tctor[0], f"read from key {k!r}", key=f"{_L}:parse_task:key:{key}")
-        if param not in ("tags", "meta_data"):
-            chk.ob("O10.2", f"Task.{param} stores its parameter", stored.get(param) == param, tinit, f"stored in self.{stored.get(param)}", key=f"{_T}:Task.__init__:{param}")
-        if key in INHERITED and call is not None and isinstance(call, ast.Call):
-            dv = arg_of(call, None, "default_value")
-            chk.ob("O10.2", f"task key '{key}' defaults to the parallel element's value", dv is not None and u(dv) == INHERITED[key], call, f"default_value={u(dv) if dv is not None else None}", key=f"{_L}:parse_task:default:{key}")
-    # roles: the task's name is whatever expression is handed to Task(name=...); the operation is the local assigned from self.parse_operation(...)
-    name_e = tb.get("name")
-    ok = name_e is not None and pat.is_(tb.get("completes_parent"), "E_n == completed_by_name", binds={"n": u(name_e)}) and pat.is_(tb.get("any_completes_parent"), "completed_by_name == 'any'")
-    chk.ob("O10.2", "completed-by flags: name == completed-by / completed-by == 'any'", ok, tctor[0], "")
-    op_locals = set(assigned_from(pt, lambda c: u(c.func) == "self.parse_operation"))
-    if len(op_locals) != 1:
-        raise AnchorMissing(f"one local assigned from self.parse_operation(...) in parse_task (found {sorted(op_locals)})")
-    op_local = op_locals.pop()
-    ok = name_of(tb.get("operation")) == op_local and u(tb.get("params")) == params_of(pt)[1]
-    chk.ob("O10.2", "operation and raw task spec handed to the task", ok, tctor[0], "")
-    _, nm = r_key(name_e, tdefs)
-    dvn = arg_of(nm, None, "default_value") if isinstance(nm, ast.Call) else None
-    chk.ob("O10.2", "task name defaults to the operation name", dvn is not None and pat.is_(dvn, "V_op.name", binds={"op": op_local}), nm if nm is not None else pt, "")
-    # parse_parallel: defaults read from the same keys and passed to the matching parameters
-    pdefs = local_defs(pp)
+        v = tb.get(param, t_defaults.get(param))
+        other = [k_ for k_, m_ in markers.items() if same(v, m_)]
+        chk.ob("O10.2", f"task key '{key}' -> Task({param}=...)", same(v, markers[key]), tctor[0],
+               f"for a task that writes every key, Task({param}=...) gets {v!r}" + (f", the value of '{other[0]}'" if other and other[0] != key else ("" if other else " — not the value written in the file")),
+               key=f"{_L}:parse_task:key:{key}")
+    # Task.__init__ interpreted on marker arguments: the attribute of that name holds the argument
+    try:
+        obj = Record()
+        amark = {p_: f"arg-{p_}" for p_ in t_params}
+        kind, _, node = simulate(tinit.body, {params_of(tinit)[0]: obj, **amark})
+        if kind not in ("fallthrough", "return"):
+            raise CannotEval(f"ends in `{kind}` at line {getattr(node, 'lineno', '?')}")
+        for key, param in TASK_KEYS.items():
+            if param not in ("tags", "meta_data"):
+                holders = [a_ for a_, v_ in obj.fields.items() if same(v_, amark[param])]
+                chk.ob("O10.2", f"Task.{param} stores its parameter", same(obj.fields.get(param), amark[param]), tinit, f"stored in {['self.' + a_ for a_ in holders] or 'no attribute'}",
+                       key=f"{_T}:Task.__init__:{param}")
+    except CannotEval as e:
+        chk.unknown("O10.2", f"Task.__init__ cannot be interpreted on marker arguments: {e}", tinit)
+    # the operation is the entry of the operations table (or the inline operation parsed from the element), the raw task spec is handed on, the name defaults to the operation's
+    op_inline = tb_inline.get("operation")
+    ok = tb0.get("operation") is op_entry and same(tb0.get("params"), bare) and isinstance(op_inline, Opaque) and op_inline.sig[0] == "call" and mentions(op_inline, ["op-1"])
+    chk.ob("O10.2", "operation and raw task spec handed to the task", ok, tctor[0],
+           "" if ok else f"operation from the table: {tb0.get('operation')!r}; inline: {op_inline!r}; params: {tb0.get('params')!r}"[:200])
+    chk.ob("O10.2", "task name defaults to the operation name", same(tb0.get("name"), "op-1") and tb_inline.get("name") == Opaque("attr", op_inline, "name"), tctor[0],
+           f"a task without a name is called {tb0.get('name')!r}")
+    # parse_parallel: the element's values for the five inheritable keys and its completed-by reach parse_task and, for a task that does not write the key itself, Task(...) —
+    # end to end, so the names and the order of the parameters in between do not matter (they only have to agree)
     ptc = [c for c in source.calls_in(pp) if u(c.func) == "self.parse_task"]
-    if not ptc:
-        raise AnchorMissing("self.parse_task(...) in parse_parallel")
-    pb = bind_args(ptc[0], pt)
-    for key, param in INHERITED.items():
-        e = pb.get(param)
-        k, call = r_key(e, pdefs)
-        ok = k == key and isinstance(call, ast.Call) and r_root(call) == params_of(pp)[1]
-        chk.ob("O10.2", f"parallel key '{key}' -> parse_task({param}=...)", ok, e if e is not None else ptc[0], f"read from key {k!r}", key=f"{_L}:parse_parallel:default:{key}")
-    k, _ = r_key(pb.get("completed_by_name"), pdefs)
-    chk.ob("O10.2", "parallel key 'completed-by' -> parse_task(completed_by_name=...)", k == "completed-by", ptc[0], f"read from key {k!r}")
+    pp_spec, pp_ops = params_of(pp)[1], (params_of(pp)[2] if len(params_of(pp)) > 2 else None)
+    pmark = {"warmup-iterations": 111, "iterations": 222, "warmup-time-period": 666, "time-period": 444, "ramp-up-time-period": 555}
+    sub_a = {"operation": "op-1", "name": "t-a"}
+
+    def through_parallel(completed_by, drop=period_keys):
+        """(what parse_task is called with, what Task(...) is called with) for the only task `t-a` (operation `op-1`) of a parallel element that writes the inheritable keys of one
+        kind (iteration counts or time periods: a valid element)."""
+        par = {**{k_: v_ for k_, v_ in pmark.items() if k_ not in drop}, "clients": 9, "tasks": [dict(sub_a)], **({"completed-by": completed_by} if completed_by is not None else {})}
+        handed = capture(pp, call_env(pp, {pp_spec: par, **({pp_ops: {"op-1": op_entry}} if pp_ops else {})}), is_parse_task, params_of(pt)[1:], observe_all - {pp.name})
+        return handed, capture(pt, call_env(pt, handed), is_task_ctor, t_params, observe_all)
+
+    try:
+        by_kind_p = {"iterations": through_parallel("t-a", period_keys), "periods": through_parallel("t-a", iteration_keys)}
+        for key, param in INHERITED.items():
+            handed, tbp = by_kind_p["periods" if key in period_keys else "iterations"]
+            chk.ob("O10.2", f"parallel key '{key}' -> parse_task({param}=...)", any(same(v_, pmark[key]) for v_ in handed.values()), ptc[0] if ptc else pp,
+                   f"parse_task is called with {sorted(k_ for k_, v_ in handed.items() if same(v_, pmark[key])) or 'no argument'} holding the element's '{key}'", key=f"{_L}:parse_parallel:default:{key}")
+            v = tbp.get(TASK_KEYS[key], t_defaults.get(TASK_KEYS[key]))
+            other = [k_ for k_, m_ in pmark.items() if same(v, m_)]
+            chk.ob("O10.2", f"task key '{key}' defaults to the parallel element's value", same(v, pmark[key]), tctor[0],
+                   f"a task that does not write '{key}' inside a parallel element that does gets {v!r}" + (f", the element's '{other[0]}'" if other and other[0] != key else ""),
+                   key=f"{_L}:parse_task:default:{key}")
+        chk.ob("O10.2", "parallel key 'completed-by' -> parse_task(completed_by_name=...)", any(same(v_, "t-a") for v_ in by_kind_p["iterations"][0].values()), ptc[0] if ptc else pp, "")
+        rows = []
+        for cb, want in (("t-a", (True, False)), ("another-task", (False, False)), ("op-1", (False, False)), ("any", (False, True)), (None, (False, False))):
+            _, t_ = through_parallel(cb)
+            got_ = tuple(Sim().truth(t_.get(p_, t_defaults.get(p_))) for p_ in ("completes_parent", "any_completes_parent"))
+            if got_ != want:
+                rows.append(f"completed-by {cb!r}: task 't-a' (operation 'op-1') gets completes_parent / any_completes_parent = {got_}, expected {want}")
+        chk.ob("O10.2", "completed-by flags: name == completed-by / completed-by == 'any'", not rows, tctor[0], "; ".join(rows)[:300])
+    except CannotEval as e:
+        chk.unknown("O10.2", f"parse_parallel / parse_task cannot be interpreted on a representative parallel element: {e}", pp)
     pr_ = [c for c in source.calls_in(pp) if dotted(c.func) == "track.Parallel"]
-    prb = bind_args(pr_[0], method(trk, trk.cls("Parallel"), "__init__")) if pr_ else {}
-    k, _ = r_key(prb.get("clients"), pdefs) if prb.get("clients") is not None else (None, None)
-    # role: the sub-task list is the local handed to Parallel(tasks=...); it must be the list the loop over the 'tasks' key appends each parsed task to
-    tasks_local = name_of(prb.get("tasks"))
-    tl = [n for n in walk_body(pp) if isinstance(n, ast.For) and isinstance(n.iter, ast.Call) and r_key(n.iter)[0] == "tasks"]
-    appended = [c for c in ast.walk(tl[0]) if isinstance(c, ast.Call) and pat.is_(c.func, "V_l.append", binds={"l": tasks_local}) and len(c.args) == 1 and any(x is ptc[0] for x in ast.walk(c.args[0]))] if tl and tasks_local else []
-    chk.ob("O10.2", "parallel key 'clients' -> Parallel(clients)", k == "clients" and bool(appended), pr_[0] if pr_ else pp, "")
-    ok = bool(appended) and not any(isinstance(c, ast.Call) and (dotted(c.func) in ("sorted", "reversed") or last_attr(c.func) in ("sort", "reverse", "insert")) for c in walk_body(pp))
-    chk.ob("O10.2", "sub-tasks kept in file order", ok, tl[0] if tl else pp, "")
+    if not pr_:
+        raise AnchorMissing("track.Parallel(...) in parse_parallel")
+    prb = bind_args(pr_[0], method(trk, trk.cls("Parallel"), "__init__"))
+    if prb.get("clients") is None or prb.get("tasks") is None:
+        raise AnchorMissing("Parallel(<tasks>, <clients>) in parse_parallel")
+    pkeys = {"clients": 9, "warmup-iterations": 111, "iterations": 222, "warmup-time-period": 333, "time-period": 444, "ramp-up-time-period": 555, "completed-by": "cb-marker"}
+    got = handed_value(pp, pr_[0], prb.get("clients"), pkeys, "O10.2", "the client count handed to Parallel(...)", observe_all)
+    if got is not None and not isinstance(got, _Sig):
+        other = [k_ for k_, m_ in pkeys.items() if same(got, m_)]
+        chk.ob("O10.2", "parallel key 'clients' -> Parallel(clients)", same(got, 9), pr_[0], f"Parallel(clients=...) gets {got!r}" + (f", the value of '{other[0]}'" if other else ""))
+    # role: the sub-task list is whatever is handed to Parallel(tasks=...). Decided on values: the statements that compute it are interpreted for a parallel element whose 'tasks'
+    # are [A, B, C] (three distinct specifications, deliberately not in alphabetical order); the list must be [parse_task(A, ...), parse_task(B, ...), parse_task(C, ...)] —
+    # whatever the loop / comprehension / helper that builds it looks like
+    sub_in = [{"operation": "zz-first"}, {"operation": "mm-second"}, {"operation": "aa-third"}]
+    got = handed_value(pp, pr_[0], prb.get("tasks"), {"tasks": sub_in}, "O10.2", "the sub-task list handed to Parallel(...)", {pt.name, pp.name})
+    if isinstance(got, _Sig):
+        chk.ob("O10.2", "sub-tasks kept in file order", False, pr_[0], f"for a valid parallel element with three tasks the statements that build the sub-task list end in a Python error: {got.value}")
+    elif got is not None:
+        els = parsed_elements(got, pt)
+        if els is None and not mentions(got, [_freeze(x) for x in sub_in]):
+            chk.ob("O10.2", "sub-tasks kept in file order", False, pr_[0], f"what is handed to Parallel(tasks=...) does not depend on the 'tasks' written in the file: {str(got)[:100]}")
+        elif els is None:
+            chk.unknown("O10.2", f"the sub-task list handed to Parallel(...) is not a list of parse_task(...) results: {str(got)[:120]}", pr_[0])
+        else:
+            want = [("parse_task", _freeze(x)) for x in sub_in]
+            chk.ob("O10.2", "sub-tasks kept in file order", els == want, pr_[0],
+                   "" if els == want else f"for tasks [A, B, C] the parallel element gets {[('ABC?'[[w[1] for w in want].index(e_[1])] if e_[1] in [w[1] for w in want] else '?') for e_ in els]}")
     cc = method(ldr, SR, "_create_challenges")
-    # role: the schedule is the local handed to track.Challenge(schedule=...); the loop over the 'schedule' key appends each parsed element to it
+    # role: the schedule is whatever is handed to track.Challenge(schedule=...). Decided on values as well: for a challenge whose 'schedule' is [T1, {"parallel": P}, T2] the
+    # statements that compute it (in _create_challenges and in the helpers of the class it calls) must yield [parse_task(T1, ...), parse_parallel(P, ...), parse_task(T2, ...)]
     chctor = [c for c in source.calls_in(cc) if dotted(c.func) == "track.Challenge"]
     if not chctor:
         raise AnchorMissing("track.Challenge(...) in _create_challenges")
     chb = bind_args(chctor[0], method(trk, trk.cls("Challenge"), "__init__"))
+    if chb.get("schedule") is None:
+        raise AnchorMissing("the schedule argument of track.Challenge(...) in _create_challenges")
     sched_local = name_of(chb.get("schedule"))
-    sl = [n for n in walk_body(cc) if isinstance(n, ast.For) and isinstance(n.iter, ast.Call) and r_key(n.iter)[0] == "schedule"]
-    ok = bool(sl) and sched_local is not None and any(isinstance(c, ast.Call) and pat.is_(c.func, "V_l.append", binds={"l": sched_local}) for c in ast.walk(sl[0])) \
-        and not any(isinstance(c, ast.Call) and dotted(c.func) in ("sorted", "reversed") and any(name_of(x) == sched_local or (isinstance(x, ast.Constant) and x.value == "schedule") for x in ast.walk(c)) for c in walk_body(cc))
-    chk.ob("O10.2", "schedule kept in file order", ok, sl[0] if sl else cc, "")
-    if sl:
-        ev_ = name_of(sl[0].target)
-        ppc = [c for c in ast.walk(sl[0]) if isinstance(c, ast.Call) and u(c.func) == "self.parse_parallel" and c.args and pat.is_(c.args[0], "V_e['parallel']", binds={"e": ev_})]
-        ptk = [c for c in ast.walk(sl[0]) if isinstance(c, ast.Call) and u(c.func) == "self.parse_task" and c.args and name_of(c.args[0]) == ev_]
-        ok = ev_ is not None and bool(ppc) and bool(ptk) and all(exact_facts(c, ["'parallel' in V_e"], binds={"e": ev_}, stop=sl[0]) for c in ppc) and all(exact_facts(c, ["'parallel' not in V_e"], binds={"e": ev_}, stop=sl[0]) for c in ptk)
-        chk.ob("O10.2", "parallel elements and plain tasks dispatched on the 'parallel' key", ok, ppc[0] if ppc else sl[0], "")
+    par_el = Opaque("input", "the value of 'parallel'")
+    sched_in = [{"operation": "zz-first"}, {"parallel": par_el}, {"operation": "aa-last"}]
+    got = handed_value(cc, chctor[0], chb.get("schedule"), {"schedule": sched_in}, "O10.2", "the schedule handed to Challenge(...)", {pt.name, pp.name})
+    if isinstance(got, _Sig):
+        chk.ob("O10.2", "schedule kept in file order", False, chctor[0], f"for the valid schedule [T1, parallel, T2] the statements that build the schedule end in a Python error: {got.value}")
+    elif got is not None:
+        els = parsed_elements(got, pt, pp)
+        if els is None and not mentions(got, [_freeze(x) for x in sched_in] + [par_el]):
+            chk.ob("O10.2", "schedule kept in file order", False, chctor[0], f"what is handed to Challenge(schedule=...) does not depend on the 'schedule' written in the file: {str(got)[:100]}")
+        elif els is None:
+            chk.unknown("O10.2", f"the schedule handed to Challenge(...) is not a list of parse_task(...) / parse_parallel(...) results: {str(got)[:120]}", chctor[0])
+        else:
+            want = [("parse_task", _freeze(sched_in[0])), ("parse_parallel", par_el), ("parse_task", _freeze(sched_in[2]))]
+            alt = [("parse_task", _freeze(sched_in[0])), ("parse_parallel", _freeze(sched_in[1])), ("parse_task", _freeze(sched_in[2]))]
+            specs, wspecs = [e_[1] for e_ in els], [w[1] for w in want]
+            in_order = specs == wspecs or specs == [w[1] for w in alt]
+            chk.ob("O10.2", "schedule kept in file order", in_order, chctor[0],
+                   "" if in_order else f"for the schedule [T1, parallel, T2] the challenge gets {len(els)} element(s) in the order {[('T1', 'parallel', 'T2')[wspecs.index(x)] if x in wspecs else '?' for x in specs]}")
+            ok = els == want or (not in_order and sorted(map(repr, els)) == sorted(map(repr, want)))
+            chk.ob("O10.2", "parallel elements and plain tasks dispatched on the 'parallel' key", ok, chctor[0],
+                   "" if ok else f"for the schedule [T1, parallel, T2]: {[(m_, ('T1', 'P', 'T2')[wspecs.index(x)] if x in wspecs else ('the whole element' if x in [a_[1] for a_ in alt] else '?')) for m_, x in els]}")
     # documents
     cr = method(ldr, SR, "_create_corpora")
     dctor = [c for c in source.calls_in(cr) if dotted(c.func) == "track.Documents"]
     if not dctor:
         raise AnchorMissing("track.Documents(...) in _create_corpora")
-    DI = method(trk, trk.cls("Documents"), "__init__")
-    db = bind_args(dctor[0], DI)
-    cdefs = {}
-    for n in walk_body(cr):
-        if isinstance(n, ast.Assign) and len(n.targets) == 1 and isinstance(n.targets[0], ast.Name):
-            cdefs.setdefault(n.targets[0].id, []).append(n.value)
+    DC = trk.cls("Documents")
+    DI = method(trk, DC, "__init__")
+    d_params = params_of(DI)[1:]
+    for param in list(DOC_KEYS.values()) + ["document_file", "document_archive"]:
+        if param not in d_params:
+            raise AnchorMissing(f"Documents.__init__ has no parameter `{param}`")
+    if len(params_of(cr)) < 4:
+        raise AnchorMissing("_create_corpora(self, <corpora>, <indices>, <data streams>)")
+    # constants of the model classes the loader compares values with (track.Documents.SOURCE_FORMAT_BULK): extracted literals
+    track_consts = {f"track.{c_.name}.{st_.targets[0].id}": st_.value.value for c_ in trk.classes() for st_ in c_.body
+                    if isinstance(st_, ast.Assign) and len(st_.targets) == 1 and isinstance(st_.targets[0], ast.Name) and isinstance(st_.value, ast.Constant)}
+    bulk = track_consts.get("track.Documents.SOURCE_FORMAT_BULK", "bulk")
 
-    def doc_keys(e):
-        """spec keys whose VALUE can flow into e (through locals and default_value=..., not through error contexts / mandatory flags)."""
-        out = set()
-        todo, seen = [e], set()
-        while todo:
-            x = todo.pop()
-            if x is None:
-                continue
-            if isinstance(x, ast.Call) and r_key(x)[0] is not None:
-                out.add(r_key(x)[0])
-                todo.append(arg_of(x, None, "default_value"))
-                continue
-            if isinstance(x, ast.Call) and dotted(x.func) == "track.Documents":
-                continue
-            if isinstance(x, ast.Name):
-                if x.id in cdefs and x.id not in seen:
-                    seen.add(x.id)
-                    todo.extend(cdefs[x.id])
-                continue
-            todo.extend(c for c in ast.iter_child_nodes(x) if isinstance(c, ast.expr))
-        return out
+    def is_doc_ctor(e):
+        return last_attr(e.func) == DC.name and (dotted(e.func) or "").split(".")[0] in ("track", DC.name)
+
+    def documents_for(corpus_extra, doc_extra, archive=True, indices=(), data_streams=()):
+        """what Documents(...) is called with for the only document set of the only corpus (the given keys written on the corpus / on the document set)."""
+        src = "docs-marker.json.bz2" if archive else "docs-marker.json"
+        doc = {"source-file": src, "document-count": 1001, **doc_extra}
+        corpus = {"name": "corpus-1", **corpus_extra, "documents": [doc]}
+        env = call_env(cr, {params_of(cr)[1]: [corpus], params_of(cr)[2]: list(indices), params_of(cr)[3]: list(data_streams)})
+        return capture(cr, env, is_doc_ctor, d_params, observe_all - {cr.name}, oracle={"is_archive": archive}, consts=track_consts)
+
+    d_defaults = call_env(DI, {})
+    dmark = {"base-url": "http://doc-level-base-url", "source-format": bulk, "document-count": 1001, "compressed-bytes": 1002, "uncompressed-bytes": 1003, "target-index": "doc-level-index",
+             "target-type": "doc-level-type", "target-data-stream": "doc-level-stream", "meta": {"meta-key": "doc-level-meta"}, "includes-action-and-meta-data": True}
+    cmark = {"base-url": "http://corpus-level-base-url", "source-format": bulk, "target-index": "corpus-level-index", "target-type": "corpus-level-type",
+             "target-data-stream": "corpus-level-stream", "includes-action-and-meta-data": True}
+    # every one of these corpora is valid by docs/track.rst (a track without indices / data-streams sections of its own, e.g. one that only defines templates): a run that
+    # ends in a rejection before Documents(...) is reached falsifies what depends on it
+    plans = {
+        # document set that writes everything an index-targeting set may write / a data-stream-targeting one / one whose file carries its own action lines
+        "doc-index": (({}, {k_: v_ for k_, v_ in dmark.items() if k_ not in ("target-data-stream", "includes-action-and-meta-data")}), {}),
+        "doc-stream": (({}, {"target-data-stream": dmark["target-data-stream"]}), {}),
+        "doc-meta-lines": (({}, {"includes-action-and-meta-data": True}), {}),
+        # the same on the corpus, the document set writing only what is mandatory
+        "corpus-index": (({k_: v_ for k_, v_ in cmark.items() if k_ not in ("target-data-stream", "includes-action-and-meta-data")}, {}), {}),
+        "corpus-stream": (({"target-data-stream": cmark["target-data-stream"]}, {}), {}),
+        "corpus-meta-lines": (({"includes-action-and-meta-data": True}, {}), {}),
+        "plain-file": (({}, {"target-index": dmark["target-index"]}), {"archive": False}),
+    }
+    runs, rejected = {}, {}
+    for r_, (a_, kw_) in plans.items():
+        try:
+            runs[r_] = documents_for(*a_, **kw_)
+        except Rejected as e:
+            runs[r_], rejected[r_] = {}, f"the valid corpus of run '{r_}' is rejected ({e.kind} at line {getattr(e.node, 'lineno', '?')})"
+        except CannotEval as e:
+            raise AnchorMissing(f"_create_corpora cannot be interpreted on a representative corpus up to Documents(...): {e}")
+
+    def reaches(run_, param, value):
+        return run_ not in rejected and same(runs[run_].get(param, d_defaults.get(param)), value)
 
     for key, param in DOC_KEYS.items():
-        e = db.get(param)
-        ks = doc_keys(e) if e is not None else set()
-        others = (ks - {key}) & (set(DOC_KEYS) | {"source-file"})
-        chk.ob("O10.2", f"document key '{key}' -> Documents({param}=...)", key in ks and not others, e if e is not None else dctor[0], f"depends on keys {sorted(ks)}", key=f"{_L}:_create_corpora:key:{key}")
-    ok = doc_keys(db.get("document_file")) == {"source-file"} and doc_keys(db.get("document_archive")) == {"source-file"}
-    chk.ob("O10.2", "source-file -> document file / archive", ok, dctor[0], "")
-    dstored = {n.value.id: n.targets[0].attr for n in walk_body(DI) if isinstance(n, ast.Assign) and is_self_attr(n.targets[0]) and isinstance(n.value, ast.Name)}
-    for param in DOC_KEYS.values():
-        if param == "meta_data":
-            continue
-        chk.ob("O10.2", f"Documents.{param} stores its parameter", dstored.get(param) in (param, "_" + param), DI, f"stored in self.{dstored.get(param)}", key=f"{_T}:Documents.__init__:{param}")
-
-    # a default invented from the FIRST element of a collection is only sound when the collection has exactly one element; otherwise the key stays mandatory downstream
-    n_first = 0
-    for c in source.calls_in(cr):
-        if u(c.func) != "self._r":
-            continue
-        dv = arg_of(c, None, "default_value")
-        if dv is None:
-            continue
-        firsts = [x for x in ast.walk(dv) if isinstance(x, ast.Subscript) and source.is_const(x.slice, 0)]
-        for x in firsts:
-            n_first += 1
-            coll = u(x.value)
-            ok = pat.guarded(c, f"len({coll}) == 1") is not None
-            chk.ob("O10.2", f"default `{short(dv, 40)}` for '{r_key(c)[0] or '?'}' only when `{coll}` has exactly one element", ok, c,
-                   "" if ok else f"guards: {[u(f_) for f_ in pat.fact_nodes(c)]} — with several elements a missing mandatory target is silently replaced by the first one",
-                   key=f"{_L}:_create_corpora:first-element-default:{u(x)}")
-    chk.ob("O10.2", "first-element defaults located in _create_corpora", n_first >= 3, cr, f"{n_first} site(s)")
+        doc_run = {"target-data-stream": "doc-stream", "includes-action-and-meta-data": "doc-meta-lines"}.get(key, "doc-index")
+        wrong = []
+        if doc_run in rejected:
+            wrong.append(rejected[doc_run])
+        elif not reaches(doc_run, param, dmark[key]):
+            v = runs[doc_run].get(param, d_defaults.get(param))
+            other = [k_ for k_, m_ in dmark.items() if same(v, m_) and k_ != key]
+            wrong.append(f"written on the document set: Documents({param}=...) gets {v!r}" + (f", the value of '{other[0]}'" if other else ""))
+        if key in cmark and key != "source-format":
+            c_run = {"target-data-stream": "corpus-stream", "includes-action-and-meta-data": "corpus-meta-lines"}.get(key, "corpus-index")
+            if c_run in rejected:
+                wrong.append(rejected[c_run])
+            elif not reaches(c_run, param, cmark[key]):
+                wrong.append(f"written on the corpus only: Documents({param}=...) gets {runs[c_run].get(param, d_defaults.get(param))!r}")
+        chk.ob("O10.2", f"document key '{key}' -> Documents({param}=...)", not wrong, dctor[0], "; ".join(wrong)[:300], key=f"{_L}:_create_corpora:key:{key}")
+    arch, plain = runs["doc-index"], runs["plain-file"]
+    ok = "doc-index" not in rejected and "plain-file" not in rejected and same(arch.get("document_archive"), "docs-marker.json.bz2") and mentions(arch.get("document_file"), ["docs-marker.json.bz2"]) and not same(arch.get("document_file"), "docs-marker.json.bz2") \
+        and same(plain.get("document_file"), "docs-marker.json") and plain.get("document_archive", d_defaults.get("document_archive")) is None
+    chk.ob("O10.2", "source-file -> document file / archive", ok, dctor[0],
+           "" if ok else f"archive: file={arch.get('document_file')!r} archive={arch.get('document_archive')!r}; plain file: file={plain.get('document_file')!r} archive={plain.get('document_archive')!r}"[:300])
+    # Documents.__init__ interpreted on marker arguments: the attribute of that name (or its private twin behind a property) holds the argument
+    try:
+        obj = Record()
+        amark = {p_: f"arg-{p_}" for p_ in d_params}
+        kind, _, node = simulate(DI.body, {params_of(DI)[0]: obj, **amark})
+        if kind not in ("fallthrough", "return"):
+            raise CannotEval(f"ends in `{kind}` at line {getattr(node, 'lineno', '?')}")
+        for param in DOC_KEYS.values():
+            if param == "meta_data":
+                continue
+            holders = [a_ for a_, v_ in obj.fields.items() if same(v_, amark[param])]
+            chk.ob("O10.2", f"Documents.{param} stores its parameter", any(a_ in (param, "_" + param) for a_ in holders), DI, f"stored in {['self.' + a_ for a_ in holders] or 'no attribute'}",
+                   key=f"{_T}:Documents.__init__:{param}")
+    except CannotEval as e:
+        chk.unknown("O10.2", f"Documents.__init__ cannot be interpreted on marker arguments: {e}", DI)
 
     # the corpus-level defaults target-index / target-data-stream / target-type are "exactly those written in the file" whatever the track's OWN indices / data-streams sections
-    # contain (a track whose indices come from templates has none): on every path to the document loop the local that the document-level read falls back to holds the value read
-    # from the corpus specification under the same key. Decided on values: the statements that assign that local are interpreted for len(indices), len(data_streams) in {0, 1, 2}
-    # (and 0..2 types of the first index); the extracted tests are evaluated, nothing is read off the if/elif shape.
+    # contain (a track whose indices come from templates has none), and a default invented from the FIRST element of a collection is only sound when the collection has exactly
+    # one element (otherwise the key stays mandatory downstream). Both decided on VALUES: the statements that run before the document loop are sliced to those that decide the
+    # local the document-level read falls back to and interpreted for len(indices), len(data_streams) in {0, 1, 2} (and 0..2 types of the first index), once for a corpus that
+    # writes the key and once for one that does not; nothing is read off the if/elif shape, the spelling of the tests or the place where the default is computed.
     # roles: the document loop iterates over self._r(<corpus spec>, "documents"); a document-level read is self._r(<its loop variable>, KEY, default_value=<corpus-level local>)
     doc_loops = [a for a in source.ancestors(dctor[0]) if isinstance(a, ast.For) and isinstance(a.iter, ast.Call) and r_key(a.iter)[0] == "documents"]
     if not doc_loops or name_of(doc_loops[0].target) is None:
@@ -478,59 +1561,51 @@ def run(chk):
     if corpus_loop is None or len(params_of(cr)) < 4:
         raise AnchorMissing("loop over the corpus specifications around the document loop / _create_corpora(self, <corpora>, <indices>, <data streams>)")
     p_idx, p_ds = params_of(cr)[2], params_of(cr)[3]
-    # the statements (as written) that run before the document loop: plain single-name assignments ahead of the corpus loop (a test may refer to them), then the corpus loop's own
-    before_docs = []
-    for s_ in source.flat(cr.body):
-        if s_ is corpus_loop or any(x is corpus_loop for x in source.walk_explicit(s_)):
-            break
-        if isinstance(s_, ast.Assign) and len(s_.targets) == 1 and isinstance(s_.targets[0], ast.Name):
-            before_docs.append(s_)
-    for s_ in source.flat(corpus_loop.body):
-        if s_ is doc_loop or any(x is doc_loop for x in source.walk_explicit(s_)):
-            break
-        before_docs.append(s_)
+    before_docs = statements_before(corpus_loop, cr) + statements_before(doc_loop, cr)
+    written = "written-on-the-corpus"
     for key in ("target-index", "target-data-stream", "target-type"):
         reads = [c for c in ast.walk(doc_loop) if isinstance(c, ast.Call) and r_key(c)[0] == key and r_root(c) == doc_var]
-        fallbacks = {name_of(arg_of(c, None, "default_value")) for c in reads}
+        fallbacks = {name_of(bind_args(c, reader).get(rd_default)) for c in reads}
         if len(fallbacks) != 1 or None in fallbacks:
             raise AnchorMissing(f"document-level read self._r({doc_var}, '{key}', default_value=<corpus-level local>) in _create_corpora (found fall-backs {sorted(map(str, fallbacks))})")
         level_local = fallbacks.pop()
-
-        def assigns_level_local(s_):
-            return any(isinstance(x, ast.Assign) and any(name_of(t_) == level_local for t_ in x.targets) for x in source.walk_explicit(s_))
-
-        # the slice that decides the local: every statement (as written) that assigns it, plus plain single-name assignments a test may refer to
-        sel = [s_ for s_ in before_docs if assigns_level_local(s_) or (isinstance(s_, ast.Assign) and len(s_.targets) == 1 and isinstance(s_.targets[0], ast.Name))]
-        if not any(assigns_level_local(s_) for s_ in sel):
+        keep = set()
+        slice_before(before_docs, {level_local}, keep, inputs=(p_idx, p_ds, corpus_var))
+        if not keep:
             raise AnchorMissing(f"assignment of the corpus-level local `{level_local}` before the document loop of _create_corpora")
-        cur = {}
+        last_kept = [s_ for s_ in before_docs if id(s_) in keep][-1]
 
-        def see_bindings(s_, e_, b_):
-            cur["b"] = b_
-            return None
-
-        def value_atom(n, e_):
-            try:
-                return bool(ev(source.inline_node(n, {k_: v_ for k_, v_ in cur.get("b", {}).items() if v_ is not None and k_ not in e_}), e_))
-            except CannotEval:
-                return None
+        def level_value(ni, nd, nt, has_key):
+            env = {p_idx: [Record(name=f"index-{j}", types=[f"type-{k_}" for k_ in range(nt)]) for j in range(ni)], p_ds: [Record(name=f"stream-{j}") for j in range(nd)],
+                   corpus_var: {"name": "corpus-1", **({key: written} if has_key else {})}}
+            kind, _, node = simulate(before_docs, env, keep, hook=loader_hook(observe=roles))
+            if kind != "fallthrough":
+                return f"<{kind} at line {getattr(node, 'lineno', '?')}>"
+            if level_local not in env:
+                raise CannotEval(f"`{level_local}` is not bound on this path")
+            return env[level_local]
 
         for ni, nd in ((0, 0), (0, 1), (0, 2), (1, 0), (2, 0)):  # both sections at once is rejected before (O10.5)
-            lost = []
+            lost, invented = [], []
             try:
                 for nt in ((0, 1, 2) if ni else (0,)):
-                    env = {p_idx: [Record(name=f"index-{j}", types=[f"type-{k_}" for k_ in range(nt)]) for j in range(ni)], p_ds: [Record(name=f"stream-{j}") for j in range(nd)]}
-                    cur.clear()
-                    out = decide(sel, value_atom, env, on_stmt=see_bindings)
-                    final = getattr(out, "bindings", {}).get(level_local) if out.kind == "fallthrough" else None
-                    if not (isinstance(final, ast.Call) and r_key(final)[0] == key and r_root(final) == corpus_var):
-                        lost.append(f"{nt} type(s): {level_local} = {short(final, 60) if final is not None else out.text()}")
-            except (Unsupported, UnknownAtom) as e:
-                chk.unknown("O10.2", f"the statements that assign `{level_local}` in _create_corpora are not a decision over the sizes of `{p_idx}` / `{p_ds}`: {e}", cr)
+                    v = level_value(ni, nd, nt, True)
+                    if v != written:
+                        lost.append(f"{nt} type(s): {level_local} = {v!r}")
+                    v = level_value(ni, nd, nt, False)
+                    allowed = [None] + (["index-0"] if ni == 1 else []) + (["stream-0"] if nd == 1 else []) + (["type-0"] if ni == 1 and nt == 1 else [])
+                    if not any(v is a_ or (a_ is not None and v == a_) for a_ in allowed):
+                        invented.append(f"{nt} type(s): {level_local} = {v!r}")
+            except CannotEval as e:
+                chk.unknown("O10.2", f"the statements that decide `{level_local}` in _create_corpora cannot be interpreted for {ni} index(es) / {nd} data stream(s): {e}", last_kept)
                 break
-            chk.ob("O10.2", f"corpus-level '{key}' is read from the corpus specification when the track defines {ni} index(es) and {nd} data stream(s)", not lost, sel[-1],
+            chk.ob("O10.2", f"corpus-level '{key}' is read from the corpus specification when the track defines {ni} index(es) and {nd} data stream(s)", not lost, last_kept,
                    "" if not lost else f"{'; '.join(lost)} — the value written on the corpus is dropped: documents without their own '{key}' lose it (or the track is rejected as having no target)",
                    key=f"{_L}:TrackSpecificationReader._create_corpora:corpus-level-default:{key}:indices={ni}:data-streams={nd}")
+            chk.ob("O10.2", f"corpus-level '{key}' that is not written falls back to the track's ONLY index / data stream / type, to nothing when there are {ni} index(es) and {nd} data stream(s)",
+                   not invented, last_kept,
+                   "" if not invented else f"{'; '.join(invented)} — with none or several elements a missing mandatory target is silently replaced by the first one (or the loader ends in a Python error)",
+                   key=f"{_L}:_create_corpora:first-element-default:{key}:indices={ni}:data-streams={nd}")
 
     # ---- O10.3 error helper -----------------------------------------------------------------------------------------------------------------------------------
     chk.rule("O10.3", "the error helper raises a track syntax error on every path", 1, "a detected rule violation is only logged and the invalid track is loaded")
@@ -545,77 +1620,114 @@ def run(chk):
              "extracted item schema)", 4,
              "a track violating the schema (or of an unsupported version) is loaded")
     rd = method(ldr, FR, "read")
-    gr = cfg_of(rd)
-    build = [c for c in source.calls_in(rd) if u(c.func) == "self.read_track"]
-    val = [c for c in source.calls_in(rd) if dotted(c.func) == "jsonschema.validate"]
-    if not build or not val:
-        raise AnchorMissing("self.read_track(...) / jsonschema.validate(...) in TrackFileReader.read")
-    bn = gr.node_of(build[0])
-    # role: the specification is the local handed to self.read_track(<name>, SPEC, ...); the SAME local must be what jsonschema.validate(SPEC, self.track_schema) checked
-    spec_local = name_of(arg_of(build[0], 1, "track_specification"))
-    ok = gr.dominated_by_nodes(bn, [gr.node_of(val[0])]) and spec_local is not None and name_of(arg_of(val[0], 0, "instance")) == spec_local and u(arg_of(val[0], 1, "schema")) == "self.track_schema"
-    chk.ob("O10.4", "jsonschema.validate(track_spec, schema) dominates construction of the same spec", ok, val[0], "")
-    tv = source.enclosing(val[0], ast.Try)
-    ok = tv is not None and all(gr.exit.id not in gr.reachable(gr.by_ast.get(id(h), [])) and any(isinstance(x, ast.Raise) and "TrackSyntaxError" in u(x.exc) for x in ast.walk(h)) for h in tv.handlers)
-    chk.ob("O10.4", "validation errors re-raised as track syntax errors", ok, tv if tv is not None else rd, "")
-    # the window is evaluated, not read off the comparison text: with representative bounds 2..4 the rejecting conditions of the dominating checks must reject exactly 1 and 5
-    # role: the version local is the one bound from a read of the "version" key; the window tests are the ifs on it (the bounds may be named class constants or, after constant
-    # propagation N9, literals: they are evaluated with the class's actual bounds either way)
-    vnames = {t.id for n in walk_body(rd) if isinstance(n, ast.Assign) for t in n.targets if isinstance(t, ast.Name)
-              and any(isinstance(x, ast.Constant) and x.value == "version" for x in ast.walk(n.value))}
-    for _ in range(4):  # ... and what is computed from it (`track_version = int(raw_version)`)
-        vnames |= {t.id for n in walk_body(rd) if isinstance(n, ast.Assign) for t in n.targets if isinstance(t, ast.Name)
-                   and any(isinstance(x, ast.Name) and x.id in vnames for x in ast.walk(n.value))}
-    vt = [n for n in source.flat(rd.body) if isinstance(n, ast.If) and any(isinstance(x, ast.Name) and x.id in vnames for x in ast.walk(n.test))
-          and any(isinstance(x, ast.Compare) for x in ast.walk(n.test))]
-    rej = [rejecting_condition(gr, n) for n in vt]
-    tests = sorted(u(n.test) for n in vt)
-    ok = bool(vt) and all(gr.dominated_by_nodes(bn, [gr.node_of(n)]) for n in vt) and all(r is not None for r in rej)
-    ver_locals = {x.id for n in vt for x in ast.walk(n.test) if isinstance(x, ast.Name) and x.id not in ("TrackFileReader", "self")}
-    detail = f"{tests}"
-    if ok and len(ver_locals) == 1:
-        cvals = {}
-        for st_ in ldr.cls("TrackFileReader").body:
-            if isinstance(st_, ast.Assign) and len(st_.targets) == 1 and isinstance(st_.targets[0], ast.Name) and isinstance(st_.value, ast.Constant) and isinstance(st_.value.value, int):
-                cvals[st_.targets[0].id] = st_.value.value
-        lo_, hi_ = cvals.get("MINIMUM_SUPPORTED_TRACK_VERSION"), cvals.get("MAXIMUM_SUPPORTED_TRACK_VERSION")
-        if lo_ is None or hi_ is None or lo_ > hi_:
-            raise AnchorMissing("supported track version bounds (class constants of TrackFileReader)")
-        bounds = Record(**cvals)
-        try:
-            rows = {v: any(bool(ev(r, {next(iter(ver_locals)): v, "TrackFileReader": bounds, "self": bounds})) for r in rej) for v in sorted({lo_ - 1, lo_, hi_, hi_ + 1})}
-            ok = rows == {v: not (lo_ <= v <= hi_) for v in rows}
-            detail = f"{tests}; with supported versions {lo_}..{hi_} rejected: {sorted(v for v, r in rows.items() if r)}"
-        except CannotEval as e:
-            ok = False
-            detail = f"{tests}; cannot evaluate: {e}"
-    else:
-        ok = False
-    chk.ob("O10.4", "version window check (below minimum / above maximum raise) dominates construction", ok, vt[0] if vt else rd, detail)
-    # the version is looked at BEFORE the schema has been applied: whatever JSON value stands there (null, a list, an object; a top-level value that is no object at all) this
-    # pre-check must end in a Rally error or let the schema validation reject the specification — never in a bare Python error
-    from sa.exc import handler_type_names
-    conv = [c for c in walk_body(rd) if isinstance(c, ast.Call) and dotted(c.func) == "int" and c.args and not isinstance(c.args[0], ast.Constant)
-            and not gr.dominated_by_nodes(gr.node_of(c), [gr.node_of(val[0])])]
-    for c in conv:
-        tr_ = source.enclosing(c, ast.Try)
-        caught = {n_.split(".")[-1] for h in (tr_.handlers if tr_ is not None else []) for n_ in handler_type_names(h, ldr)} | ({"BaseException"} if tr_ is not None and any(h.type is None for h in tr_.handlers) else set())
-        ok = tr_ is not None and ({"TypeError", "ValueError"} <= caught or caught & {"Exception", "BaseException"}) and all(any(isinstance(x, ast.Raise) for x in ast.walk(h)) for h in tr_.handlers)
-        chk.ob("O10.4", "conversion of the not-yet-validated version value cannot escape as a Python error", ok, c,
-               f"int({short(c.args[0], 30)}) guarded for {sorted(caught)}" + ("" if ok else " — `\"version\": null` (or a list / object) raises TypeError instead of a track syntax error"),
-               key=f"{_L}:TrackFileReader.read:version-conversion-guarded")
-    raw_reads = [c for c in walk_body(rd) if isinstance(c, ast.Call) and isinstance(c.func, ast.Attribute) and c.func.attr == "get" and c.args and source.is_const(c.args[0], "version")
-                 and not gr.dominated_by_nodes(gr.node_of(c), [gr.node_of(val[0])])]
-    for c in raw_reads:
-        recv = u(c.func.value)
-        ok = pat.guarded(c, f"isinstance({recv}, dict)") is not None
-        chk.ob("O10.4", "the not-yet-validated specification is only subscripted as an object after an isinstance(dict) test", ok, c,
-               "" if ok else f"`{short(c, 50)}` runs before validation on whatever the top-level JSON value is: a list raises AttributeError instead of a track syntax error",
-               key=f"{_L}:TrackFileReader.read:version-read-guarded")
-    chk.ob("O10.4", "pre-validation version read located", bool(conv) and bool(raw_reads), rd, f"{len(conv)} conversion(s), {len(raw_reads)} read(s)")
+    fr_methods = ldr.methods(FR)
+    # roles: the schema is the attribute that the constructor fills by parsing track-schema.json; the builder is the attribute it fills with a TrackSpecificationReader; the
+    # specification is what json.loads makes of the rendered text
     sch = method(ldr, FR, "__init__")
-    ok = any(isinstance(n, ast.Assign) and is_self_attr(n.targets[0], "track_schema") and "json.loads" in u(n.value) for n in walk_body(sch)) and any("track-schema.json" in u(n) for n in walk_body(sch))
-    chk.ob("O10.4", "the schema is Rally's track-schema.json", ok, sch, "")
+    schema_attrs = {n.targets[0].attr for n in walk_body(sch) if isinstance(n, ast.Assign) and len(n.targets) == 1 and is_self_attr(n.targets[0]) and "json.load" in u(n.value)}
+    builder_attrs = {n.targets[0].attr for n in walk_body(sch) if isinstance(n, ast.Assign) and len(n.targets) == 1 and is_self_attr(n.targets[0]) and isinstance(n.value, ast.Call)
+                     and last_attr(n.value.func) == SR.name}
+    if len(schema_attrs) != 1 or len(builder_attrs) != 1:
+        raise AnchorMissing(f"TrackFileReader.__init__: the schema attribute (filled from parsed JSON: {sorted(schema_attrs)}) / the builder attribute (a {SR.name}: {sorted(builder_attrs)})")
+    schema_attr, builder_attr = next(iter(schema_attrs)), next(iter(builder_attrs))
+    cvals = {st_.targets[0].id: st_.value.value for st_ in FR.body if isinstance(st_, ast.Assign) and len(st_.targets) == 1 and isinstance(st_.targets[0], ast.Name)
+             and isinstance(st_.value, ast.Constant) and isinstance(st_.value.value, int) and not isinstance(st_.value.value, bool)}
+    lo_, hi_ = cvals.get("MINIMUM_SUPPORTED_TRACK_VERSION"), cvals.get("MAXIMUM_SUPPORTED_TRACK_VERSION")
+    if lo_ is None or hi_ is None or lo_ > hi_:
+        raise AnchorMissing("supported track version bounds (class constants of TrackFileReader)")
+    fr_consts = {f"{FR.name}.{k_}": v_ for k_, v_ in cvals.items()}
+
+    # Decided on VALUES: TrackFileReader.read is interpreted as a whole (its helpers entered) on one representative specification per row; Jinja, json.loads, jsonschema and the
+    # accounting object answer what the row says. Observed: whether / in which order validate(...) and the builder are called and with what, and how the run ends.
+    def read_run(spec, valid=True, reserved=(), unused=()):
+        log = []
+        built = Opaque("input", "the track that the builder returns")
+
+        def hook(e, env_, sim):
+            f = e.func
+            la = last_attr(f)
+            d = dotted(f) or ""
+            if d == "json.loads":
+                return spec
+            if la == "validate" and (d.startswith("jsonschema") or isinstance(f, ast.Attribute)):  # jsonschema.validate(spec, schema) or <a validator object>.validate(spec)
+                args = [sim.ev(a, env_) for a in e.args] + [sim.ev(k.value, env_) for k in e.keywords]
+                log.append(("validate", args))
+                if not valid:
+                    raise _Sig("raise", None, e, "ValidationError")
+                return None
+            if isinstance(f, ast.Attribute) and isinstance(f.value, ast.Name) and f.value.id == "self":
+                if f.attr == builder_attr:
+                    log.append(("build", [sim.ev(a, env_) for a in e.args] + [sim.ev(k.value, env_) for k in e.keywords]))
+                    return built
+                if f.attr in fr_methods and f.attr != rd.name:
+                    return sim.invoke(fr_methods[f.attr], e, env_, extra={"self": env_["self"]})
+            if la == iu.name:
+                return list(reserved)
+            if la == un.name:
+                return list(unused)
+            return NotImplemented
+
+        env = call_env(rd, {params_of(rd)[0]: SelfObj(), **{p_: f"<{p_}>" for p_ in params_of(rd)[1:]}})
+        kind, val, node = simulate(rd.body, env, None, hook, consts=fr_consts)
+        return kind, val, node, log, built
+
+    def order_ok(log, spec):
+        """validate(spec, self.<schema>) was called, and before the builder was called with the same specification."""
+        kinds = [k_ for k_, _ in log]
+        if kinds != ["validate", "build"]:
+            return False
+        v_args, b_args = log[0][1], log[1][1]
+        return len(v_args) >= 1 and v_args[0] is spec and (len(v_args) < 2 or v_args[1] == Opaque("attr", Opaque("free", "self"), schema_attr)) and any(a_ is spec for a_ in b_args)
+
+    CT = ldr.cls("CompleteTrackParams")
+    un = method(ldr, CT, "unused_user_defined_track_params")
+    iu = method(ldr, CT, "internal_user_defined_track_params")
+    try:
+        good = {"version": lo_, "challenges": []}
+        runs_r = {
+            "valid": (good, read_run(good)), "valid, highest version": ((s_ := {"version": hi_}), read_run(s_)), "no version": ((s_ := {"challenges": []}), read_run(s_)),
+            "version below the minimum": ((s_ := {"version": lo_ - 1}), read_run(s_)), "version above the maximum": ((s_ := {"version": hi_ + 1}), read_run(s_)),
+            "version null": ((s_ := {"version": None}), read_run(s_)), "version a list": ((s_ := {"version": [lo_]}), read_run(s_)), "version not numeric": ((s_ := {"version": "two"}), read_run(s_)),
+            "top level is a list": ((s_ := ["not", "an", "object"]), read_run(s_, valid=False)), "schema violated": ((s_ := {"version": lo_, "bogus": 1}), read_run(s_, valid=False)),
+            "reserved parameter": ((s_ := dict(good)), read_run(s_, reserved=["now"])), "unused parameter": ((s_ := dict(good)), read_run(s_, unused=["no_such_param"])),
+        }
+        read_site = rd
+
+        def ends(r_):
+            k_, v_, n_, _, _ = runs_r[r_][1]
+            return f"{r_}: {k_}" + (f" {v_}" if k_ in ("raise", "error") else "") + (f" at line {n_.lineno}" if n_ is not None and hasattr(n_, "lineno") else "")
+
+        for r_, (spec_, (k_, v_, n_, log_, built_)) in runs_r.items():
+            if k_ not in ("raise", "error", "return"):
+                raise CannotEval(f"run `{r_}` ends in `{k_}`")
+        accepted = [r_ for r_ in ("valid", "valid, highest version", "no version")]
+        if not any(x[0] == "validate" for r_ in runs_r for x in runs_r[r_][1][3]) and not any(last_attr(c.func) == "validate" for f_ in fr_methods.values() for c in source.calls_in(f_)):
+            raise CannotEval("no call of jsonschema.validate(...) / <validator>.validate(...) is reached on any specification: how the schema is applied is not recognised")
+        ok = all(runs_r[r_][1][0] == "return" and order_ok(runs_r[r_][1][3], runs_r[r_][0]) for r_ in accepted) \
+            and all("build" not in [x[0] for x in runs_r[r_][1][3]] for r_ in ("schema violated", "top level is a list"))
+        chk.ob("O10.4", "jsonschema.validate(track_spec, schema) dominates construction of the same spec", ok, read_site,
+               "; ".join(f"{r_}: calls {[(x[0]) for x in runs_r[r_][1][3]]}, ends in {runs_r[r_][1][0]}" for r_ in accepted + ["schema violated"])[:300])
+        bad = [ends(r_) for r_ in ("schema violated", "top level is a list") if not (runs_r[r_][1][0] == "raise" and runs_r[r_][1][1] == "TrackSyntaxError")]
+        chk.ob("O10.4", "validation errors re-raised as track syntax errors", not bad, read_site, "; ".join(bad)[:300])
+        rows = {"version below the minimum": True, "version above the maximum": True, "valid": False, "valid, highest version": False}
+        bad = [ends(r_) for r_, must in rows.items() if (runs_r[r_][1][0] == "raise") != must or (must and runs_r[r_][1][3])]
+        chk.ob("O10.4", "version window check (below minimum / above maximum raise) dominates construction", not bad, read_site,
+               f"supported versions {lo_}..{hi_}; " + ("rejected before validation: " + str([lo_ - 1, hi_ + 1]) if not bad else "; ".join(bad))[:300])
+        bad = [ends(r_) for r_ in ("version null", "version a list", "version not numeric") if runs_r[r_][1][0] != "raise" or runs_r[r_][1][1] in ("TypeError", "ValueError", "AttributeError", "KeyError")]
+        chk.ob("O10.4", "conversion of the not-yet-validated version value cannot escape as a Python error", not bad, read_site,
+               "" if not bad else "; ".join(bad) + " — `\"version\": null` (or a list / text) ends in a Python error instead of a track syntax error", key=f"{_L}:TrackFileReader.read:version-conversion-guarded")
+        k_, v_, n_, log_, _ = runs_r["top level is a list"][1]
+        ok = k_ == "raise" and "validate" in [x[0] for x in log_]
+        chk.ob("O10.4", "the not-yet-validated specification is only subscripted as an object after an isinstance(dict) test", ok, read_site,
+               "" if ok else ends("top level is a list") + " — a specification that is no JSON object must reach the schema validation, not a Python error",
+               key=f"{_L}:TrackFileReader.read:version-read-guarded")
+        chk.ob("O10.4", "pre-validation version read located", True, read_site, f"{len(runs_r)} specifications interpreted")
+        read_runs = runs_r
+    except CannotEval as e:
+        chk.unknown("O10.4", f"TrackFileReader.read cannot be interpreted on a representative specification: {e}", rd)
+        read_runs = None
+    ok = len(schema_attrs) == 1 and any("track-schema.json" in u(n) for n in walk_body(sch))
+    chk.ob("O10.4", "the schema is Rally's track-schema.json", ok, sch, f"schema attribute(s) filled from parsed JSON: {sorted(schema_attrs)}")
     # sibling cross-check inside the schema: a task key is constrained identically wherever it may be written (plain task, parallel element, task inside a parallel element;
     # corpus level and document level)
     import json as _json
@@ -687,94 +1799,224 @@ def run(chk):
              "ambiguous completed-by; indices together with data streams; reserved and unused track parameters between building and returning the track", 50,
              "a specification violating that rule is loaded and run instead of being rejected")
 
-    def dedupe(func, what, container_hint):
-        errs = [c for c in source.calls_in(func) if u(c.func) == "self._error" and c.args and what in u(c.args[0]).lower()]
-        ok = False
-        detail = "no rejecting site"
-        for c in errs:
-            # membership fact under which the site rejects, whatever the polarity / arm order of the test that establishes it
-            for t in pat.fact_nodes(c):
-                if isinstance(t, ast.Compare) and len(t.ops) == 1 and isinstance(t.ops[0], ast.In):
-                    cont = u(t.comparators[0])
-                    elem = u(t.left)
-                    loop = source.enclosing(c, ast.For)
-                    fills = [x for x in ast.walk(loop if loop is not None else func) if (isinstance(x, ast.Call) and u(x.func) == f"{cont}.add" and len(x.args) == 1 and u(x.args[0]) == elem) or
-                             (isinstance(x, ast.Assign) and isinstance(x.targets[0], ast.Subscript) and u(x.targets[0].value) == cont and u(x.targets[0].slice) == elem)]
-                    ok = bool(fills)
-                    detail = f"`{u(t)}` rejects; filled by {short(fills[0], 50) if fills else 'NOTHING (the membership test can never be true)'}"
-        chk.ob("O10.5", f"duplicate {container_hint} names rejected (dedupe idiom)", ok, errs[0] if errs else func, detail, key=f"{_L}:{func.name}:dedupe:{container_hint}")
+    def closure(func, stop=(), depth=3):
+        """func and the methods of the reader it (transitively) calls through self.<m>(...); the methods named in `stop` are not entered."""
+        out, todo = [func], [(func, 0)]
+        while todo:
+            f, d = todo.pop()
+            if d >= depth:
+                continue
+            for c in source.calls_in(f):
+                if isinstance(c.func, ast.Attribute) and isinstance(c.func.value, ast.Name) and c.func.value.id == "self" and c.func.attr in sr_methods and c.func.attr not in stop:
+                    m = sr_methods[c.func.attr]
+                    if all(m is not x for x in out):
+                        out.append(m)
+                        todo.append((m, d + 1))
+        return out
 
-    dedupe(cc, "multiple tasks with the name", "task")
-    dedupe(cc, "duplicate challenge", "challenge")
-    dedupe(method(ldr, SR, "parse_operations"), "duplicate operation", "operation")
-    dedupe(cr, "duplicate document corpus", "corpus")
-    # default challenge rules
-    # roles: the default flag is the local handed to Challenge(default=...); the challenge is the local assigned from track.Challenge(...); the remembered default challenge is the
-    # local that receives the challenge exactly when the flag holds; the result list is the local the function returns
-    two = [c for c in source.calls_in(cc) if u(c.func) == "self._error" and c.args and "defined as default challenges" in u(c.args[0])]
-    flag_local = name_of(chb.get("default"))
-    ch_local = name_of(source.enclosing_stmt(chctor[0]).targets[0]) if isinstance(source.enclosing_stmt(chctor[0]), ast.Assign) and len(source.enclosing_stmt(chctor[0]).targets) == 1 else None
-    sets = [n for n in walk_body(cc) if isinstance(n, ast.Assign) and len(n.targets) == 1 and isinstance(n.targets[0], ast.Name) and ch_local is not None and name_of(n.value) == ch_local
-            and flag_local is not None and exact_facts(n, ["V_f"], binds={"f": flag_local})]
-    dc_local = sets[0].targets[0].id if sets else None
-    ok = bool(two) and dc_local is not None and exact_facts(two[0], ["V_f", "V_d is not None"], binds={"f": flag_local, "d": dc_local})
-    chk.ob("O10.5", "several default challenges rejected", ok, two[0] if two else cc, "")
-    none = [c for c in source.calls_in(cc) if u(c.func) == "self._error" and c.args and "No default challenge" in u(c.args[0])]
-    res_locals = {name_of(n.value) for n in walk_body(cc) if isinstance(n, ast.Return)}
-    res_local = next(iter(res_locals)) if len(res_locals) == 1 else None
-    ok = bool(none) and dc_local is not None and res_local is not None and exact_facts(none[0], ["V_r", "V_d is None"], binds={"r": res_local, "d": dc_local}) and source.enclosing(none[0], ast.For) is None
-    chk.ob("O10.5", "no default challenge rejected (after all challenges were read)", ok, none[0] if none else cc, "")
-    # mixing rules: decision table over abstract tasks
-    tstmt = source.enclosing_stmt(tctor[0])
-    ptb = source.flat(pt.body)  # the statements of parse_task as written (guard clauses do not nest the rest)
-    idx = ptb.index(tstmt) if tstmt in ptb else None
-    if idx is None:
-        raise AnchorMissing("task construction statement at top level of parse_task")
-    # role: the task under validation is the local assigned from track.Task(...)
-    task_local = name_of(tstmt.targets[0]) if isinstance(tstmt, ast.Assign) and len(tstmt.targets) == 1 else None
-    if task_local is None:
-        raise AnchorMissing("`<local> = track.Task(...)` in parse_task")
-    # the statements that follow the construction IN ITS OWN BLOCK (guard clauses carry the rest of the block in their synthetic arm, so nothing is listed twice)
-    own = next((getattr(source.parent(tstmt), f_) for f_ in ("body", "orelse", "finalbody") if isinstance(getattr(source.parent(tstmt), f_, None), list)
-                and any(x is tstmt for x in getattr(source.parent(tstmt), f_))), pt.body)
-    block = [s for s in stmts_of(own[[i for i, x in enumerate(own) if x is tstmt][0] + 1:]) if not isinstance(s, ast.Return)]
+    def reject_sites(funcs, words):
+        """the statements in funcs that reject (call of an error helper / raise) with a message mentioning all the words (the message may be built through one local)."""
+        out = []
+        for f in funcs:
+            defs = local_defs(f)
+            for n in walk_body(f):
+                if isinstance(n, ast.Call) and isinstance(n.func, ast.Attribute) and isinstance(n.func.value, ast.Name) and n.func.value.id == "self" and n.func.attr in raising and n.args:
+                    msg = n.args[0]
+                elif isinstance(n, ast.Raise) and n.exc is not None:
+                    msg = n.exc
+                else:
+                    continue
+                text = " ".join(str(c.value) for c in ast.walk(source.inline_node(msg, defs)) if isinstance(c, ast.Constant) and isinstance(c.value, str)).lower()
+                if all(w in text for w in words):
+                    out.append(n)
+        return out
+
+    def loop_verdict(site_stmt, L, loops, f, cases, expand=()):
+        """interprets the loop L (sliced to what decides whether site_stmt is reached) with what initialises its state, once per case (label, make_input, must_reject).
+        -> [(label, must_reject, outcome kind)]; CannotEval if the slice cannot be interpreted."""
+        from sa.cfg import guards as _guards
+        keep = set()
+        seeds = set()
+        for t, _pol in _guards(site_stmt, stop=L, path_sensitive=True):
+            seeds |= _loads(t)
+        names = slice_inside(L, seeds, keep, must=[site_stmt])
+        kill = {x.id for a in loops if a is L or any(p_ is L for p_ in source.ancestors(a)) for x in ast.walk(a.target) if isinstance(x, ast.Name)}
+        it = L.iter
+        inputs, override_id = set(), None
+        pre = statements_before(L, f)
+        # where the representative collection is supplied: as what the loop runs over (a name; a read of a key through the reader) or, when that is itself computed from something
+        # (names collected first, duplicates counted first, enumerate(...)), as one of the names it is computed from — each such binding is one reading of "the collection of
+        # specifications"
+        if isinstance(it, ast.Name):
+            inputs = {it.id}
+            bindings = [inputs]
+        elif isinstance(it, ast.Call) and isinstance(it.func, ast.Attribute) and is_self_attr(it.func):
+            override_id = id(it)
+            bindings = [inputs]
+        else:
+            inputs = {n_ for n_ in _loads(it) if n_ not in Sim().builtins and n_ != "collections"}
+            if not inputs:
+                raise CannotEval(f"the collection the loop at line {L.lineno} runs over is not computed from a name: {short(it, 50)}")
+            bindings = [{n_} for n_ in sorted(inputs)]
+        if inputs and not override_id:
+            frontier, seen_b = list(inputs), set(inputs)
+            for _ in range(3):
+                nxt = []
+                for nm_ in frontier:
+                    d_ = next((x for x in reversed(pre) if isinstance(x, ast.Assign) and nm_ in _defs(x)[0]), None)
+                    for up in sorted(_loads(d_.value)) if d_ is not None else []:
+                        if up not in seen_b and up not in Sim().builtins:
+                            seen_b.add(up)
+                            nxt.append(up)
+                            bindings.append({up})
+                frontier = nxt
+        out, errors = [], []
+        for bound in bindings:
+            keep_b = set(keep)
+            slice_before(pre, names - kill, keep_b, bound)
+            rows = []
+            try:
+                for label, make, must in cases:
+                    value = make()
+                    kind, _, node = simulate(pre + [L], {n: value for n in bound}, keep_b, hook=loader_hook(expand=set(expand), override={override_id: value} if override_id else None))
+                    if kind == "error":
+                        raise CannotEval(f"on the collection `{label}` the interpretation ends in a Python error at line {getattr(node, 'lineno', '?')}")
+                    rows.append((label, must, kind))
+                out.append(rows)
+            except CannotEval as e:
+                errors.append(str(e))
+        if not out:
+            raise CannotEval("; ".join(errors)[:200])
+        return out
+
+    def dedupe(func, words, hint, cases, stop=()):
+        """duplicate names are rejected — decided on VALUES: the loop around the rejecting site is interpreted on a collection without and with a repeated name (cases); it must
+        run through on the former and reject on the latter, whatever container / membership idiom it uses (set + in, dict, setdefault, Counter, comparing lengths, ...).
+        -> (site, loop, function) that was decided, or None."""
+        fs = closure(func, stop)
+        sites = reject_sites(fs, words)
+        if not sites:
+            chk.unknown("O10.5", f"no rejecting site for duplicate {hint} names located in {func.name} or the helpers it calls (message words {list(words)})", func)
+            return None
+        verdicts, errors = [], []
+        for site in sites:
+            st, f, expand = source.enclosing_stmt(site), source.enclosing_func(site), ()
+            loops = [a for a in source.ancestors(st) if isinstance(a, ast.For) and source.enclosing_func(a) is f]
+            if not loops:
+                # the test sits in a helper that is called from inside the loop: decide the calling loop with that helper interpreted
+                callers = [c for g_ in fs for c in source.calls_in(g_) if isinstance(c.func, ast.Attribute) and isinstance(c.func.value, ast.Name) and c.func.value.id == "self" and c.func.attr == f.name
+                           and sr_methods.get(f.name) is f]
+                if len(callers) != 1:
+                    errors.append(f"the rejecting site at line {site.lineno} is not inside a loop")
+                    continue
+                expand = (f.name,)
+                st, f = source.enclosing_stmt(callers[0]), source.enclosing_func(callers[0])
+                loops = [a for a in source.ancestors(st) if isinstance(a, ast.For) and source.enclosing_func(a) is f]
+            for L in reversed(loops):  # outermost first
+                try:
+                    for rows_ in loop_verdict(st, L, loops, f, cases, expand):
+                        verdicts.append((site, L, f, rows_))
+                except CannotEval as e:
+                    errors.append(f"loop at line {L.lineno}: {e}")
+        good = [v for v in verdicts if all((k_ == "raise") == must for _, must, k_ in v[3])]
+        if not verdicts:
+            chk.unknown("O10.5", f"the loop around the rejecting site for duplicate {hint} names cannot be interpreted on a representative collection: {'; '.join(errors)[:300]}", sites[0])
+            return None
+        site, L, f, rows = (good or verdicts)[0]
+        wrong = [f"{label}: {'rejected' if k_ == 'raise' else 'accepted'} (must be {'rejected' if must else 'accepted'})" for label, must, k_ in rows if (k_ == "raise") != must]
+        chk.ob("O10.5", f"duplicate {hint} names rejected (dedupe idiom)", bool(good), site,
+               f"loop at line {L.lineno} interpreted on {len(rows)} collection(s): " + ("rejects exactly the ones with a repeated name" if good else "; ".join(wrong)), key=f"{_L}:{func.name}:dedupe:{hint}")
+        return (site, L, f) if good else None
+
+    def flat_cases():
+        a, b, c = {"name": "aa"}, {"name": "bb"}, {"name": "cc"}
+        return [("three different names", lambda: [dict(a), dict(b), dict(c)], False), ("the first name again as the third", lambda: [dict(a), dict(b), dict(a)], True),
+                ("the same name twice in a row", lambda: [dict(b), dict(b)], True), ("one element", lambda: [dict(a)], False)]
+
+    def task_cases():
+        t = lambda n_: Record(name=n_)  # noqa: E731 — distinct task objects, equal only by name
+        return [("[a], [b, c]", lambda: [[t("aa")], [t("bb"), t("cc")]], False), ("[a], [b, a] (same name in a later element)", lambda: [[t("aa")], [t("bb"), t("aa")]], True),
+                ("[a], [b, b] (same name twice inside one parallel element)", lambda: [[t("aa")], [t("bb"), t("bb")]], True), ("[a], [a]", lambda: [[t("aa")], [t("aa")]], True)]
+
+    found = dedupe(cc, ("multiple tasks with the name", "unique"), "task", task_cases(), stop=roles)
+    if found is not None:
+        # ... and it is the schedule handed to the challenge that is looked at (data flow: the collection the loop runs over is that local, directly or as the argument of the helper)
+        site, L, f = found
+        src = L.iter
+        if f is not cc and name_of(src) in params_of(f):
+            calls_f = [c for c in source.calls_in(cc) if isinstance(c.func, ast.Attribute) and isinstance(c.func.value, ast.Name) and c.func.value.id == "self" and c.func.attr == f.name]
+            src = bind_args(calls_f[0], f).get(name_of(src)) if len(calls_f) == 1 else None
+        elif f is not cc:
+            src = None
+        # the expression is evaluated with the schedule local holding three marker elements: it must yield exactly those, in order
+        probe = [Opaque("input", "element-1"), Opaque("input", "element-2"), Opaque("input", "element-3")]
+        try:
+            val = Sim().ev(src, {sched_local: list(probe)}) if src is not None and sched_local is not None else None
+        except (CannotEval, _Sig):
+            val = None
+        if not isinstance(val, (list, tuple)) or any(isinstance(x, Opaque) and x.sig[0] == "free" for x in val):
+            chk.unknown("O10.5", f"cannot relate the collection checked for duplicate task names ({short(L.iter, 40)}) to the schedule handed to Challenge(...)", L)
+        else:
+            chk.ob("O10.5", "duplicate task names are looked for in the schedule that is handed to the challenge", list(val) == probe, L,
+                   f"checked: `{short(src, 40)}`; handed to the challenge: `{sched_local}`" + ("" if list(val) == probe else f" — for a schedule of three elements only {len(val)} of them are checked / in another order"))
+    dedupe(cc, ("duplicate", "challenge"), "challenge", flat_cases(), stop=roles)
+    dedupe(method(ldr, SR, "parse_operations"), ("duplicate", "operation"), "operation", flat_cases(), stop=roles)
+    dedupe(cr, ("duplicate", "corpus"), "corpus", flat_cases(), stop=roles)
+    # default challenge rules — value table: _create_challenges is interpreted as a whole (helpers of the class entered, Challenge(...) / parse_* results uninterpreted) on a
+    # concrete track specification per row (schedules left empty: they play no part here); it either rejects or returns the challenges
+    def challenges_outcome(specs):
+        spec = {"challenges": [{"name": n_, "schedule": [], **({"default": d_} if d_ is not None else {})} for n_, d_ in specs]}
+        env = call_env(cc, {params_of(cc)[1]: spec, "self": SelfObj()})
+        kind, val, node = simulate(cc.body, env, None, full_hook(observe_all - {cc.name}))
+        if kind not in ("raise", "return"):
+            raise CannotEval(f"ends in `{kind}` at line {getattr(node, 'lineno', '?')}")
+        if kind == "return" and not (isinstance(val, (list, tuple)) and len(val) == len(specs)):
+            raise CannotEval(f"returns {str(val)[:60]} for {len(specs)} challenge(s)")
+        return kind == "raise"
+
+    def challenge_table(title, rows, site):
+        wrong = []
+        try:
+            for desc_, specs, must in rows:
+                if challenges_outcome(specs) != must:
+                    wrong.append(f"{desc_}: {'accepted' if must else 'rejected'} (documented: {'reject' if must else 'accept'})")
+        except CannotEval as e:
+            chk.unknown("O10.5", f"_create_challenges cannot be interpreted on a representative track ({title}): {e}", cc)
+            return
+        chk.ob("O10.5", title, not wrong, site, f"{len(rows)} track(s) interpreted" + ("" if not wrong else ": " + "; ".join(wrong))[:300])
+
+    two = reject_sites(closure(cc, roles), ("default challenges",))
+    challenge_table("several default challenges rejected", [
+        ("two challenges, the first one default", [("c1", True), ("c2", None)], False),
+        ("two challenges, the second one default", [("c1", False), ("c2", True)], False),
+        ("two challenges, both default", [("c1", True), ("c2", True)], True),
+        ("three challenges, the first and the last default", [("c1", True), ("c2", None), ("c3", True)], True),
+    ], two[0] if two else cc)
+    none = reject_sites(closure(cc, roles), ("no default challenge",))
+    challenge_table("no default challenge rejected (after all challenges were read)", [
+        ("a single challenge without a default flag (it is the default)", [("c1", None)], False),
+        ("two challenges, none default", [("c1", None), ("c2", False)], True),
+        ("three challenges, only the last one default", [("c1", None), ("c2", None), ("c3", True)], False),
+    ], none[0] if none else cc)
+    # mixing rules: value table. parse_task is interpreted as a whole (Task(...) through Task.__init__, helpers of the class entered) on a concrete task specification per row:
+    # it either rejects (an error helper / raise is reached) or returns the task — wherever the validation is written (behind the construction, before it, in a helper)
     n_rows = n_four = 0
+    task_model = [(TK, tinit)]
     for wi, it, wt, tp, ru in itertools.product([False, True], [False, True], [False, True], [False, True], ["none", "le", "gt"]):
         if ru != "none" and not wt and ru == "le":
             continue  # ramp-up compared with a missing warm-up: covered by the 'gt' representative
-        env = {"task": type("T", (), {})()}
-        t_ = env["task"]
-        t_.warmup_iterations = 100 if wi else None
-        t_.iterations = 100 if it else None
-        t_.warmup_time_period = 60 if wt else None
-        t_.time_period = 600 if tp else None
-        t_.ramp_up_time_period = None if ru == "none" else (30 if ru == "le" else 120)
-
-        def atom(n, e_):
-            class Sub(ast.NodeTransformer):
-                def visit_Attribute(self, a):
-                    if isinstance(a.value, ast.Name) and a.value.id == task_local and hasattr(t_, a.attr):
-                        return ast.Constant(value=getattr(t_, a.attr))
-                    return a
-
-            try:
-                return bool(ev(Sub().visit(source.clone(n)), {}))
-            except CannotEval:
-                return None
-
-        def on_stmt(s, e_, b):
-            if isinstance(s, ast.Expr) and isinstance(s.value, ast.Call) and u(s.value.func) == "self._error":
-                return Outcome("raise", s.value, [], s)
-            if is_logging_stmt(s):
-                return "skip"
-            return None
-
+        spec = {"operation": "op-1", **({"warmup-iterations": 100} if wi else {}), **({"iterations": 100} if it else {}), **({"warmup-time-period": 60} if wt else {}),
+                **({"time-period": 600} if tp else {}), **({} if ru == "none" else {"ramp-up-time-period": 30 if ru == "le" else 120})}
         try:
-            out = decide(block, atom, {}, on_stmt=on_stmt)
-        except (Unsupported, UnknownAtom) as e:
-            chk.unknown("O10.5", f"validation block of parse_task is not a decision over the five task fields: {e}", pt)
+            kind, _, node = simulate(pt.body, call_env(pt, {p_spec: spec, **({p_ops: {"op-1": op_entry}} if p_ops else {}), "self": SelfObj()}), None,
+                                     full_hook(observe_all - {pt.name}, model=task_model))
+            if kind not in ("raise", "return"):
+                raise CannotEval(f"ends in `{kind}` at line {getattr(node, 'lineno', '?')}")
+        except CannotEval as e:
+            chk.unknown("O10.5", f"parse_task cannot be interpreted on the task specification {spec}: {e}", pt)
+            n_rows = None
             break
-        rejected = out.kind == "raise"
+        rejected = kind == "raise"
         # documented rule (property text; the loader's own message: "mixing time periods and iterations is not allowed"): ANY of the two iteration-counted fields together with ANY of the two
         # time-period fields, not only the two crossed pairs (a task carrying iterations AND a time period runs time-based: the iteration count in the file is silently ignored)
         mixed = (wi or it) and (wt or tp)
@@ -790,139 +2032,264 @@ def run(chk):
             row_key = f"{_L}:TrackSpecificationReader.parse_task:mixing:[{'+'.join(fields) or 'none'}]"
             detail = f"code {'rejects' if rejected else 'accepts'}; documented: {'reject' if want else 'accept'}"
             if want and not rejected:
-                detail += (f" — the validation chain behind the Task construction has no arm for this combination: the task is loaded with both {fields[0]} and {fields[-1]}, "
+                detail += (f" — the validation of parse_task has no arm for this combination: the task is loaded with both {fields[0]} and {fields[-1]}, "
                            "the driver schedules it time-based and ignores the iteration count written in the file")
         else:
             row_key = f"{_L}:parse_task:mix:{wi}|{it}|{wt}|{tp}|{ru}"
             detail = f"code {'rejects' if rejected else 'accepts'}; documented: {'reject' if want else 'accept'}"
         chk.ob("O10.5", f"task with {desc}: {'rejected' if want else 'accepted'}", rejected == want, pt, detail, key=row_key)
-    chk.ob("O10.5", "mixing-rule table evaluated", n_rows >= 40, pt, f"{n_rows} abstract tasks")
-    chk.ob("O10.5", "four-field table (iteration fields x time-period fields, no ramp-up) evaluated on all sixteen combinations", n_four == 16, pt, f"{n_four} combination(s)")
-    # ramp-up only on the parallel element
-    # roles: the parallel's ramp-up is the local handed to parse_task(default_ramp_up_time_period=...); a sub-task is the loop variable of a loop over the sub-task list
-    def subtask_var(site):
-        """loop variable of the enclosing loop over the sub-task list (the list handed to Parallel), or None."""
-        for a in source.ancestors(site):
-            if isinstance(a, ast.For) and tasks_local is not None and name_of(a.iter) == tasks_local and name_of(a.target):
-                return a.target.id
-        return None
+    if n_rows is not None:
+        chk.ob("O10.5", "mixing-rule table evaluated", n_rows >= 40, pt, f"{n_rows} abstract tasks")
+        chk.ob("O10.5", "four-field table (iteration fields x time-period fields, no ramp-up) evaluated on all sixteen combinations", n_four == 16, pt, f"{n_four} combination(s)")
+    # rules of the parallel element — value tables as well: parse_parallel is interpreted as a whole (parse_task and Task.__init__ entered, so its sub-tasks are objects with the
+    # attributes the loader gives them) on a concrete element per row; it either rejects or returns the Parallel
+    def parallel_outcome(par):
+        kind, _, node = simulate(pp.body, call_env(pp, {pp_spec: par, **({pp_ops: {"op-1": op_entry}} if pp_ops else {}), "self": SelfObj()}), None,
+                                 full_hook(observe_all - {pt.name, pp.name}, model=task_model))
+        if kind not in ("raise", "return"):
+            raise CannotEval(f"ends in `{kind}` at line {getattr(node, 'lineno', '?')}")
+        return kind == "raise"
 
-    ru_err = [c for c in source.calls_in(pp) if u(c.func) == "self._error" and c.args and "ramp-up-time-period" in u(c.args[0])]
-    ru_local = name_of(pb.get("default_ramp_up_time_period"))
-    ok = len(ru_err) == 2 and ru_local is not None and all(subtask_var(c) is not None and pat.guarded(c, "V_t.ramp_up_time_period != V_d", binds={"t": subtask_var(c), "d": ru_local}) is not None for c in ru_err)
-    chk.ob("O10.5", "a task inside a parallel element may not set its own ramp-up", ok, ru_err[0] if ru_err else pp, "")
-    # completed-by. roles: the completing task's name is the local handed to parse_task(completed_by_name=...); the found-flag is the local set to True for a sub-task that completes its parent
-    cb_err = [c for c in source.calls_in(pp) if u(c.func) == "self._error" and c.args and "completed-by" in u(c.args[0])]
-    no_task = [c for c in cb_err if "no task with this name" in u(c.args[0])]
-    multi = [c for c in cb_err if "multiple tasks" in u(c.args[0])]
-    cb_local = name_of(pb.get("completed_by_name"))
-    found_flags = {n.targets[0].id for n in walk_body(pp) if isinstance(n, ast.Assign) and len(n.targets) == 1 and isinstance(n.targets[0], ast.Name) and source.is_const(n.value, True)
-                   and subtask_var(n) is not None and pat.guarded(n, "V_t.completes_parent", binds={"t": subtask_var(n)}) is not None}
-    found_local = next(iter(found_flags)) if len(found_flags) == 1 else None
-    ok = bool(no_task) and cb_local is not None and found_local is not None and exact_facts(no_task[0], ["V_c", "not V_f"], binds={"c": cb_local, "f": found_local}) and source.enclosing(no_task[0], ast.For) is None
-    chk.ob("O10.5", "unknown completed-by task rejected", ok, no_task[0] if no_task else pp, "")
-    ok = bool(multi) and subtask_var(multi[0]) is not None and pat.guarded(multi[0], "V_t.completes_parent", binds={"t": subtask_var(multi[0])}) is not None
-    chk.ob("O10.5", "ambiguous completed-by (several tasks with that name) rejected", ok, multi[0] if multi else pp, "")
-    # indices + data streams
+    def table(title, rows, site, key=None):
+        """rows: [(description, parallel element, must_reject)]"""
+        wrong = []
+        try:
+            for desc_, par, must in rows:
+                if parallel_outcome(par) != must:
+                    wrong.append(f"{desc_}: {'accepted' if must else 'rejected'} (documented: {'reject' if must else 'accept'})")
+        except CannotEval as e:
+            chk.unknown("O10.5", f"parse_parallel cannot be interpreted on a representative parallel element ({title}): {e}", pp)
+            return
+        chk.ob("O10.5", title, not wrong, site, f"{len(rows)} parallel element(s) interpreted" + ("" if not wrong else ": " + "; ".join(wrong))[:300], key=key)
+
+    ta, tb_ = {"operation": "op-1", "name": "t-a"}, {"operation": "op-1", "name": "t-b"}
+    wp = {"warmup-time-period": 120, "time-period": 600}
+    ru_err = reject_sites([pp], ("ramp-up-time-period",))
+    table("a task inside a parallel element may not set its own ramp-up", [
+        ("no ramp-up anywhere", {**wp, "tasks": [dict(ta), dict(tb_)]}, False),
+        ("ramp-up on the parallel element only (inherited by its tasks)", {**wp, "ramp-up-time-period": 60, "tasks": [dict(ta), dict(tb_)]}, False),
+        ("the second task sets a ramp-up, the parallel element has none", {**wp, "tasks": [dict(ta), {**tb_, "ramp-up-time-period": 60}]}, True),
+        ("the first task sets a ramp-up, the parallel element has none", {**wp, "tasks": [{**ta, "ramp-up-time-period": 60}, dict(tb_)]}, True),
+        ("a task sets another ramp-up than the parallel element", {**wp, "ramp-up-time-period": 60, "tasks": [dict(ta), {**tb_, "ramp-up-time-period": 30}]}, True),
+        ("a task repeats the ramp-up of the parallel element", {**wp, "ramp-up-time-period": 60, "tasks": [dict(ta), {**tb_, "ramp-up-time-period": 60}]}, False),
+    ], ru_err[0] if ru_err else pp)
+    no_task = reject_sites([pp], ("completed-by", "no task with this name"))
+    table("unknown completed-by task rejected", [
+        ("completed-by names the first task", {"completed-by": "t-a", "tasks": [dict(ta), dict(tb_)]}, False),
+        ("completed-by names the last task", {"completed-by": "t-b", "tasks": [dict(ta), dict(tb_)]}, False),
+        ("completed-by names no task of the element", {"completed-by": "t-x", "tasks": [dict(ta), dict(tb_)]}, True),
+        ("completed-by names the operation of a renamed task", {"completed-by": "op-1", "tasks": [dict(ta), dict(tb_)]}, True),
+        ("completed-by: any", {"completed-by": "any", "tasks": [dict(ta), dict(tb_)]}, False),
+        ("no completed-by", {"tasks": [dict(ta), dict(tb_)]}, False),
+    ], no_task[0] if no_task else pp)
+    multi = reject_sites([pp], ("completed-by", "multiple tasks"))
+    table("ambiguous completed-by (several tasks with that name) rejected", [
+        ("two tasks carry the completed-by name", {"completed-by": "t-a", "tasks": [dict(ta), dict(tb_), dict(ta)]}, True),
+        ("two tasks carry the completed-by name, next to each other", {"completed-by": "t-a", "tasks": [dict(ta), dict(ta)]}, True),
+        ("one task carries it, two others share another name", {"completed-by": "t-a", "tasks": [dict(ta), dict(tb_), dict(tb_)]}, False),
+    ], multi[0] if multi else pp)
+    # indices + data streams — value table: the reader's __call__ is interpreted as a whole (_create_corpora entered; _create_index / _create_data_stream / _create_challenges /
+    # Track(...) uninterpreted) on a concrete track specification per row. "On every path": with and without corpora
     call = method(ldr, SR, "__call__")
     both = [n for f in (call, cr) for n in walk_body(f) if isinstance(n, ast.Raise) and "cannot both be specified" in u(n.exc)]
-    # roles: in _create_corpora the two collections are its parameters; in __call__ they are the locals handed to self._create_corpora(..., indices, data_streams)
-    ccall = [c for c in source.calls_in(call) if u(c.func) == "self._create_corpora"]
-    cb_ = bind_args(ccall[0], cr) if ccall else {}
-    coll = {id(cr): ("indices", "data_streams"), id(call): (name_of(cb_.get("indices")), name_of(cb_.get("data_streams")))}
-    ok = len(both) >= 1 and all(all(coll[id(source.enclosing_func(n))]) and exact_facts(n, ["len(V_i) > 0", "len(V_d) > 0"], binds=dict(zip("id", coll[id(source.enclosing_func(n))]))) for n in both)
-    chk.ob("O10.5", "indices together with data streams rejected", ok, both[0] if both else call, "")
-    # ... and rejected for EVERY track: one rejecting site must sit on every path of the reader to the Track construction (a copy inside a helper that can return early does not count)
-    gcall = cfg_of(call)
-    tctor = [c for c in source.calls_in(call) if dotted(c.func) == "track.Track"]
-    own = [n for n in both if source.enclosing_func(n) is call]
-    own_ifs = [source.enclosing(n, ast.If) for n in own]
-    ok = bool(tctor) and any(i is not None and gcall.dominated_by_nodes(gcall.node_of(tctor[0]), [gcall.node_of(i)]) for i in own_ifs)
-    if not ok and tctor:
-        # alternatively the helper's check is its first statement and the helper is called unconditionally before the construction
-        first = [s_ for s_ in source.flat(cr.body) if not (isinstance(s_, ast.Expr) and isinstance(s_.value, ast.Constant))]
-        in_helper = [n for n in both if source.enclosing_func(n) is cr]
-        ok = bool(first) and bool(in_helper) and source.enclosing(in_helper[0], ast.If) is first[0] and bool(ccall) and gcall.dominated_by_nodes(gcall.node_of(tctor[0]), [gcall.node_of(ccall[0])])
-    chk.ob("O10.5", "the indices / data-streams exclusion is tested on every path to the Track construction", ok, own[0] if own else call,
-           "" if ok else "the only remaining test sits in a helper behind an early return: a track with both lists and no corpora is loaded", key=f"{_L}:TrackSpecificationReader.__call__:both-rejected-on-every-path")
-    # reserved / unused track params between building and returning
-    rets = [n for n in source.flat(rd.body) if isinstance(n, ast.Return)]
-    for what, meth in (("reserved", "internal_user_defined_track_params"), ("unused", "unused_user_defined_track_params")):
-        cs = [c for c in source.calls_in(rd) if last_attr(c.func) == meth]
-        ok = False
-        if cs and rets:
-            v = source.enclosing_stmt(cs[0]).targets[0].id if isinstance(source.enclosing_stmt(cs[0]), ast.Assign) else None
-            # the test that rejects when the list is non-empty, whichever arm holds the raise
-            tests = [n for n in source.flat(rd.body) if isinstance(n, ast.If) and v is not None and pat.is_(rejecting_condition(gr, n), "len(V_v) > 0", "len(V_v) != 0", "len(V_v) >= 1", "V_v", binds={"v": v})]
-            ok = bool(tests) and gr.dominated_by_nodes(gr.node_of(cs[0]), [bn]) and gr.dominated_by_nodes(gr.node_of(rets[-1]), [gr.node_of(tests[0])]) \
-                and any(isinstance(x, ast.Raise) and "TrackConfigError" in u(x.exc) for x in ast.walk(tests[0]))
-        chk.ob("O10.5", f"{what} track parameters rejected between building and returning the track", ok, cs[0] if cs else rd, "")
+    c_params = params_of(call)
+
+    def track_outcome(spec):
+        env = call_env(call, {c_params[1]: "track-1", c_params[2]: spec, "self": SelfObj()})
+        kind, _, node = simulate(call.body, env, None, full_hook((observe_all | {cc.name}) - {cr.name, call.name}, oracle={"is_archive": False}), consts=track_consts)
+        if kind not in ("raise", "return"):
+            raise CannotEval(f"ends in `{kind}` at line {getattr(node, 'lineno', '?')}")
+        return kind == "raise"
+
+    idx1, ds1 = [{"name": "index-1"}], [{"name": "stream-1"}]
+    corp_i = [{"name": "corpus-1", "documents": [{"source-file": "docs.json", "document-count": 10, "target-index": "index-1"}]}]
+    corp_d = [{"name": "corpus-1", "documents": [{"source-file": "docs.json", "document-count": 10, "target-data-stream": "stream-1"}]}]
+    rows = [("indices only, no corpora", {"indices": idx1}, False), ("data streams only, no corpora", {"data-streams": ds1}, False), ("neither", {}, False),
+            ("indices and data streams, no corpora", {"indices": idx1, "data-streams": ds1}, True),
+            ("indices with a corpus", {"indices": idx1, "corpora": corp_i}, False), ("data streams with a corpus", {"data-streams": ds1, "corpora": corp_d}, False),
+            ("indices and data streams with a corpus targeting the index", {"indices": idx1, "data-streams": ds1, "corpora": corp_i}, True),
+            ("indices and data streams with a corpus targeting the data stream", {"indices": idx1, "data-streams": ds1, "corpora": corp_d}, True)]
+    try:
+        res = [(d_, must, track_outcome(spec_)) for d_, spec_, must in rows]
+        wrong = [f"{d_}: {'rejected' if r_ else 'accepted'}" for d_, must, r_ in res if r_ != must and "no corpora" not in d_ and d_ != "neither"]
+        chk.ob("O10.5", "indices together with data streams rejected", not wrong, both[0] if both else call, f"{len(rows)} track(s) interpreted" + ("" if not wrong else ": " + "; ".join(wrong))[:300])
+        wrong = [f"{d_}: {'rejected' if r_ else 'accepted'}" for d_, must, r_ in res if r_ != must and ("no corpora" in d_ or d_ == "neither")]
+        chk.ob("O10.5", "the indices / data-streams exclusion is tested on every path to the Track construction", not wrong, both[0] if both else call,
+               "" if not wrong else "; ".join(wrong) + " — the only remaining test sits behind the corpora: a track with both lists and no corpora is loaded",
+               key=f"{_L}:TrackSpecificationReader.__call__:both-rejected-on-every-path")
+    except CannotEval as e:
+        chk.unknown("O10.5", f"TrackSpecificationReader.__call__ cannot be interpreted on a representative track: {e}", call)
+    # reserved / unused track params between building and returning: the same interpreted runs of TrackFileReader.read — the accounting object answers with a non-empty list
+    for what, r_ in (("reserved", "reserved parameter"), ("unused", "unused parameter")):
+        if read_runs is None:
+            chk.unknown("O10.5", f"{what} track parameters: TrackFileReader.read could not be interpreted (see O10.4)", rd)
+            continue
+        k_, v_, n_, log_, built_ = read_runs[r_][1]
+        k0, v0, _, _, built0 = read_runs["valid"][1]
+        ok = k_ == "raise" and v_ == "TrackConfigError" and "build" in [x[0] for x in log_] and k0 == "return" and v0 is built0
+        chk.ob("O10.5", f"{what} track parameters rejected between building and returning the track", ok, n_ if n_ is not None else rd,
+               f"with a {what} parameter read ends in {k_} {v_ if k_ != 'return' else ''} after {[x[0] for x in log_]}; without: {k0}" + ("" if k0 != "return" or v0 is built0 else " of something else than the built track"))
+    # the accounting object, decided on values: built by its own constructor for the user parameters {used, unused, now}, told that the track defines {used, other};
+    # unused must be {unused, now} minus nothing else, reserved must be {now} (`now` is one of Rally's internal globals). The module function that lists the internal
+    # variables is interpreted too (called without arguments, as the accounting does).
     CT = ldr.cls("CompleteTrackParams")
+    ct_methods = ldr.methods(CT)
     un = method(ldr, CT, "unused_user_defined_track_params")
-    ok = any(isinstance(c, ast.Call) and last_attr(c.func) == "difference_update" and len(c.args) == 1 and u(c.args[0]) == "self.track_defined_params" for c in walk_body(un))
-    chk.ob("O10.5", "unused == user-specified minus track-defined parameters", ok, un, "")
     iu = method(ldr, CT, "internal_user_defined_track_params")
-    ok = any(isinstance(n, ast.BinOp) and isinstance(n.op, ast.BitAnd) for n in walk_body(iu)) and any("default_internal_template_vars()['globals']" in u(n) for n in walk_body(iu))
-    chk.ob("O10.5", "reserved == user-specified intersected with Rally's internal globals", ok, iu, "")
-    # the reserved names are a FIXED set: the function that lists Rally's internal globals returns them whatever its arguments are (it is called without arguments when the
-    # reserved / unused parameters are computed and with the real values when the track is rendered)
+    pop_m = method(ldr, CT, "populate_track_defined_params")
     div = ldr.func("default_internal_template_vars")
-    drets = [n for n in walk_body(div) if isinstance(n, ast.Return)]
-    gkeys, cond_keys = set(), []
-    if len(drets) == 1:
-        rv_ = drets[0].value
-        rv_ = local_defs(div).get(rv_.id, rv_) if isinstance(rv_, ast.Name) else rv_
-        if isinstance(rv_, ast.Dict):
-            gd = next((v_ for k_, v_ in zip(rv_.keys, rv_.values) if source.is_const(k_, "globals")), None)
-            if isinstance(gd, ast.Dict):
-                gkeys = {k_.value for k_ in gd.keys if isinstance(k_, ast.Constant)}
-    for n in walk_body(div):
-        if isinstance(n, ast.Assign) and isinstance(n.targets[0], ast.Subscript) and "globals" in u(n.targets[0]) and pat.fact_nodes(n):
-            cond_keys.append(n)
+    mod_funcs = {f_.name: f_ for f_ in ldr.tree.body if isinstance(f_, (ast.FunctionDef, ast.AsyncFunctionDef))}
+
+    def accounting_hook(e, env_, sim):
+        f = e.func
+        if isinstance(f, ast.Attribute) and isinstance(f.value, ast.Name) and f.value.id == "self" and f.attr in ct_methods and isinstance(env_.get("self"), SelfObj):
+            return sim.invoke(ct_methods[f.attr], e, env_, extra={"self": env_["self"]})
+        if isinstance(f, ast.Name) and f.id in mod_funcs and f.id not in env_:
+            return sim.invoke(mod_funcs[f.id], e, env_)
+        return NotImplemented
+
+    def ct_call(obj, m, **kw):
+        kind, val, node = simulate(m.body, call_env(m, {params_of(m)[0]: obj, **kw}), None, accounting_hook)
+        if kind not in ("return", "fallthrough"):
+            raise CannotEval(f"{m.name} ends in `{kind}` at line {getattr(node, 'lineno', '?')}")
+        return val
+
+    try:
+        acct = SelfObj()
+        ct_init = method(ldr, CT, "__init__")
+        ct_call(acct, ct_init, **{params_of(ct_init)[1]: {"used": 1, "unused": 2, "now": 3}})
+        ct_call(acct, pop_m, **{params_of(pop_m)[1]: ["used", "other"]})
+        ct_call(acct, pop_m, **{params_of(pop_m)[1]: ["other-2"]})
+        got_un, got_iu = ct_call(acct, un), ct_call(acct, iu)
+        for title, got_, want_, m_ in (("unused == user-specified minus track-defined parameters", got_un, {"unused", "now"}, un),
+                                      ("reserved == user-specified intersected with Rally's internal globals", got_iu, {"now"}, iu)):
+            if not isinstance(got_, (list, tuple, set, frozenset)):
+                chk.unknown("O10.5", f"{m_.name} does not yield a collection of names on representative parameters: {str(got_)[:60]}", m_)
+            else:
+                chk.ob("O10.5", title, set(got_) == want_ and len(list(got_)) == len(want_), m_, f"user parameters used / unused / now, track defines used / other: {sorted(got_)}")
+    except CannotEval as e:
+        chk.unknown("O10.5", f"the parameter accounting of CompleteTrackParams cannot be interpreted on representative parameters: {e}", CT)
+    # the reserved names are a FIXED set: the function that lists Rally's internal globals returns them whatever its arguments are (it is called without arguments when the
+    # reserved / unused parameters are computed and with the real values when the track is rendered) — interpreted for both kinds of call
     want_g = {"build_flavor", "serverless_operator", "now", "glob"}
-    ok = want_g <= gkeys and not cond_keys
-    chk.ob("O10.5", "Rally's internal globals (the reserved names) are listed unconditionally", ok, cond_keys[0] if cond_keys else div,
-           f"unconditional: {sorted(gkeys)}" + ("" if ok else f"; missing or only conditionally present: {sorted(want_g - gkeys)} — a user parameter of that name is neither rejected as reserved nor as unused"),
-           key=f"{_L}:default_internal_template_vars:reserved-names-fixed")
+    try:
+        key_sets = []
+        for label, kw in (("no arguments", {}), ("the values of a race", {p_: v_ for p_, v_ in zip(params_of(div), (Opaque("input", "glob helper"), Opaque("input", "clock"), "default", True))})):
+            kind, val, node = simulate(div.body, call_env(div, kw), None, None)
+            if kind != "return" or not isinstance(val, dict) or not isinstance(val.get("globals"), dict):
+                raise CannotEval(f"called with {label} it does not return a mapping with a 'globals' mapping ({kind}: {str(val)[:60]})")
+            key_sets.append((label, set(val["globals"])))
+        missing = {label: sorted(want_g - ks) for label, ks in key_sets if not want_g <= ks}
+        ok = not missing
+        chk.ob("O10.5", "Rally's internal globals (the reserved names) are listed unconditionally", ok, div,
+               f"globals listed: {sorted(key_sets[0][1])}" + ("" if ok else f"; missing when called with {missing} — a user parameter of that name is neither rejected as reserved nor as unused"),
+               key=f"{_L}:default_internal_template_vars:reserved-names-fixed")
+    except CannotEval as e:
+        chk.unknown("O10.5", f"default_internal_template_vars cannot be interpreted: {e}", div)
     from rules.C05 import throughput_pattern_rule
 
     throughput_pattern_rule(chk, "O10.2", trk)
     # operation missing / unknown source format
-    chk.ob("O10.5", "task without operation rejected", any(isinstance(n, ast.Raise) and exact_facts(n, [f"'operation' not in {params_of(pt)[1]}"]) for n in walk_body(pt)), pt, "")
+    try:
+        kind, _, node = simulate(pt.body, call_env(pt, {p_spec: {"name": "t-a", "clients": 2}, **({p_ops: {"op-1": op_entry}} if p_ops else {}), "self": SelfObj()}), None,
+                                 full_hook(observe_all - {pt.name}, model=task_model))
+        chk.ob("O10.5", "task without operation rejected", kind == "raise", node if node is not None else pt, f"a task specification without 'operation': parse_task ends in `{kind}`")
+    except CannotEval as e:
+        chk.unknown("O10.5", f"parse_task cannot be interpreted on a task specification without an operation: {e}", pt)
 
     # ---- O10.6 parameter accounting ----------------------------------------------------------------------------------------------------------------------------------
     chk.rule("O10.6", "every template that is rendered has its undeclared variables registered with the accounting object before rendering (track file and every included index / template body); "
              "nested includes resolve relative to the including file; the parts Jinja itself pulls in at render time ({% include %}, any spelling of the collect helper call) are seen by the "
              "accounting too", 5,
              "a track parameter used only in an included body is reported as unused (valid track rejected) / parts vanish from the assembled track")
+    ra = ldr.func("register_all_params_in_track")
+    rt0 = ldr.func("render_template")
+    ra_params = params_of(ra)
+    if len(ra_params) < 2:
+        raise AnchorMissing("register_all_params_in_track(<assembled source>, <accounting object>)")
+
+    def registrations(f, src_text):
+        """call sites in f that register the variables of the source `src_text` with an accounting object: a direct call of the registering function, or a call of a function of
+        the module / a method of the same class that does so with the parameter this argument is bound to (an extracted helper)."""
+        out = []
+        cls_ = source.enclosing_class(f)
+        for c in source.calls_in(f):
+            if last_attr(c.func) == ra.name:
+                b = bind_args(c, ra, skip_self=False)
+                acc = b.get(ra_params[1])
+                if b.get(ra_params[0]) is not None and u(b[ra_params[0]]) == src_text and acc is not None and not source.is_const(acc, None) and not (isinstance(acc, ast.Constant) and acc.value is None):
+                    out.append(c)
+                continue
+            h = None
+            if isinstance(c.func, ast.Name):
+                h = mod_funcs.get(c.func.id)
+            elif isinstance(c.func, ast.Attribute) and isinstance(c.func.value, ast.Name) and c.func.value.id == "self" and cls_ is not None:
+                h = ldr.methods(cls_).get(c.func.attr)
+            if h is None or h is f or h is ra:
+                continue
+            hb = bind_args(c, h)
+            for p_, a_ in hb.items():
+                if u(a_) == src_text and registrations(h, p_) and cfg_of(h).dominated_by_nodes(cfg_of(h).exit, [cfg_of(h).node_of(x) for x in registrations(h, p_)]):
+                    out.append(c)
+        return out
+
     for f in ldr.functions():
         rcalls = [c for c in source.calls_in(f) if last_attr(c.func) == "render_template" and f.name != "render_template"]
         for rc in rcalls:
             g = cfg_of(f)
-            regs = [c for c in source.calls_in(f) if last_attr(c.func) == "register_all_params_in_track"]
-            src = arg_of(rc, 0, "template_source")
-            ok = bool(regs) and g.dominated_by_nodes(g.node_of(rc), [g.node_of(x) for x in regs]) and src is not None and any(u(arg_of(x, 0, "assembled_source")) == u(src) for x in regs) \
-                and all(arg_of(x, 1, "complete_track_params") is not None and "complete_track_params" in u(arg_of(x, 1, "complete_track_params")) for x in regs)
-            chk.ob("O10.6", f"{source.qualname(f)}: variables registered before rendering the same source", ok, rc, "")
-    ra = ldr.func("register_all_params_in_track")
-    ok = any(isinstance(c, ast.Call) and last_attr(c.func) == "find_undeclared_variables" for c in walk_body(ra)) and any(isinstance(c, ast.Call) and last_attr(c.func) == "populate_track_defined_params" for c in walk_body(ra))
-    chk.ob("O10.6", "registration collects the undeclared variables of the assembled source", ok, ra, "")
-    pop = method(ldr, CT, "populate_track_defined_params")
-    ok = any(isinstance(c, ast.Call) and u(c.func) == "self.track_defined_params.update" for c in walk_body(pop))
-    chk.ob("O10.6", "registrations accumulate (update, not replace)", ok, pop, "")
+            src = bind_args(rc, rt0, skip_self=False).get(params_of(rt0)[0])
+            if src is None:
+                chk.unknown("O10.6", f"{source.qualname(f)}: the template source handed to render_template(...) was not located", rc)
+                continue
+            regs = registrations(f, u(src))
+            ok = bool(regs) and g.dominated_by_nodes(g.node_of(rc), [g.node_of(x) for x in regs])
+            chk.ob("O10.6", f"{source.qualname(f)}: variables registered before rendering the same source", ok, rc,
+                   "" if ok else f"{len(regs)} registration(s) of `{short(src, 40)}` with an accounting object in {f.name} (or a helper it calls); none on every path to the rendering")
+    # registration, decided on values: the registering function is interpreted with Jinja's answers fixed (find_undeclared_variables -> {p1, p2}); the accounting object must be
+    # told exactly that set, found in what was parsed from the assembled source
+    told, parsed = [], []
+
+    def ra_hook(e, env_, sim):
+        la = last_attr(e.func)
+        if la == "find_undeclared_variables":
+            parsed.extend(sim.ev(a, env_) for a in e.args)
+            return {"p1", "p2"}
+        if la == pop_m.name:
+            told.extend(sim.ev(a, env_) for a in e.args)
+            return None
+        return accounting_hook(e, env_, sim)
+
+    try:
+        src_mark = "assembled-source-marker"
+        kind, _, node = simulate(ra.body, call_env(ra, {ra_params[0]: src_mark, ra_params[1]: SelfObj()}), None, ra_hook)
+        if kind not in ("fallthrough", "return"):
+            raise CannotEval(f"ends in `{kind}` at line {getattr(node, 'lineno', '?')}")
+        ok = len(told) == 1 and isinstance(told[0], (set, frozenset, list, tuple)) and set(told[0]) == {"p1", "p2"} and len(parsed) == 1 and mentions(parsed[0], [src_mark])
+        chk.ob("O10.6", "registration collects the undeclared variables of the assembled source", ok, ra,
+               f"accounting told {told!r}; undeclared variables looked for in {parsed!r}"[:200])
+    except CannotEval as e:
+        chk.unknown("O10.6", f"register_all_params_in_track cannot be interpreted: {e}", ra)
+    pop = pop_m
+    try:
+        seen_all = any(isinstance(v_, (set, frozenset, list, tuple)) and {"used", "other", "other-2"} <= set(v_) for v_ in acct.fields.values())
+        chk.ob("O10.6", "registrations accumulate (update, not replace)", seen_all, pop, f"after registering [used, other] and then [other-2] the accounting object holds "
+               f"{ {k_: sorted(v_) for k_, v_ in acct.fields.items() if isinstance(v_, (set, frozenset, list, tuple))} }")
+    except NameError:
+        chk.unknown("O10.6", "the accounting object could not be interpreted (see O10.5)", pop)
     TS = ldr.cls("TemplateSource")
     ri = method(ldr, TS, "replace_includes")
-    rec = [c for c in source.calls_in(ri) if u(c.func) == "self.replace_includes"]
-    ok = False
-    detail = "no recursive call"
-    if rec:
-        b = bind_args(rec[0], ri)
-        bp = b.get("base_path")
+    rec = [c for c in source.calls_in(ri) if isinstance(c.func, ast.Attribute) and isinstance(c.func.value, ast.Name) and c.func.value.id == "self" and c.func.attr == ri.name]
+    # role: the base path is the parameter of replace_includes that is joined (os.path.join) with a matched pattern
+    joins = [(c, c.args[0].id) for c in source.calls_in(ri) if dotted(c.func) == "os.path.join" and c.args and name_of(c.args[0]) in params_of(ri)]
+    if not rec or not joins:
+        chk.unknown("O10.6", f"replace_includes: the recursive call for nested includes / the os.path.join of its base-path parameter were not located ({len(rec)} / {len(joins)})", ri)
+    else:
+        base_param = joins[0][1]
+        bp = bind_args(rec[0], ri).get(base_param)
         # role: the included file's path is the single-assignment local handed to dirname(...); it must be the including base path joined with the matched pattern
         inc_local = name_of(bp.args[0]) if isinstance(bp, ast.Call) and len(bp.args) == 1 else None
-        ok = bp is not None and isinstance(bp, ast.Call) and last_attr(bp.func) == "dirname" and inc_local is not None and pat.is_(local_defs(ri).get(inc_local), "os.path.join(base_path, E_pattern)")
-        detail = f"base_path={u(bp) if bp is not None else None}"
-    chk.ob("O10.6", "nested includes resolve relative to the included file's directory", ok, rec[0] if rec else ri, detail)
+        ok = bp is not None and isinstance(bp, ast.Call) and last_attr(bp.func) == "dirname" and inc_local is not None and pat.is_(local_defs(ri).get(inc_local), f"os.path.join({base_param}, E_pattern)")
+        chk.ob("O10.6", "nested includes resolve relative to the included file's directory", ok, rec[0], f"base_path={u(bp) if bp is not None else None}")
     # included text is inserted verbatim: a non-constant replacement handed to re.sub must be a function (a string is a TEMPLATE: backslashes and group references in the
     # included JSON would be re-interpreted)
     n_sub = 0
@@ -936,13 +2303,22 @@ def run(chk):
             if repl is None:
                 continue
             n_sub += 1
-            fn_ok = isinstance(repl, ast.Lambda) or (isinstance(repl, ast.Name) and repl.id in fdefs_) or (isinstance(repl, ast.Attribute) and isinstance(repl.value, ast.Name) and repl.value.id == "self")
+            rdef = local_defs(f_).get(repl.id) if isinstance(repl, ast.Name) else None
+            fn_ok = isinstance(repl, ast.Lambda) or (isinstance(repl, ast.Name) and (repl.id in fdefs_ or isinstance(rdef, ast.Lambda))) \
+                or (isinstance(repl, ast.Attribute) and isinstance(repl.value, ast.Name) and repl.value.id == "self")
             const_ok = isinstance(repl, ast.Constant) and isinstance(repl.value, str) and "\\" not in repl.value
             esc_ok = isinstance(repl, ast.Call) and last_attr(repl.func) == "replace" and "\\" in u(repl)
+            if not (fn_ok or const_ok or esc_ok) and not isinstance(repl, (ast.Name, ast.Subscript, ast.JoinedStr, ast.BinOp, ast.Constant)) \
+                    and not (isinstance(repl, ast.Call) and last_attr(repl.func) in ("join", "format", "read", "read_glob_files", "replace_includes")):
+                chk.unknown("O10.6", f"TemplateSource.{f_.name}: cannot tell whether the replacement `{short(repl, 50)}` handed to re.sub is a function or a text", c)
+                continue
             chk.ob("O10.6", f"TemplateSource.{f_.name}: substituted text is inserted verbatim (function replacement)", fn_ok or const_ok or esc_ok, c,
                    short(c, 80) + ("" if (fn_ok or const_ok or esc_ok) else " — the replacement is a string built from file contents: re.sub treats it as a template, so `\\t`, `\\n`, `\\\\` and `\\1` in the included part change"),
                    key=f"{_L}:TemplateSource.{f_.name}:sub-verbatim")
-    chk.ob("O10.6", "include substitution located", n_sub >= 1, ri, f"{n_sub} re.sub site(s) in TemplateSource")
+    if n_sub >= 1:
+        chk.ob("O10.6", "include substitution located", True, ri, f"{n_sub} re.sub site(s) in TemplateSource")
+    else:
+        chk.unknown("O10.6", "no re.sub / pattern.sub call located in TemplateSource: how the included parts are inserted is not recognised", ri)
     # parts reach the rendered track in two ways: textually (the pattern replace_includes substitutes) or through Jinja itself at render time ({% include %}, also the fall-back
     # inside the collect macro). Track parameters used in a part are substituted in both cases (globals are visible in includes), so the accounting that decides "unused
     # track parameter" has to see those parts as well.
@@ -997,31 +2373,57 @@ def run(chk):
            "over Include nodes, and the inlining pattern does not recognise the tag): a parameter used only in a part included with {% include %} is reported as unused and the valid track is rejected",
            key=f"{_L}:register_all_params_in_track:jinja-includes-followed")
     lf = method(ldr, TS, "load_template_from_file")
-    ok = any(isinstance(c, ast.Call) and u(c.func) == "self.replace_includes" and u(bind_args(c, ri).get("base_path")) == "self.base_path" for c in walk_body(lf))
-    chk.ob("O10.6", "top-level includes resolve relative to the track's directory", ok, lf, "")
+    top = [c for c in walk_body(lf) if isinstance(c, ast.Call) and isinstance(c.func, ast.Attribute) and isinstance(c.func.value, ast.Name) and c.func.value.id == "self" and c.func.attr == ri.name]
+    # role: the track's directory is the attribute the file loader of the same method is rooted in (FileSystemLoader(self.<attr>)), i.e. where the track file itself is read from
+    roots = {u(c.args[0]) for c in walk_body(lf) if isinstance(c, ast.Call) and last_attr(c.func) == "FileSystemLoader" and c.args}
+    if not top or not joins or len(roots) != 1:
+        chk.unknown("O10.6", f"load_template_from_file: the call of replace_includes / the directory the track file is loaded from were not located ({len(top)} call(s), roots {sorted(roots)})", lf)
+    else:
+        ok = all(u(bind_args(c, ri).get(joins[0][1])) in roots for c in top)
+        chk.ob("O10.6", "top-level includes resolve relative to the track's directory", ok, top[0], f"includes resolved against {[u(bind_args(c, ri).get(joins[0][1])) for c in top]}; the track file is loaded from {sorted(roots)}")
     # built-in macros (embedded Jinja source): parsed with jinja2's own parser, never rendered
     rt0 = ldr.func("render_template")
-    # role: the macro sources are the list joined into the 'rally.helpers' entry of the DictLoader (through one local)
-    helper_srcs = [b_.get("m") for _, b_ in pat.find(rt0, "{'rally.helpers': ''.join(V_m)}")]
-    macro_lists = [n.value for n in walk_body(rt0) if isinstance(n, ast.Assign) and len(n.targets) == 1 and name_of(n.targets[0]) in helper_srcs and isinstance(n.value, ast.List)]
-    macro_lists += [d_.values[0].args[0] for d_ in walk_body(rt0) if isinstance(d_, ast.Dict) and len(d_.keys) == 1 and source.is_const(d_.keys[0], "rally.helpers") and pat.is_(d_.values[0], "''.join(E_l)") and isinstance(d_.values[0].args[0], ast.List)]
-    macro_texts = [e.value for l_ in macro_lists for e in l_.elts if isinstance(e, ast.Constant) and isinstance(e.value, str)]
-    try:
-        import jinja2
-        import jinja2.nodes as jn
 
-        n_def = 0
-        for mt_ in macro_texts:
-            tree = jinja2.Environment().parse(mt_)
-            for f_ in tree.find_all(jn.Filter):
-                if f_.name == "default":
-                    n_def += 1
-                    boolean = (len(f_.args) >= 2 and not (isinstance(f_.args[1], jn.Const) and f_.args[1].value is False)) or any(k.key == "boolean" and not (isinstance(k.value, jn.Const) and k.value.value is False) for k in f_.kwargs)
-                    chk.ob("O10.6", "built-in macro: `default` filter replaces only UNDEFINED values (not boolean mode)", not boolean, rt0,
-                           "" if not boolean else "default(x, true) also replaces defined falsy values: a user-supplied 0 / false / '' is silently overridden by the track's default")
-        chk.ob("O10.6", "built-in macros parsed", len(macro_texts) >= 2 and n_def >= 1, rt0, f"{len(macro_texts)} macro source(s), {n_def} default filter(s)")
-    except ImportError:
-        chk.adv("O10.6", "jinja2 is not importable in this interpreter: the embedded macro sources were not parsed", rt0)
+    # role: the helpers' source is the VALUE stored under 'rally.helpers' in a dict of templates built in render_template (a DictLoader's mapping); it is evaluated, so a list /
+    # tuple joined in place, a local, a named constant or a concatenation are all the same text
+    helper_dicts = [d_ for d_ in walk_body(rt0) if isinstance(d_, ast.Dict) and any(k_ is not None and source.is_const(k_, "rally.helpers") for k_ in d_.keys)]
+    if not helper_dicts:
+        raise AnchorMissing("a dict with the key 'rally.helpers' (the mapping of the helpers' DictLoader) in render_template")
+    helper_src = next(v_ for k_, v_ in zip(helper_dicts[0].keys, helper_dicts[0].values) if k_ is not None and source.is_const(k_, "rally.helpers"))
+    hst = source.enclosing_stmt(helper_dicts[0])
+    keep_h = set()
+    pre_h = statements_before(hst, rt0)
+    slice_before(pre_h, _loads(helper_src), keep_h)
+    macro_text = None
+    try:
+        kind, macro_text, _ = simulate(pre_h, module_env_of(ldr, _loads(helper_src) | {n_ for s_ in pre_h if id(s_) in keep_h for n_ in _loads(s_)}), keep_h, then=helper_src)
+        if kind != "fallthrough" or not isinstance(macro_text, str):
+            chk.unknown("O10.6", f"the source of the 'rally.helpers' template does not evaluate to a text ({kind}: {str(macro_text)[:60]})", helper_dicts[0])
+            macro_text = None
+    except CannotEval as e:
+        chk.unknown("O10.6", f"the source of the 'rally.helpers' template cannot be evaluated: {e}", helper_dicts[0])
+    if macro_text is not None:
+        try:
+            import jinja2
+            import jinja2.nodes as jn
+
+            try:
+                tree = jinja2.Environment().parse(macro_text)
+            except jinja2.TemplateSyntaxError as e:
+                tree = None
+                chk.ob("O10.6", "built-in macros parsed", False, rt0, f"the 'rally.helpers' template does not parse: {e}")
+            if tree is not None:
+                n_def = 0
+                for f_ in tree.find_all(jn.Filter):
+                    if f_.name == "default":
+                        n_def += 1
+                        boolean = (len(f_.args) >= 2 and not (isinstance(f_.args[1], jn.Const) and f_.args[1].value is False)) or any(k.key == "boolean" and not (isinstance(k.value, jn.Const) and k.value.value is False) for k in f_.kwargs)
+                        chk.ob("O10.6", "built-in macro: `default` filter replaces only UNDEFINED values (not boolean mode)", not boolean, rt0,
+                               "" if not boolean else "default(x, true) also replaces defined falsy values: a user-supplied 0 / false / '' is silently overridden by the track's default")
+                n_macros = len(list(tree.find_all(jn.Macro)))
+                chk.ob("O10.6", "built-in macros parsed", n_macros >= 2 and n_def >= 1, rt0, f"{n_macros} macro(s), {n_def} default filter(s)")
+        except ImportError:
+            chk.adv("O10.6", "jinja2 is not importable in this interpreter: the embedded macro sources were not parsed", rt0)
 
     # user variables never override internal ones: internal applied after user vars
     rt = ldr.func("render_template")
@@ -1031,10 +2433,61 @@ def run(chk):
     if len(envs) != 1:
         raise AnchorMissing(f"one local assigned from jinja2.Environment(...) in render_template (found {sorted(envs)})")
     env_local = envs.pop()
-    uv = [n for n in walk_body(rt) if isinstance(n, ast.Assign) and len(n.targets) == 1 and pat.is_(n.targets[0], "V_env.globals[E_k]", binds={"env": env_local})]
-    iv = [n for n in walk_body(rt) if isinstance(n, ast.Assign) and len(n.targets) == 1 and pat.is_(n.targets[0], "getattr(V_env, E_kind)[E_k]", binds={"env": env_local})]
-    ok = bool(uv) and bool(iv) and not g.path_exists(g.node_of(iv[0]), g.node_of(uv[0]))
-    chk.ob("O10.6", "internal template variables are applied after (and so win over) user variables", ok, iv[0] if iv else rt, "")
+    # roles: a write is a statement that stores into a namespace of that environment (`env.<ns>[k] = v`, `getattr(env, <ns>)[k] = v`, `<the same>.update(...)`); whose variables it
+    # writes is decided by data flow — the parameter the stored data comes from (through loop variables and locals). The internal-variables parameter is the one that some caller
+    # fills from default_internal_template_vars(...) or from a literal {"globals": ..} / {"filters": ..} mapping; the user-variables parameter is the other one that is written.
+    rt_params = params_of(rt)
+    rt_defs = local_defs(rt)
+
+    def origin_params(stmt, exprs):
+        names, seen = set(), set()
+        todo = set().union(*[_loads(x) for x in exprs])
+        loops = [a for a in source.ancestors(stmt) if isinstance(a, ast.For)]
+        while todo:
+            nm_ = todo.pop()
+            if nm_ in seen:
+                continue
+            seen.add(nm_)
+            if nm_ in rt_params:
+                names.add(nm_)
+            for a in loops:
+                if any(isinstance(x, ast.Name) and x.id == nm_ for x in ast.walk(a.target)):
+                    todo |= _loads(a.iter)
+            if nm_ in rt_defs:
+                todo |= _loads(rt_defs[nm_])
+        return names
+
+    writes = []
+    for n in walk_body(rt):
+        if isinstance(n, ast.Assign) and len(n.targets) == 1 and isinstance(n.targets[0], ast.Subscript):
+            tgt, data = n.targets[0].value, [n.targets[0].slice, n.value]
+        elif isinstance(n, ast.Expr) and isinstance(n.value, ast.Call) and isinstance(n.value.func, ast.Attribute) and n.value.func.attr == "update":
+            tgt, data = n.value.func.value, list(n.value.args) + [k.value for k in n.value.keywords]
+        else:
+            continue
+        if isinstance(tgt, ast.Attribute) and name_of(tgt.value) == env_local:
+            writes.append((n, origin_params(n, data)))
+        elif pat.is_(tgt, "getattr(V_env, E_kind)", binds={"env": env_local}):
+            writes.append((n, origin_params(n, data + [tgt.args[1]])))
+    internal_params = set()
+    for c in source.calls_in(ldr.tree, attr="render_template", local=False):  # the callers live in the loader module
+        if source.enclosing_func(c) is rt:
+            continue
+        fdefs = local_defs(source.enclosing_func(c)) if source.enclosing_func(c) is not None else {}
+        for p_, a_ in bind_args(c, rt, skip_self=False).items():
+            a_ = source.inline_node(a_, fdefs)
+            if any((isinstance(x, ast.Call) and last_attr(x.func) == "default_internal_template_vars") or
+                   (isinstance(x, ast.Dict) and any(k_ is not None and (source.is_const(k_, "globals") or source.is_const(k_, "filters")) for k_ in x.keys)) for x in ast.walk(a_)):
+                internal_params.add(p_)
+    iv = [n for n, o in writes if o & internal_params]
+    uv = [n for n, o in writes if o and not (o & internal_params)]
+    if len(internal_params) != 1 or not iv or not uv:
+        chk.unknown("O10.6", f"the statements of render_template that store the user's and Rally's internal variables in the Jinja environment were not both located "
+                    f"(internal-variables parameter: {sorted(internal_params)}; {len(iv)} internal / {len(uv)} user write(s) of {len(writes)})", rt)
+    else:
+        late = [(short(a, 40), short(b, 40)) for a in iv for b in uv if g.path_exists(g.node_of(a), g.node_of(b))]
+        chk.ob("O10.6", "internal template variables are applied after (and so win over) user variables", not late, iv[0],
+               "" if not late else f"after `{late[0][0]}` the user's variables are still written by `{late[0][1]}`: a track parameter named like an internal variable overrides it")
 
 
 from sa.selftest import V  # noqa: E402
@@ -1114,4 +2567,193 @@ VARIANTS = [
     V("keyword reorder in Task(...)", "keep", _L, "            name=task_name,\n            operation=op,", "            operation=op,\n            name=task_name,"),
     V("mixing rule operands swapped", "keep", _L, "        if task.warmup_iterations is not None and task.time_period is not None:", "        if task.time_period is not None and task.warmup_iterations is not None:"),
     V("De Morgan in the ramp-up rule", "keep", _L, "        if (task.warmup_iterations is not None or task.iterations is not None) and task.ramp_up_time_period is not None:", "        if not (task.warmup_iterations is None and task.iterations is None) and task.ramp_up_time_period is not None:"),
+    # ---- hardening round 2: refactored shapes that the value-decided rules accept (keep) and the same shapes with the defect inside (break) ----
+    V("schedule built by a comprehension", "keep", _L,
+      "            schedule = []\n\n            for op in self._r(challenge_spec, \"schedule\", error_ctx=name):\n                if \"parallel\" in op:\n                    task = self.parse_parallel(op[\"parallel\"], ops, name)\n"
+      "                else:\n                    task = self.parse_task(op, ops, name)\n                schedule.append(task)\n",
+      "            schedule = [\n                self.parse_parallel(op[\"parallel\"], ops, name) if \"parallel\" in op else self.parse_task(op, ops, name)\n"
+      "                for op in self._r(challenge_spec, \"schedule\", error_ctx=name)\n            ]\n"),
+    V("schedule elements prepended instead of appended", "break", _L, "                schedule.append(task)\n", "                schedule.insert(0, task)\n", "O10.2"),
+    V("parallel elements parsed from the whole schedule element", "break", _L, "task = self.parse_parallel(op[\"parallel\"], ops, name)", "task = self.parse_parallel(op, ops, name)", "O10.2"),
+    [V("schedule parsing extracted into a helper that drops the last element", "break", _L,
+       "            for op in self._r(challenge_spec, \"schedule\", error_ctx=name):\n                if \"parallel\" in op:\n                    task = self.parse_parallel(op[\"parallel\"], ops, name)\n"
+       "                else:\n                    task = self.parse_task(op, ops, name)\n                schedule.append(task)\n",
+       "            schedule = self._parse_schedule(self._r(challenge_spec, \"schedule\", error_ctx=name), ops, name)\n", "O10.2"),
+     V("", "break", _L, "    def _get_challenge_specs(self, track_spec):\n",
+       "    def _parse_schedule(self, schedule_spec, ops, challenge_name):\n        schedule = []\n        for op in schedule_spec[:-1]:\n            if \"parallel\" in op:\n"
+       "                task = self.parse_parallel(op[\"parallel\"], ops, challenge_name)\n            else:\n                task = self.parse_task(op, ops, challenge_name)\n"
+       "            schedule.append(task)\n        return schedule\n\n    def _get_challenge_specs(self, track_spec):\n")],
+    [V("task-name check extracted into a helper that is handed another list", "break", _L,
+       "            known_task_names = set()\n            for task in schedule:\n                for sub_task in task:\n                    if sub_task.name in known_task_names:\n"
+       "                        self._error(\n                            \"Challenge '%s' contains multiple tasks with the name '%s'. Please use the task's name property to \"\n"
+       "                            \"assign a unique name for each task.\" % (name, sub_task.name)\n                        )\n                    else:\n"
+       "                        known_task_names.add(sub_task.name)\n",
+       "            self._check_unique_task_names(schedule[:1], name)\n", "O10.5"),
+     V("", "break", _L, "    def _get_challenge_specs(self, track_spec):\n",
+       "    def _check_unique_task_names(self, tasks_to_check, challenge_name):\n        known_task_names = set()\n        for task in tasks_to_check:\n            for sub_task in task:\n"
+       "                if sub_task.name in known_task_names:\n                    self._error(\"Challenge '%s' contains multiple tasks with the name '%s'. Please assign a unique name for each task.\" % (challenge_name, sub_task.name))\n"
+       "                known_task_names.add(sub_task.name)\n\n    def _get_challenge_specs(self, track_spec):\n")],
+    V("sub-tasks handed to Parallel in reverse order", "break", _L, "        return track.Parallel(tasks, clients)", "        return track.Parallel(tasks[::-1], clients)", "O10.2"),
+    V("corpus dedupe by comparing the size of the set before and after adding", "keep", _L,
+      "            if name in known_corpora_names:\n                self._error(\"Duplicate document corpus name [%s].\" % name)\n            known_corpora_names.add(name)\n",
+      "            n_known = len(known_corpora_names)\n            known_corpora_names.add(name)\n            if len(known_corpora_names) == n_known:\n                self._error(\"Duplicate document corpus name [%s].\" % name)\n"),
+    V("corpus name remembered before it is looked up", "break", _L,
+      "            if name in known_corpora_names:\n                self._error(\"Duplicate document corpus name [%s].\" % name)\n            known_corpora_names.add(name)\n",
+      "            known_corpora_names.add(name)\n            if name in known_corpora_names:\n                self._error(\"Duplicate document corpus name [%s].\" % name)\n", "O10.5"),
+    V("operation dedupe via dict.get", "keep", _L,
+      "            if op.name in ops:\n                self._error(\"Duplicate operation with name '%s'.\" % op.name)\n            else:\n                ops[op.name] = op",
+      "            if ops.get(op.name) is not None:\n                self._error(\"Duplicate operation with name '%s'.\" % op.name)\n            ops[op.name] = op"),
+    V("operations table keyed by something else than the name that is looked up", "break", _L, "                ops[op.name] = op", "                ops[op.type] = op", "O10.5"),
+    [V("challenge dedupe in a helper called from the loop", "keep", _L,
+       "            if name in known_challenge_names:\n                self._error(\"Duplicate challenge with name '%s'.\" % name)\n            known_challenge_names.add(name)\n",
+       "            self._remember_challenge(name, known_challenge_names)\n"),
+     V("", "keep", _L, "    def _get_challenge_specs(self, track_spec):\n",
+       "    def _remember_challenge(self, challenge_name, known):\n        if challenge_name in known:\n            self._error(\"Duplicate challenge with name '%s'.\" % challenge_name)\n"
+       "        known.add(challenge_name)\n\n    def _get_challenge_specs(self, track_spec):\n")],
+    [V("challenge dedupe in a helper that forgets to remember the name", "break", _L,
+       "            if name in known_challenge_names:\n                self._error(\"Duplicate challenge with name '%s'.\" % name)\n            known_challenge_names.add(name)\n",
+       "            self._remember_challenge(name, known_challenge_names)\n", "O10.5"),
+     V("", "break", _L, "    def _get_challenge_specs(self, track_spec):\n",
+       "    def _remember_challenge(self, challenge_name, known):\n        if challenge_name in known:\n            self._error(\"Duplicate challenge with name '%s'.\" % challenge_name)\n"
+       "\n    def _get_challenge_specs(self, track_spec):\n")],
+    V("registry: the first two arms become a table lookup", "keep", _T,
+      "        if v == \"force-merge\":\n            return OperationType.ForceMerge\n        elif v == \"index-stats\":\n            return OperationType.IndexStats\n        elif v == \"node-stats\":",
+      "        first = {\"force-merge\": OperationType.ForceMerge, \"index-stats\": OperationType.IndexStats}\n        if v in first:\n            return first[v]\n        elif v == \"node-stats\":"),
+    V("registry: a table entry names another member", "break", _T,
+      "        if v == \"force-merge\":\n            return OperationType.ForceMerge\n        elif v == \"index-stats\":\n            return OperationType.IndexStats\n        elif v == \"node-stats\":",
+      "        first = {\"force-merge\": OperationType.ForceMerge, \"index-stats\": OperationType.NodeStats}\n        if v in first:\n            return first[v]\n        elif v == \"node-stats\":", "O10.1"),
+    V("hyphenation via a regular loop instead of the comprehension", "keep", _T,
+      "        return \"\".join([\"-\" + c.lower() if c.isupper() else c for c in self.name]).lstrip(\"-\")",
+      "        out = \"\"\n        for c in self.name:\n            out += \"-\" + c.lower() if c.isupper() else c\n        return out.lstrip(\"-\")"),
+    V("hyphenation keeps the leading hyphen", "break", _T,
+      "        return \"\".join([\"-\" + c.lower() if c.isupper() else c for c in self.name]).lstrip(\"-\")",
+      "        return \"\".join([\"-\" + c.lower() if c.isupper() else c for c in self.name])", "O10.1"),
+    V("two default runners registered from a table", "keep", _R,
+      "    register_runner(track.OperationType.ClusterHealth, Retry(ClusterHealth()), async_runner=True)\n    register_runner(track.OperationType.PutPipeline, Retry(PutPipeline()), async_runner=True)\n",
+      "    for op_type, admin_runner in {track.OperationType.ClusterHealth: ClusterHealth(), track.OperationType.PutPipeline: PutPipeline()}.items():\n"
+      "        register_runner(op_type, Retry(admin_runner), async_runner=True)\n"),
+    V("a table-driven registration names no member", "break", _R,
+      "    register_runner(track.OperationType.ClusterHealth, Retry(ClusterHealth()), async_runner=True)\n    register_runner(track.OperationType.PutPipeline, Retry(PutPipeline()), async_runner=True)\n",
+      "    for op_type, admin_runner in {track.OperationType.ClusterHealth: ClusterHealth(), track.OperationType.PutPipelines: PutPipeline()}.items():\n"
+      "        register_runner(op_type, Retry(admin_runner), async_runner=True)\n", "O10.1"),
+    V("corpus-level target-index fallback computed up front (conditional expression)", "keep", _L,
+      "            if len(indices) == 1:\n                corpus_target_idx = self._r(corpus_spec, \"target-index\", mandatory=False, default_value=indices[0].name)\n"
+      "            else:\n                corpus_target_idx = self._r(corpus_spec, \"target-index\", mandatory=False)\n",
+      "            only_index = indices[0] if len(indices) == 1 else None\n"
+      "            corpus_target_idx = self._r(corpus_spec, \"target-index\", mandatory=False, default_value=only_index.name if only_index is not None else None)\n"),
+    V("corpus-level target-index fallback computed up front from the first of several indices", "break", _L,
+      "            if len(indices) == 1:\n                corpus_target_idx = self._r(corpus_spec, \"target-index\", mandatory=False, default_value=indices[0].name)\n"
+      "            else:\n                corpus_target_idx = self._r(corpus_spec, \"target-index\", mandatory=False)\n",
+      "            only_index = indices[0] if len(indices) >= 1 else None\n"
+      "            corpus_target_idx = self._r(corpus_spec, \"target-index\", mandatory=False, default_value=only_index.name if only_index is not None else None)\n", "O10.2"),
+    V("template variables stored with dict.update", "keep", _L,
+      "        for k, v in template_vars.items():\n            env.globals[k] = v\n    # ensure that user variables never override our internal variables\n    if template_internal_vars:\n"
+      "        for macro_type in template_internal_vars:\n            for env_global_key, env_global_value in template_internal_vars[macro_type].items():\n"
+      "                getattr(env, macro_type)[env_global_key] = env_global_value\n\n    template = env.from_string(template_source)",
+      "        env.globals.update(template_vars)\n    # ensure that user variables never override our internal variables\n    if template_internal_vars:\n"
+      "        for env_attribute, internal_vars in template_internal_vars.items():\n            getattr(env, env_attribute).update(internal_vars)\n\n    template = env.from_string(template_source)"),
+    V("template variables stored with dict.update, the user's last", "break", _L,
+      "    if template_vars:\n        for k, v in template_vars.items():\n            env.globals[k] = v\n    # ensure that user variables never override our internal variables\n    if template_internal_vars:\n"
+      "        for macro_type in template_internal_vars:\n            for env_global_key, env_global_value in template_internal_vars[macro_type].items():\n"
+      "                getattr(env, macro_type)[env_global_key] = env_global_value\n\n    template = env.from_string(template_source)",
+      "    if template_internal_vars:\n        for env_attribute, internal_vars in template_internal_vars.items():\n            getattr(env, env_attribute).update(internal_vars)\n"
+      "    if template_vars:\n        env.globals.update(template_vars)\n\n    template = env.from_string(template_source)", "O10.6"),
+    V("task validation extracted into a helper", "keep", _L,
+      "            params=task_spec,\n        )\n        if task.warmup_iterations is not None and task.time_period is not None:",
+      "            params=task_spec,\n        )\n        self._check_task(task, op, challenge_name)\n        return task\n\n    def _check_task(self, task, op, challenge_name):\n"
+      "        if task.warmup_iterations is not None and task.time_period is not None:"),
+    [V("task validation extracted into a helper, one rule weakened there", "break", _L,
+       "            params=task_spec,\n        )\n        if task.warmup_iterations is not None and task.time_period is not None:",
+       "            params=task_spec,\n        )\n        self._check_task(task, op, challenge_name)\n        return task\n\n    def _check_task(self, task, op, challenge_name):\n"
+       "        if task.warmup_iterations is not None and task.time_period is not None:", "O10.5"),
+     V("", "break", _L, "            elif task.warmup_time_period < task.ramp_up_time_period:", "            elif task.warmup_time_period < 0:")],
+    [V("optional task keys read through a helper", "keep", _L,
+       "            iterations=self._r(task_spec, \"iterations\", error_ctx=op.name, mandatory=False, default_value=default_iterations),",
+       "            iterations=self._optional(task_spec, \"iterations\", op, default_iterations),"),
+     V("", "keep", _L, "    def parse_operations(self, ops_specs):\n",
+       "    def _optional(self, spec, key, op, default):\n        return self._r(spec, key, error_ctx=op.name, mandatory=False, default_value=default)\n\n    def parse_operations(self, ops_specs):\n")],
+    [V("optional task keys read through a helper that drops the inherited default", "break", _L,
+       "            iterations=self._r(task_spec, \"iterations\", error_ctx=op.name, mandatory=False, default_value=default_iterations),",
+       "            iterations=self._optional(task_spec, \"iterations\", op, default_iterations),", "O10.2"),
+     V("", "break", _L, "    def parse_operations(self, ops_specs):\n",
+       "    def _optional(self, spec, key, op, default):\n        return self._r(spec, key, error_ctx=op.name, mandatory=False, default_value=None)\n\n    def parse_operations(self, ops_specs):\n")],
+    [V("second-default check extracted into a helper", "keep", _L,
+       "            if default and default_challenge is not None:\n                self._error(\n                    \"Both '%s' and '%s' are defined as default challenges. Please define only one of them as default.\"\n"
+       "                    % (default_challenge.name, name)\n                )\n",
+       "            self._check_single_default(default, default_challenge, name)\n"),
+     V("", "keep", _L, "    def _get_challenge_specs(self, track_spec):\n",
+       "    def _check_single_default(self, is_default, previous_default, challenge_name):\n        if not is_default or previous_default is None:\n            return\n"
+       "        self._error(\"Both '%s' and '%s' are defined as default challenges. Please define only one of them as default.\" % (previous_default.name, challenge_name))\n\n"
+       "    def _get_challenge_specs(self, track_spec):\n")],
+    [V("indices / data-streams exclusion extracted into a helper", "keep", _L,
+       "        if len(indices) > 0 and len(data_streams) > 0:\n            # we guard against this early and support either or\n            raise TrackSyntaxError(\"indices and data-streams cannot both be specified\")\n",
+       "        self._check_exclusive_targets(indices, data_streams)\n"),
+     V("", "keep", _L, "    def _error(self, msg):\n",
+       "    def _check_exclusive_targets(self, the_indices, the_data_streams):\n        if the_indices and the_data_streams:\n"
+       "            raise TrackSyntaxError(\"indices and data-streams cannot both be specified\")\n\n    def _error(self, msg):\n")],
+    V("completed-by rules with list idioms instead of a flag", "keep", _L,
+      "            has_completion_task = False\n            for task in tasks:\n                if task.completes_parent and not has_completion_task:\n                    has_completion_task = True\n"
+      "                elif task.completes_parent:\n                    self._error(\n",
+      "            completing = [t for t in tasks if t.completes_parent]\n            has_completion_task = len(completing) == 1 or (not completing and any(t.any_completes_parent for t in tasks))\n"
+      "            for task in completing[1:]:\n                if task.completes_parent:\n                    self._error(\n"),
+    V("ambiguous completed-by only looked for among the first two tasks", "break", _L,
+      "            has_completion_task = False\n            for task in tasks:\n                if task.completes_parent and not has_completion_task:",
+      "            has_completion_task = False\n            for task in tasks[:2]:\n                if task.completes_parent and not has_completion_task:", "O10.5"),
+    V("reserved names looked up in a copy of the globals that lacks one of them", "break", _L,
+      "        set_internal_params = set(default_internal_template_vars()[\"globals\"].keys())", "        set_internal_params = set(default_internal_template_vars()[\"filters\"].keys())", "O10.5"),
+    V("unused parameters computed with a set difference expression", "keep", _L,
+      "        set_user_params = set(list(self.user_specified_track_params.keys()))\n        set_user_params.difference_update(self.track_defined_params)\n\n        return list(set_user_params)",
+      "        return sorted(set(self.user_specified_track_params) - self.track_defined_params)"),
+    V("registrations replace what was registered before", "break", _L, "        self.track_defined_params.update(set(list_of_track_params))", "        self.track_defined_params = set(list_of_track_params)", "O10.6"),
+    [V("challenge names collected first, duplicates reported from a count", "keep", _L,
+       "        for challenge_spec in challenge_specs:\n            name = self._r(challenge_spec, \"name\", error_ctx=\"challenges\")\n",
+       "        names = [self._r(c, \"name\", error_ctx=\"challenges\") for c in challenge_specs]\n        for dup in sorted({n for n in names if names.count(n) > 1}):\n"
+       "            self._error(\"Duplicate challenge with name '%s'.\" % dup)\n"
+       "        for challenge_spec in challenge_specs:\n            name = self._r(challenge_spec, \"name\", error_ctx=\"challenges\")\n"),
+     V("", "keep", _L, "            if name in known_challenge_names:\n                self._error(\"Duplicate challenge with name '%s'.\" % name)\n            known_challenge_names.add(name)\n", "")],
+    [V("challenge names collected first, only names occurring three times reported", "break", _L,
+       "        for challenge_spec in challenge_specs:\n            name = self._r(challenge_spec, \"name\", error_ctx=\"challenges\")\n",
+       "        names = [self._r(c, \"name\", error_ctx=\"challenges\") for c in challenge_specs]\n        for dup in sorted({n for n in names if names.count(n) > 2}):\n"
+       "            self._error(\"Duplicate challenge with name '%s'.\" % dup)\n"
+       "        for challenge_spec in challenge_specs:\n            name = self._r(challenge_spec, \"name\", error_ctx=\"challenges\")\n", "O10.5"),
+     V("", "break", _L, "            if name in known_challenge_names:\n                self._error(\"Duplicate challenge with name '%s'.\" % name)\n            known_challenge_names.add(name)\n", "")],
+    V("F18 reverted: the version conversion only handles ValueError", "break", _L,
+      "        except (TypeError, ValueError):\n            raise exceptions.InvalidSyntax(\"version identifier", "        except ValueError:\n            raise exceptions.InvalidSyntax(\"version identifier", "O10.4"),
+    V("F18 reverted: the version is read from whatever the top-level JSON value is", "break", _L,
+      "        raw_version = (\n            track_spec.get(\"version\", TrackFileReader.MAXIMUM_SUPPORTED_TRACK_VERSION)\n            if isinstance(track_spec, dict)\n"
+      "            else TrackFileReader.MAXIMUM_SUPPORTED_TRACK_VERSION\n        )\n",
+      "        raw_version = track_spec.get(\"version\", TrackFileReader.MAXIMUM_SUPPORTED_TRACK_VERSION)\n", "O10.4"),
+    [V("TrackFileReader.read split into version check / validation / build helpers", "keep", _L,
+       "        raw_version = (\n            track_spec.get(\"version\", TrackFileReader.MAXIMUM_SUPPORTED_TRACK_VERSION)\n            if isinstance(track_spec, dict)\n"
+       "            else TrackFileReader.MAXIMUM_SUPPORTED_TRACK_VERSION\n        )\n        try:\n            track_version = int(raw_version)\n",
+       "        self._check_version(track_name, track_spec)\n        self._validate(track_name, track_spec)\n        return self._build(track_name, track_spec, mapping_dir, track_spec_file)\n\n"
+       "    def _check_version(self, track_name, track_spec):\n"
+       "        raw_version = (\n            track_spec.get(\"version\", TrackFileReader.MAXIMUM_SUPPORTED_TRACK_VERSION)\n            if isinstance(track_spec, dict)\n"
+       "            else TrackFileReader.MAXIMUM_SUPPORTED_TRACK_VERSION\n        )\n        try:\n            track_version = int(raw_version)\n"),
+     V("", "keep", _L, "            )\n\n        try:\n            jsonschema.validate(track_spec, self.track_schema)\n",
+       "            )\n\n    def _validate(self, track_name, track_spec):\n        try:\n            jsonschema.validate(track_spec, self.track_schema)\n"),
+     V("", "keep", _L, "        current_track = self.read_track(track_name, track_spec, mapping_dir, track_spec_file)\n",
+       "    def _build(self, track_name, track_spec, mapping_dir, track_spec_file):\n        current_track = self.read_track(track_name, track_spec, mapping_dir, track_spec_file)\n")],
+    [V("TrackFileReader.read split into helpers, the track built before it is validated", "break", _L,
+       "        raw_version = (\n            track_spec.get(\"version\", TrackFileReader.MAXIMUM_SUPPORTED_TRACK_VERSION)\n            if isinstance(track_spec, dict)\n"
+       "            else TrackFileReader.MAXIMUM_SUPPORTED_TRACK_VERSION\n        )\n        try:\n            track_version = int(raw_version)\n",
+       "        self._check_version(track_name, track_spec)\n        current = self._build(track_name, track_spec, mapping_dir, track_spec_file)\n        self._validate(track_name, track_spec)\n        return current\n\n"
+       "    def _check_version(self, track_name, track_spec):\n"
+       "        raw_version = (\n            track_spec.get(\"version\", TrackFileReader.MAXIMUM_SUPPORTED_TRACK_VERSION)\n            if isinstance(track_spec, dict)\n"
+       "            else TrackFileReader.MAXIMUM_SUPPORTED_TRACK_VERSION\n        )\n        try:\n            track_version = int(raw_version)\n", "O10.4"),
+     V("", "break", _L, "            )\n\n        try:\n            jsonschema.validate(track_spec, self.track_schema)\n",
+       "            )\n\n    def _validate(self, track_name, track_spec):\n        try:\n            jsonschema.validate(track_spec, self.track_schema)\n"),
+     V("", "break", _L, "        current_track = self.read_track(track_name, track_spec, mapping_dir, track_spec_file)\n",
+       "    def _build(self, track_name, track_spec, mapping_dir, track_spec_file):\n        current_track = self.read_track(track_name, track_spec, mapping_dir, track_spec_file)\n")],
+    [V("registration of an included template moved into a helper", "keep", _L,
+       "        self.logger.info(\"Loading template [%s].\", description)\n        register_all_params_in_track(contents, self.complete_track_params)\n",
+       "        self.logger.info(\"Loading template [%s].\", description)\n        self._account_for(contents)\n"),
+     V("", "keep", _L, "    def _create_corpora(self, corpora_specs, indices, data_streams):\n",
+       "    def _account_for(self, template_text):\n        register_all_params_in_track(template_text, self.complete_track_params)\n\n    def _create_corpora(self, corpora_specs, indices, data_streams):\n")],
+    [V("registration of an included template moved into a helper that registers only sometimes", "break", _L,
+       "        self.logger.info(\"Loading template [%s].\", description)\n        register_all_params_in_track(contents, self.complete_track_params)\n",
+       "        self.logger.info(\"Loading template [%s].\", description)\n        self._account_for(contents)\n", "O10.6"),
+     V("", "break", _L, "    def _create_corpora(self, corpora_specs, indices, data_streams):\n",
+       "    def _account_for(self, template_text):\n        if self.track_params:\n            register_all_params_in_track(template_text, self.complete_track_params)\n\n"
+       "    def _create_corpora(self, corpora_specs, indices, data_streams):\n")],
 ]
